@@ -162,7 +162,6 @@ macro_rules! compare {
             $dl
         };
         assert_eq!(l, direct_len($fam, $k, $v), "dispatcher len differs from the code's own length function");
-        assert_eq!(l, ra, "dispatcher len differs from the bits written");
         a.write_bits(sentinel, 64).unwrap();
         a.rpos = off;
         let mut b2 = a.clone();
@@ -173,20 +172,23 @@ macro_rules! compare {
         let y: u64 = direct_read!(b2, $fam, $k);
         assert_eq!(x, y, "dispatcher read returns a different value than the code's own method");
         assert_eq!(a.rpos, b2.rpos, "dispatcher read consumes a different number of bits");
-        assert_eq!(x, $v, "reading with the dispatcher what it wrote must return the value");
+        // "reading with the dispatcher what it wrote returns the value" and "len == bits written" follow from
+        // these equalities with the code's own methods and C03 / C06 (checked there for every code)
         crate::cover!($s, $v > 100, "large value");
     }};
 }
 
 macro_rules! c10_bodies {
-    ($e:ty, $const_code:ident, $codes:ident, $codes_sym:ident, $func:ident, $func_rej:ident, $factory:ident) => {
+    ($e:ty, $const_code:ident, $codes:ident, $codes_sym:ident, $func:ident, $func_rej:ident, $factory:ident, $const_static:ident, $codes_static:ident) => {
         /// compile-time constants: ConstCode<ID> through its inherent methods, the Static* traits and CodeLen
         pub fn $const_code<S: Src, const ID: usize, const FAM: u8, const K: usize>(s: &mut S) {
             compare!(s, $e, FAM, K,
                 |w, v| ConstCode::<ID>.write(w, v).unwrap(),
                 |r| ConstCode::<ID>.read(r).unwrap(),
                 |v| CodeLen::len(&ConstCode::<ID>, v));
-            // the Static* trait impls
+        }
+        /// the Static* trait impls of ConstCode<ID>
+        pub fn $const_static<S: Src, const ID: usize, const FAM: u8, const K: usize>(s: &mut S) {
             let v = s.u64();
             s.assume(dom(FAM, K, v));
             let mut a = MS::<$e, true>::new();
@@ -195,8 +197,11 @@ macro_rules! c10_bodies {
             let rb = direct_write!(b, FAM, K, v);
             assert!(ra == rb && a.bits == b.bits && a.wlen == b.wlen, "StaticCodeWrite impl differs from the code's own method");
             a.write_unary(2).unwrap();
+            let mut b3 = a.clone();
             let x = <ConstCode<ID> as StaticCodeRead<$e, MS<$e, true>>>::read(&ConstCode::<ID>, &mut a).unwrap();
-            assert_eq!(x, v, "StaticCodeRead impl does not read back the value");
+            let y: u64 = direct_read!(b3, FAM, K);
+            assert!(x == y && a.rpos == b3.rpos, "StaticCodeRead impl differs from the code's own method");
+            crate::cover!(s, v > 100, "large value");
         }
         /// enumeration variant with a concrete parameter (so the matching arm is the one for that parameter)
         pub fn $codes<S: Src, const FAM: u8, const K: usize>(s: &mut S) {
@@ -205,6 +210,10 @@ macro_rules! c10_bodies {
                 |w, v| code.write(w, v).unwrap(),
                 |r| code.read(r).unwrap(),
                 |v| CodeLen::len(&code, v));
+        }
+        /// the Static* trait impls of Codes
+        pub fn $codes_static<S: Src, const FAM: u8, const K: usize>(s: &mut S) {
+            let code = codes_from(FAM, K);
             let v = s.u64();
             s.assume(dom(FAM, K, v));
             let mut a = MS::<$e, true>::new();
@@ -213,8 +222,11 @@ macro_rules! c10_bodies {
             let rb = direct_write!(b, FAM, K, v);
             assert!(ra == rb && a.bits == b.bits && a.wlen == b.wlen, "StaticCodeWrite impl differs from the code's own method");
             a.write_unary(2).unwrap();
+            let mut b3 = a.clone();
             let x = <Codes as StaticCodeRead<$e, MS<$e, true>>>::read(&code, &mut a).unwrap();
-            assert_eq!(x, v, "StaticCodeRead impl does not read back the value");
+            let y: u64 = direct_read!(b3, FAM, K);
+            assert!(x == y && a.rpos == b3.rpos, "StaticCodeRead impl differs from the code's own method");
+            crate::cover!(s, v > 100, "large value");
         }
         /// enumeration variant with a symbolic parameter beyond the special-cased ones (catch-all arms)
         pub fn $codes_sym<S: Src, const FAM: u8>(s: &mut S) {
@@ -261,7 +273,6 @@ macro_rules! c10_bodies {
             let y: u64 = direct_read!(r3, FAM, K);
             assert!(x == y && z == y, "factory dispatcher read returns a different value than the code's own method");
             assert!(r1.rpos == r3.rpos && r2.rpos == r3.rpos, "factory dispatcher read consumes a different number of bits");
-            assert_eq!(x, v, "reading with the factory dispatcher what the direct method wrote must return the value");
             crate::cover!(s, v > 100, "large value");
         }
         /// parameters without a function-pointer entry are rejected, not mapped to some other code
@@ -275,502 +286,994 @@ macro_rules! c10_bodies {
         }
     };
 }
-c10_bodies!(BE, const_code_be, codes_be, codes_sym_be, func_be, func_rej_be, factory_be);
-c10_bodies!(LE, const_code_le, codes_le, codes_sym_le, func_le, func_rej_le, factory_le);
+c10_bodies!(BE, const_code_be, codes_be, codes_sym_be, func_be, func_rej_be, factory_be, const_static_be, codes_static_be);
+c10_bodies!(LE, const_code_le, codes_le, codes_sym_le, func_le, func_rej_le, factory_le, const_static_le, codes_static_le);
 
 crate::harnesses! {
     #[kani::unwind(12)]
-    c10_const_unary_be (quick, "ConstCode<code_consts::UNARY>, BE stream", "write/read/len + Static* impls vs unary(0); symbolic value (domain of the code), offset<=8") => const_code_be::<_, {cc::UNARY}, {UNARY}, 0>;
+    c10_const_unary_be (quick, "ConstCode<code_consts::UNARY>, BE stream", "write/read/len vs unary(0); symbolic value (domain of the code), offset<=8") => const_code_be::<_, {cc::UNARY}, {UNARY}, 0>;
     #[kani::unwind(12)]
-    c10_const_unary_le (thorough, "ConstCode<code_consts::UNARY>, LE stream", "write/read/len + Static* impls vs unary(0); symbolic value (domain of the code), offset<=8") => const_code_le::<_, {cc::UNARY}, {UNARY}, 0>;
+    c10_conststatic_unary_be (thorough, "ConstCode<code_consts::UNARY>, BE stream (StaticCodeRead/StaticCodeWrite impls)", "Static* trait impls vs the code own method; symbolic value") => const_static_be::<_, {cc::UNARY}, {UNARY}, 0>;
     #[kani::unwind(12)]
-    c10_const_gamma_be (quick, "ConstCode<code_consts::GAMMA>, BE stream", "write/read/len + Static* impls vs gamma(0); symbolic value (domain of the code), offset<=8") => const_code_be::<_, {cc::GAMMA}, {GAMMA}, 0>;
+    c10_const_unary_le (thorough, "ConstCode<code_consts::UNARY>, LE stream", "write/read/len vs unary(0); symbolic value (domain of the code), offset<=8") => const_code_le::<_, {cc::UNARY}, {UNARY}, 0>;
     #[kani::unwind(12)]
-    c10_const_gamma_le (thorough, "ConstCode<code_consts::GAMMA>, LE stream", "write/read/len + Static* impls vs gamma(0); symbolic value (domain of the code), offset<=8") => const_code_le::<_, {cc::GAMMA}, {GAMMA}, 0>;
+    c10_conststatic_unary_le (thorough, "ConstCode<code_consts::UNARY>, LE stream (StaticCodeRead/StaticCodeWrite impls)", "Static* trait impls vs the code own method; symbolic value") => const_static_le::<_, {cc::UNARY}, {UNARY}, 0>;
     #[kani::unwind(12)]
-    c10_const_delta_be (quick, "ConstCode<code_consts::DELTA>, BE stream", "write/read/len + Static* impls vs delta(0); symbolic value (domain of the code), offset<=8") => const_code_be::<_, {cc::DELTA}, {DELTA}, 0>;
+    c10_const_gamma_be (quick, "ConstCode<code_consts::GAMMA>, BE stream", "write/read/len vs gamma(0); symbolic value (domain of the code), offset<=8") => const_code_be::<_, {cc::GAMMA}, {GAMMA}, 0>;
     #[kani::unwind(12)]
-    c10_const_delta_le (thorough, "ConstCode<code_consts::DELTA>, LE stream", "write/read/len + Static* impls vs delta(0); symbolic value (domain of the code), offset<=8") => const_code_le::<_, {cc::DELTA}, {DELTA}, 0>;
+    c10_conststatic_gamma_be (quick, "ConstCode<code_consts::GAMMA>, BE stream (StaticCodeRead/StaticCodeWrite impls)", "Static* trait impls vs the code own method; symbolic value") => const_static_be::<_, {cc::GAMMA}, {GAMMA}, 0>;
     #[kani::unwind(12)]
-    c10_const_omega_be (quick, "ConstCode<code_consts::OMEGA>, BE stream", "write/read/len + Static* impls vs omega(0); symbolic value (domain of the code), offset<=8") => const_code_be::<_, {cc::OMEGA}, {OMEGA}, 0>;
+    c10_const_gamma_le (thorough, "ConstCode<code_consts::GAMMA>, LE stream", "write/read/len vs gamma(0); symbolic value (domain of the code), offset<=8") => const_code_le::<_, {cc::GAMMA}, {GAMMA}, 0>;
     #[kani::unwind(12)]
-    c10_const_omega_le (quick, "ConstCode<code_consts::OMEGA>, LE stream", "write/read/len + Static* impls vs omega(0); symbolic value (domain of the code), offset<=8") => const_code_le::<_, {cc::OMEGA}, {OMEGA}, 0>;
+    c10_conststatic_gamma_le (thorough, "ConstCode<code_consts::GAMMA>, LE stream (StaticCodeRead/StaticCodeWrite impls)", "Static* trait impls vs the code own method; symbolic value") => const_static_le::<_, {cc::GAMMA}, {GAMMA}, 0>;
     #[kani::unwind(12)]
-    c10_const_vbyte_be_be (quick, "ConstCode<code_consts::VBYTE_BE>, BE stream", "write/read/len + Static* impls vs vbyte_be(0); symbolic value (domain of the code), offset<=8") => const_code_be::<_, {cc::VBYTE_BE}, {VBYTE_BE}, 0>;
+    c10_const_delta_be (thorough, "ConstCode<code_consts::DELTA>, BE stream", "write/read/len vs delta(0); symbolic value (domain of the code), offset<=8") => const_code_be::<_, {cc::DELTA}, {DELTA}, 0>;
     #[kani::unwind(12)]
-    c10_const_vbyte_be_le (thorough, "ConstCode<code_consts::VBYTE_BE>, LE stream", "write/read/len + Static* impls vs vbyte_be(0); symbolic value (domain of the code), offset<=8") => const_code_le::<_, {cc::VBYTE_BE}, {VBYTE_BE}, 0>;
+    c10_conststatic_delta_be (thorough, "ConstCode<code_consts::DELTA>, BE stream (StaticCodeRead/StaticCodeWrite impls)", "Static* trait impls vs the code own method; symbolic value") => const_static_be::<_, {cc::DELTA}, {DELTA}, 0>;
     #[kani::unwind(12)]
-    c10_const_vbyte_le_be (quick, "ConstCode<code_consts::VBYTE_LE>, BE stream", "write/read/len + Static* impls vs vbyte_le(0); symbolic value (domain of the code), offset<=8") => const_code_be::<_, {cc::VBYTE_LE}, {VBYTE_LE}, 0>;
+    c10_const_delta_le (thorough, "ConstCode<code_consts::DELTA>, LE stream", "write/read/len vs delta(0); symbolic value (domain of the code), offset<=8") => const_code_le::<_, {cc::DELTA}, {DELTA}, 0>;
     #[kani::unwind(12)]
-    c10_const_vbyte_le_le (thorough, "ConstCode<code_consts::VBYTE_LE>, LE stream", "write/read/len + Static* impls vs vbyte_le(0); symbolic value (domain of the code), offset<=8") => const_code_le::<_, {cc::VBYTE_LE}, {VBYTE_LE}, 0>;
+    c10_conststatic_delta_le (thorough, "ConstCode<code_consts::DELTA>, LE stream (StaticCodeRead/StaticCodeWrite impls)", "Static* trait impls vs the code own method; symbolic value") => const_static_le::<_, {cc::DELTA}, {DELTA}, 0>;
     #[kani::unwind(12)]
-    c10_const_zeta1_be (quick, "ConstCode<code_consts::ZETA1>, BE stream", "write/read/len + Static* impls vs zeta(1); symbolic value (domain of the code), offset<=8") => const_code_be::<_, {cc::ZETA1}, {ZETA}, 1>;
+    c10_const_omega_be (quick, "ConstCode<code_consts::OMEGA>, BE stream", "write/read/len vs omega(0); symbolic value (domain of the code), offset<=8") => const_code_be::<_, {cc::OMEGA}, {OMEGA}, 0>;
     #[kani::unwind(12)]
-    c10_const_zeta1_le (thorough, "ConstCode<code_consts::ZETA1>, LE stream", "write/read/len + Static* impls vs zeta(1); symbolic value (domain of the code), offset<=8") => const_code_le::<_, {cc::ZETA1}, {ZETA}, 1>;
+    c10_conststatic_omega_be (thorough, "ConstCode<code_consts::OMEGA>, BE stream (StaticCodeRead/StaticCodeWrite impls)", "Static* trait impls vs the code own method; symbolic value") => const_static_be::<_, {cc::OMEGA}, {OMEGA}, 0>;
     #[kani::unwind(12)]
-    c10_const_zeta2_be (quick, "ConstCode<code_consts::ZETA2>, BE stream", "write/read/len + Static* impls vs zeta(2); symbolic value (domain of the code), offset<=8") => const_code_be::<_, {cc::ZETA2}, {ZETA}, 2>;
+    c10_const_omega_le (thorough, "ConstCode<code_consts::OMEGA>, LE stream", "write/read/len vs omega(0); symbolic value (domain of the code), offset<=8") => const_code_le::<_, {cc::OMEGA}, {OMEGA}, 0>;
     #[kani::unwind(12)]
-    c10_const_zeta2_le (thorough, "ConstCode<code_consts::ZETA2>, LE stream", "write/read/len + Static* impls vs zeta(2); symbolic value (domain of the code), offset<=8") => const_code_le::<_, {cc::ZETA2}, {ZETA}, 2>;
+    c10_conststatic_omega_le (thorough, "ConstCode<code_consts::OMEGA>, LE stream (StaticCodeRead/StaticCodeWrite impls)", "Static* trait impls vs the code own method; symbolic value") => const_static_le::<_, {cc::OMEGA}, {OMEGA}, 0>;
     #[kani::unwind(12)]
-    c10_const_zeta3_be (quick, "ConstCode<code_consts::ZETA3>, BE stream", "write/read/len + Static* impls vs zeta(3); symbolic value (domain of the code), offset<=8") => const_code_be::<_, {cc::ZETA3}, {ZETA}, 3>;
+    c10_const_vbyte_be_be (thorough, "ConstCode<code_consts::VBYTE_BE>, BE stream", "write/read/len vs vbyte_be(0); symbolic value (domain of the code), offset<=8") => const_code_be::<_, {cc::VBYTE_BE}, {VBYTE_BE}, 0>;
     #[kani::unwind(12)]
-    c10_const_zeta3_le (quick, "ConstCode<code_consts::ZETA3>, LE stream", "write/read/len + Static* impls vs zeta(3); symbolic value (domain of the code), offset<=8") => const_code_le::<_, {cc::ZETA3}, {ZETA}, 3>;
+    c10_conststatic_vbyte_be_be (thorough, "ConstCode<code_consts::VBYTE_BE>, BE stream (StaticCodeRead/StaticCodeWrite impls)", "Static* trait impls vs the code own method; symbolic value") => const_static_be::<_, {cc::VBYTE_BE}, {VBYTE_BE}, 0>;
     #[kani::unwind(12)]
-    c10_const_zeta4_be (thorough, "ConstCode<code_consts::ZETA4>, BE stream", "write/read/len + Static* impls vs zeta(4); symbolic value (domain of the code), offset<=8") => const_code_be::<_, {cc::ZETA4}, {ZETA}, 4>;
+    c10_const_vbyte_be_le (thorough, "ConstCode<code_consts::VBYTE_BE>, LE stream", "write/read/len vs vbyte_be(0); symbolic value (domain of the code), offset<=8") => const_code_le::<_, {cc::VBYTE_BE}, {VBYTE_BE}, 0>;
     #[kani::unwind(12)]
-    c10_const_zeta4_le (thorough, "ConstCode<code_consts::ZETA4>, LE stream", "write/read/len + Static* impls vs zeta(4); symbolic value (domain of the code), offset<=8") => const_code_le::<_, {cc::ZETA4}, {ZETA}, 4>;
+    c10_conststatic_vbyte_be_le (thorough, "ConstCode<code_consts::VBYTE_BE>, LE stream (StaticCodeRead/StaticCodeWrite impls)", "Static* trait impls vs the code own method; symbolic value") => const_static_le::<_, {cc::VBYTE_BE}, {VBYTE_BE}, 0>;
     #[kani::unwind(12)]
-    c10_const_zeta5_be (thorough, "ConstCode<code_consts::ZETA5>, BE stream", "write/read/len + Static* impls vs zeta(5); symbolic value (domain of the code), offset<=8") => const_code_be::<_, {cc::ZETA5}, {ZETA}, 5>;
+    c10_const_vbyte_le_be (quick, "ConstCode<code_consts::VBYTE_LE>, BE stream", "write/read/len vs vbyte_le(0); symbolic value (domain of the code), offset<=8") => const_code_be::<_, {cc::VBYTE_LE}, {VBYTE_LE}, 0>;
     #[kani::unwind(12)]
-    c10_const_zeta5_le (thorough, "ConstCode<code_consts::ZETA5>, LE stream", "write/read/len + Static* impls vs zeta(5); symbolic value (domain of the code), offset<=8") => const_code_le::<_, {cc::ZETA5}, {ZETA}, 5>;
+    c10_conststatic_vbyte_le_be (thorough, "ConstCode<code_consts::VBYTE_LE>, BE stream (StaticCodeRead/StaticCodeWrite impls)", "Static* trait impls vs the code own method; symbolic value") => const_static_be::<_, {cc::VBYTE_LE}, {VBYTE_LE}, 0>;
     #[kani::unwind(12)]
-    c10_const_zeta6_be (thorough, "ConstCode<code_consts::ZETA6>, BE stream", "write/read/len + Static* impls vs zeta(6); symbolic value (domain of the code), offset<=8") => const_code_be::<_, {cc::ZETA6}, {ZETA}, 6>;
+    c10_const_vbyte_le_le (thorough, "ConstCode<code_consts::VBYTE_LE>, LE stream", "write/read/len vs vbyte_le(0); symbolic value (domain of the code), offset<=8") => const_code_le::<_, {cc::VBYTE_LE}, {VBYTE_LE}, 0>;
     #[kani::unwind(12)]
-    c10_const_zeta6_le (thorough, "ConstCode<code_consts::ZETA6>, LE stream", "write/read/len + Static* impls vs zeta(6); symbolic value (domain of the code), offset<=8") => const_code_le::<_, {cc::ZETA6}, {ZETA}, 6>;
+    c10_conststatic_vbyte_le_le (thorough, "ConstCode<code_consts::VBYTE_LE>, LE stream (StaticCodeRead/StaticCodeWrite impls)", "Static* trait impls vs the code own method; symbolic value") => const_static_le::<_, {cc::VBYTE_LE}, {VBYTE_LE}, 0>;
     #[kani::unwind(12)]
-    c10_const_zeta7_be (quick, "ConstCode<code_consts::ZETA7>, BE stream", "write/read/len + Static* impls vs zeta(7); symbolic value (domain of the code), offset<=8") => const_code_be::<_, {cc::ZETA7}, {ZETA}, 7>;
+    c10_const_zeta1_be (quick, "ConstCode<code_consts::ZETA1>, BE stream", "write/read/len vs zeta(1); symbolic value (domain of the code), offset<=8") => const_code_be::<_, {cc::ZETA1}, {ZETA}, 1>;
     #[kani::unwind(12)]
-    c10_const_zeta7_le (thorough, "ConstCode<code_consts::ZETA7>, LE stream", "write/read/len + Static* impls vs zeta(7); symbolic value (domain of the code), offset<=8") => const_code_le::<_, {cc::ZETA7}, {ZETA}, 7>;
+    c10_conststatic_zeta1_be (thorough, "ConstCode<code_consts::ZETA1>, BE stream (StaticCodeRead/StaticCodeWrite impls)", "Static* trait impls vs the code own method; symbolic value") => const_static_be::<_, {cc::ZETA1}, {ZETA}, 1>;
     #[kani::unwind(12)]
-    c10_const_zeta8_be (thorough, "ConstCode<code_consts::ZETA8>, BE stream", "write/read/len + Static* impls vs zeta(8); symbolic value (domain of the code), offset<=8") => const_code_be::<_, {cc::ZETA8}, {ZETA}, 8>;
+    c10_const_zeta1_le (thorough, "ConstCode<code_consts::ZETA1>, LE stream", "write/read/len vs zeta(1); symbolic value (domain of the code), offset<=8") => const_code_le::<_, {cc::ZETA1}, {ZETA}, 1>;
     #[kani::unwind(12)]
-    c10_const_zeta8_le (thorough, "ConstCode<code_consts::ZETA8>, LE stream", "write/read/len + Static* impls vs zeta(8); symbolic value (domain of the code), offset<=8") => const_code_le::<_, {cc::ZETA8}, {ZETA}, 8>;
+    c10_conststatic_zeta1_le (thorough, "ConstCode<code_consts::ZETA1>, LE stream (StaticCodeRead/StaticCodeWrite impls)", "Static* trait impls vs the code own method; symbolic value") => const_static_le::<_, {cc::ZETA1}, {ZETA}, 1>;
     #[kani::unwind(12)]
-    c10_const_zeta9_be (thorough, "ConstCode<code_consts::ZETA9>, BE stream", "write/read/len + Static* impls vs zeta(9); symbolic value (domain of the code), offset<=8") => const_code_be::<_, {cc::ZETA9}, {ZETA}, 9>;
+    c10_const_zeta2_be (thorough, "ConstCode<code_consts::ZETA2>, BE stream", "write/read/len vs zeta(2); symbolic value (domain of the code), offset<=8") => const_code_be::<_, {cc::ZETA2}, {ZETA}, 2>;
     #[kani::unwind(12)]
-    c10_const_zeta9_le (thorough, "ConstCode<code_consts::ZETA9>, LE stream", "write/read/len + Static* impls vs zeta(9); symbolic value (domain of the code), offset<=8") => const_code_le::<_, {cc::ZETA9}, {ZETA}, 9>;
+    c10_conststatic_zeta2_be (thorough, "ConstCode<code_consts::ZETA2>, BE stream (StaticCodeRead/StaticCodeWrite impls)", "Static* trait impls vs the code own method; symbolic value") => const_static_be::<_, {cc::ZETA2}, {ZETA}, 2>;
     #[kani::unwind(12)]
-    c10_const_zeta10_be (quick, "ConstCode<code_consts::ZETA10>, BE stream", "write/read/len + Static* impls vs zeta(10); symbolic value (domain of the code), offset<=8") => const_code_be::<_, {cc::ZETA10}, {ZETA}, 10>;
+    c10_const_zeta2_le (thorough, "ConstCode<code_consts::ZETA2>, LE stream", "write/read/len vs zeta(2); symbolic value (domain of the code), offset<=8") => const_code_le::<_, {cc::ZETA2}, {ZETA}, 2>;
     #[kani::unwind(12)]
-    c10_const_zeta10_le (thorough, "ConstCode<code_consts::ZETA10>, LE stream", "write/read/len + Static* impls vs zeta(10); symbolic value (domain of the code), offset<=8") => const_code_le::<_, {cc::ZETA10}, {ZETA}, 10>;
+    c10_conststatic_zeta2_le (thorough, "ConstCode<code_consts::ZETA2>, LE stream (StaticCodeRead/StaticCodeWrite impls)", "Static* trait impls vs the code own method; symbolic value") => const_static_le::<_, {cc::ZETA2}, {ZETA}, 2>;
     #[kani::unwind(12)]
-    c10_const_rice0_be (quick, "ConstCode<code_consts::RICE0>, BE stream", "write/read/len + Static* impls vs rice(0); symbolic value (domain of the code), offset<=8") => const_code_be::<_, {cc::RICE0}, {RICE}, 0>;
+    c10_const_zeta3_be (quick, "ConstCode<code_consts::ZETA3>, BE stream", "write/read/len vs zeta(3); symbolic value (domain of the code), offset<=8") => const_code_be::<_, {cc::ZETA3}, {ZETA}, 3>;
     #[kani::unwind(12)]
-    c10_const_rice0_le (thorough, "ConstCode<code_consts::RICE0>, LE stream", "write/read/len + Static* impls vs rice(0); symbolic value (domain of the code), offset<=8") => const_code_le::<_, {cc::RICE0}, {RICE}, 0>;
+    c10_conststatic_zeta3_be (quick, "ConstCode<code_consts::ZETA3>, BE stream (StaticCodeRead/StaticCodeWrite impls)", "Static* trait impls vs the code own method; symbolic value") => const_static_be::<_, {cc::ZETA3}, {ZETA}, 3>;
     #[kani::unwind(12)]
-    c10_const_rice1_be (quick, "ConstCode<code_consts::RICE1>, BE stream", "write/read/len + Static* impls vs rice(1); symbolic value (domain of the code), offset<=8") => const_code_be::<_, {cc::RICE1}, {RICE}, 1>;
+    c10_const_zeta3_le (quick, "ConstCode<code_consts::ZETA3>, LE stream", "write/read/len vs zeta(3); symbolic value (domain of the code), offset<=8") => const_code_le::<_, {cc::ZETA3}, {ZETA}, 3>;
     #[kani::unwind(12)]
-    c10_const_rice1_le (thorough, "ConstCode<code_consts::RICE1>, LE stream", "write/read/len + Static* impls vs rice(1); symbolic value (domain of the code), offset<=8") => const_code_le::<_, {cc::RICE1}, {RICE}, 1>;
+    c10_conststatic_zeta3_le (thorough, "ConstCode<code_consts::ZETA3>, LE stream (StaticCodeRead/StaticCodeWrite impls)", "Static* trait impls vs the code own method; symbolic value") => const_static_le::<_, {cc::ZETA3}, {ZETA}, 3>;
     #[kani::unwind(12)]
-    c10_const_rice2_be (thorough, "ConstCode<code_consts::RICE2>, BE stream", "write/read/len + Static* impls vs rice(2); symbolic value (domain of the code), offset<=8") => const_code_be::<_, {cc::RICE2}, {RICE}, 2>;
+    c10_const_zeta4_be (thorough, "ConstCode<code_consts::ZETA4>, BE stream", "write/read/len vs zeta(4); symbolic value (domain of the code), offset<=8") => const_code_be::<_, {cc::ZETA4}, {ZETA}, 4>;
     #[kani::unwind(12)]
-    c10_const_rice2_le (thorough, "ConstCode<code_consts::RICE2>, LE stream", "write/read/len + Static* impls vs rice(2); symbolic value (domain of the code), offset<=8") => const_code_le::<_, {cc::RICE2}, {RICE}, 2>;
+    c10_conststatic_zeta4_be (thorough, "ConstCode<code_consts::ZETA4>, BE stream (StaticCodeRead/StaticCodeWrite impls)", "Static* trait impls vs the code own method; symbolic value") => const_static_be::<_, {cc::ZETA4}, {ZETA}, 4>;
     #[kani::unwind(12)]
-    c10_const_rice3_be (thorough, "ConstCode<code_consts::RICE3>, BE stream", "write/read/len + Static* impls vs rice(3); symbolic value (domain of the code), offset<=8") => const_code_be::<_, {cc::RICE3}, {RICE}, 3>;
+    c10_const_zeta4_le (thorough, "ConstCode<code_consts::ZETA4>, LE stream", "write/read/len vs zeta(4); symbolic value (domain of the code), offset<=8") => const_code_le::<_, {cc::ZETA4}, {ZETA}, 4>;
     #[kani::unwind(12)]
-    c10_const_rice3_le (thorough, "ConstCode<code_consts::RICE3>, LE stream", "write/read/len + Static* impls vs rice(3); symbolic value (domain of the code), offset<=8") => const_code_le::<_, {cc::RICE3}, {RICE}, 3>;
+    c10_conststatic_zeta4_le (thorough, "ConstCode<code_consts::ZETA4>, LE stream (StaticCodeRead/StaticCodeWrite impls)", "Static* trait impls vs the code own method; symbolic value") => const_static_le::<_, {cc::ZETA4}, {ZETA}, 4>;
     #[kani::unwind(12)]
-    c10_const_rice4_be (thorough, "ConstCode<code_consts::RICE4>, BE stream", "write/read/len + Static* impls vs rice(4); symbolic value (domain of the code), offset<=8") => const_code_be::<_, {cc::RICE4}, {RICE}, 4>;
+    c10_const_zeta5_be (thorough, "ConstCode<code_consts::ZETA5>, BE stream", "write/read/len vs zeta(5); symbolic value (domain of the code), offset<=8") => const_code_be::<_, {cc::ZETA5}, {ZETA}, 5>;
     #[kani::unwind(12)]
-    c10_const_rice4_le (thorough, "ConstCode<code_consts::RICE4>, LE stream", "write/read/len + Static* impls vs rice(4); symbolic value (domain of the code), offset<=8") => const_code_le::<_, {cc::RICE4}, {RICE}, 4>;
+    c10_conststatic_zeta5_be (thorough, "ConstCode<code_consts::ZETA5>, BE stream (StaticCodeRead/StaticCodeWrite impls)", "Static* trait impls vs the code own method; symbolic value") => const_static_be::<_, {cc::ZETA5}, {ZETA}, 5>;
     #[kani::unwind(12)]
-    c10_const_rice5_be (quick, "ConstCode<code_consts::RICE5>, BE stream", "write/read/len + Static* impls vs rice(5); symbolic value (domain of the code), offset<=8") => const_code_be::<_, {cc::RICE5}, {RICE}, 5>;
+    c10_const_zeta5_le (thorough, "ConstCode<code_consts::ZETA5>, LE stream", "write/read/len vs zeta(5); symbolic value (domain of the code), offset<=8") => const_code_le::<_, {cc::ZETA5}, {ZETA}, 5>;
     #[kani::unwind(12)]
-    c10_const_rice5_le (thorough, "ConstCode<code_consts::RICE5>, LE stream", "write/read/len + Static* impls vs rice(5); symbolic value (domain of the code), offset<=8") => const_code_le::<_, {cc::RICE5}, {RICE}, 5>;
+    c10_conststatic_zeta5_le (thorough, "ConstCode<code_consts::ZETA5>, LE stream (StaticCodeRead/StaticCodeWrite impls)", "Static* trait impls vs the code own method; symbolic value") => const_static_le::<_, {cc::ZETA5}, {ZETA}, 5>;
     #[kani::unwind(12)]
-    c10_const_rice6_be (thorough, "ConstCode<code_consts::RICE6>, BE stream", "write/read/len + Static* impls vs rice(6); symbolic value (domain of the code), offset<=8") => const_code_be::<_, {cc::RICE6}, {RICE}, 6>;
+    c10_const_zeta6_be (thorough, "ConstCode<code_consts::ZETA6>, BE stream", "write/read/len vs zeta(6); symbolic value (domain of the code), offset<=8") => const_code_be::<_, {cc::ZETA6}, {ZETA}, 6>;
     #[kani::unwind(12)]
-    c10_const_rice6_le (thorough, "ConstCode<code_consts::RICE6>, LE stream", "write/read/len + Static* impls vs rice(6); symbolic value (domain of the code), offset<=8") => const_code_le::<_, {cc::RICE6}, {RICE}, 6>;
+    c10_conststatic_zeta6_be (thorough, "ConstCode<code_consts::ZETA6>, BE stream (StaticCodeRead/StaticCodeWrite impls)", "Static* trait impls vs the code own method; symbolic value") => const_static_be::<_, {cc::ZETA6}, {ZETA}, 6>;
     #[kani::unwind(12)]
-    c10_const_rice7_be (thorough, "ConstCode<code_consts::RICE7>, BE stream", "write/read/len + Static* impls vs rice(7); symbolic value (domain of the code), offset<=8") => const_code_be::<_, {cc::RICE7}, {RICE}, 7>;
+    c10_const_zeta6_le (thorough, "ConstCode<code_consts::ZETA6>, LE stream", "write/read/len vs zeta(6); symbolic value (domain of the code), offset<=8") => const_code_le::<_, {cc::ZETA6}, {ZETA}, 6>;
     #[kani::unwind(12)]
-    c10_const_rice7_le (thorough, "ConstCode<code_consts::RICE7>, LE stream", "write/read/len + Static* impls vs rice(7); symbolic value (domain of the code), offset<=8") => const_code_le::<_, {cc::RICE7}, {RICE}, 7>;
+    c10_conststatic_zeta6_le (thorough, "ConstCode<code_consts::ZETA6>, LE stream (StaticCodeRead/StaticCodeWrite impls)", "Static* trait impls vs the code own method; symbolic value") => const_static_le::<_, {cc::ZETA6}, {ZETA}, 6>;
     #[kani::unwind(12)]
-    c10_const_rice8_be (thorough, "ConstCode<code_consts::RICE8>, BE stream", "write/read/len + Static* impls vs rice(8); symbolic value (domain of the code), offset<=8") => const_code_be::<_, {cc::RICE8}, {RICE}, 8>;
+    c10_const_zeta7_be (quick, "ConstCode<code_consts::ZETA7>, BE stream", "write/read/len vs zeta(7); symbolic value (domain of the code), offset<=8") => const_code_be::<_, {cc::ZETA7}, {ZETA}, 7>;
     #[kani::unwind(12)]
-    c10_const_rice8_le (thorough, "ConstCode<code_consts::RICE8>, LE stream", "write/read/len + Static* impls vs rice(8); symbolic value (domain of the code), offset<=8") => const_code_le::<_, {cc::RICE8}, {RICE}, 8>;
+    c10_conststatic_zeta7_be (thorough, "ConstCode<code_consts::ZETA7>, BE stream (StaticCodeRead/StaticCodeWrite impls)", "Static* trait impls vs the code own method; symbolic value") => const_static_be::<_, {cc::ZETA7}, {ZETA}, 7>;
     #[kani::unwind(12)]
-    c10_const_rice9_be (thorough, "ConstCode<code_consts::RICE9>, BE stream", "write/read/len + Static* impls vs rice(9); symbolic value (domain of the code), offset<=8") => const_code_be::<_, {cc::RICE9}, {RICE}, 9>;
+    c10_const_zeta7_le (thorough, "ConstCode<code_consts::ZETA7>, LE stream", "write/read/len vs zeta(7); symbolic value (domain of the code), offset<=8") => const_code_le::<_, {cc::ZETA7}, {ZETA}, 7>;
     #[kani::unwind(12)]
-    c10_const_rice9_le (thorough, "ConstCode<code_consts::RICE9>, LE stream", "write/read/len + Static* impls vs rice(9); symbolic value (domain of the code), offset<=8") => const_code_le::<_, {cc::RICE9}, {RICE}, 9>;
+    c10_conststatic_zeta7_le (thorough, "ConstCode<code_consts::ZETA7>, LE stream (StaticCodeRead/StaticCodeWrite impls)", "Static* trait impls vs the code own method; symbolic value") => const_static_le::<_, {cc::ZETA7}, {ZETA}, 7>;
     #[kani::unwind(12)]
-    c10_const_rice10_be (quick, "ConstCode<code_consts::RICE10>, BE stream", "write/read/len + Static* impls vs rice(10); symbolic value (domain of the code), offset<=8") => const_code_be::<_, {cc::RICE10}, {RICE}, 10>;
+    c10_const_zeta8_be (thorough, "ConstCode<code_consts::ZETA8>, BE stream", "write/read/len vs zeta(8); symbolic value (domain of the code), offset<=8") => const_code_be::<_, {cc::ZETA8}, {ZETA}, 8>;
     #[kani::unwind(12)]
-    c10_const_rice10_le (thorough, "ConstCode<code_consts::RICE10>, LE stream", "write/read/len + Static* impls vs rice(10); symbolic value (domain of the code), offset<=8") => const_code_le::<_, {cc::RICE10}, {RICE}, 10>;
+    c10_conststatic_zeta8_be (thorough, "ConstCode<code_consts::ZETA8>, BE stream (StaticCodeRead/StaticCodeWrite impls)", "Static* trait impls vs the code own method; symbolic value") => const_static_be::<_, {cc::ZETA8}, {ZETA}, 8>;
     #[kani::unwind(12)]
-    c10_const_pi0_be (quick, "ConstCode<code_consts::PI0>, BE stream", "write/read/len + Static* impls vs pi(0); symbolic value (domain of the code), offset<=8") => const_code_be::<_, {cc::PI0}, {PI}, 0>;
+    c10_const_zeta8_le (thorough, "ConstCode<code_consts::ZETA8>, LE stream", "write/read/len vs zeta(8); symbolic value (domain of the code), offset<=8") => const_code_le::<_, {cc::ZETA8}, {ZETA}, 8>;
     #[kani::unwind(12)]
-    c10_const_pi0_le (thorough, "ConstCode<code_consts::PI0>, LE stream", "write/read/len + Static* impls vs pi(0); symbolic value (domain of the code), offset<=8") => const_code_le::<_, {cc::PI0}, {PI}, 0>;
+    c10_conststatic_zeta8_le (thorough, "ConstCode<code_consts::ZETA8>, LE stream (StaticCodeRead/StaticCodeWrite impls)", "Static* trait impls vs the code own method; symbolic value") => const_static_le::<_, {cc::ZETA8}, {ZETA}, 8>;
     #[kani::unwind(12)]
-    c10_const_pi1_be (quick, "ConstCode<code_consts::PI1>, BE stream", "write/read/len + Static* impls vs pi(1); symbolic value (domain of the code), offset<=8") => const_code_be::<_, {cc::PI1}, {PI}, 1>;
+    c10_const_zeta9_be (thorough, "ConstCode<code_consts::ZETA9>, BE stream", "write/read/len vs zeta(9); symbolic value (domain of the code), offset<=8") => const_code_be::<_, {cc::ZETA9}, {ZETA}, 9>;
     #[kani::unwind(12)]
-    c10_const_pi1_le (quick, "ConstCode<code_consts::PI1>, LE stream", "write/read/len + Static* impls vs pi(1); symbolic value (domain of the code), offset<=8") => const_code_le::<_, {cc::PI1}, {PI}, 1>;
+    c10_conststatic_zeta9_be (thorough, "ConstCode<code_consts::ZETA9>, BE stream (StaticCodeRead/StaticCodeWrite impls)", "Static* trait impls vs the code own method; symbolic value") => const_static_be::<_, {cc::ZETA9}, {ZETA}, 9>;
     #[kani::unwind(12)]
-    c10_const_pi2_be (quick, "ConstCode<code_consts::PI2>, BE stream", "write/read/len + Static* impls vs pi(2); symbolic value (domain of the code), offset<=8") => const_code_be::<_, {cc::PI2}, {PI}, 2>;
+    c10_const_zeta9_le (thorough, "ConstCode<code_consts::ZETA9>, LE stream", "write/read/len vs zeta(9); symbolic value (domain of the code), offset<=8") => const_code_le::<_, {cc::ZETA9}, {ZETA}, 9>;
     #[kani::unwind(12)]
-    c10_const_pi2_le (thorough, "ConstCode<code_consts::PI2>, LE stream", "write/read/len + Static* impls vs pi(2); symbolic value (domain of the code), offset<=8") => const_code_le::<_, {cc::PI2}, {PI}, 2>;
+    c10_conststatic_zeta9_le (thorough, "ConstCode<code_consts::ZETA9>, LE stream (StaticCodeRead/StaticCodeWrite impls)", "Static* trait impls vs the code own method; symbolic value") => const_static_le::<_, {cc::ZETA9}, {ZETA}, 9>;
     #[kani::unwind(12)]
-    c10_const_pi3_be (thorough, "ConstCode<code_consts::PI3>, BE stream", "write/read/len + Static* impls vs pi(3); symbolic value (domain of the code), offset<=8") => const_code_be::<_, {cc::PI3}, {PI}, 3>;
+    c10_const_zeta10_be (thorough, "ConstCode<code_consts::ZETA10>, BE stream", "write/read/len vs zeta(10); symbolic value (domain of the code), offset<=8") => const_code_be::<_, {cc::ZETA10}, {ZETA}, 10>;
     #[kani::unwind(12)]
-    c10_const_pi3_le (thorough, "ConstCode<code_consts::PI3>, LE stream", "write/read/len + Static* impls vs pi(3); symbolic value (domain of the code), offset<=8") => const_code_le::<_, {cc::PI3}, {PI}, 3>;
+    c10_conststatic_zeta10_be (thorough, "ConstCode<code_consts::ZETA10>, BE stream (StaticCodeRead/StaticCodeWrite impls)", "Static* trait impls vs the code own method; symbolic value") => const_static_be::<_, {cc::ZETA10}, {ZETA}, 10>;
     #[kani::unwind(12)]
-    c10_const_pi4_be (thorough, "ConstCode<code_consts::PI4>, BE stream", "write/read/len + Static* impls vs pi(4); symbolic value (domain of the code), offset<=8") => const_code_be::<_, {cc::PI4}, {PI}, 4>;
+    c10_const_zeta10_le (thorough, "ConstCode<code_consts::ZETA10>, LE stream", "write/read/len vs zeta(10); symbolic value (domain of the code), offset<=8") => const_code_le::<_, {cc::ZETA10}, {ZETA}, 10>;
     #[kani::unwind(12)]
-    c10_const_pi4_le (thorough, "ConstCode<code_consts::PI4>, LE stream", "write/read/len + Static* impls vs pi(4); symbolic value (domain of the code), offset<=8") => const_code_le::<_, {cc::PI4}, {PI}, 4>;
+    c10_conststatic_zeta10_le (thorough, "ConstCode<code_consts::ZETA10>, LE stream (StaticCodeRead/StaticCodeWrite impls)", "Static* trait impls vs the code own method; symbolic value") => const_static_le::<_, {cc::ZETA10}, {ZETA}, 10>;
     #[kani::unwind(12)]
-    c10_const_pi5_be (thorough, "ConstCode<code_consts::PI5>, BE stream", "write/read/len + Static* impls vs pi(5); symbolic value (domain of the code), offset<=8") => const_code_be::<_, {cc::PI5}, {PI}, 5>;
+    c10_const_rice0_be (quick, "ConstCode<code_consts::RICE0>, BE stream", "write/read/len vs rice(0); symbolic value (domain of the code), offset<=8") => const_code_be::<_, {cc::RICE0}, {RICE}, 0>;
     #[kani::unwind(12)]
-    c10_const_pi5_le (thorough, "ConstCode<code_consts::PI5>, LE stream", "write/read/len + Static* impls vs pi(5); symbolic value (domain of the code), offset<=8") => const_code_le::<_, {cc::PI5}, {PI}, 5>;
+    c10_conststatic_rice0_be (thorough, "ConstCode<code_consts::RICE0>, BE stream (StaticCodeRead/StaticCodeWrite impls)", "Static* trait impls vs the code own method; symbolic value") => const_static_be::<_, {cc::RICE0}, {RICE}, 0>;
     #[kani::unwind(12)]
-    c10_const_pi6_be (quick, "ConstCode<code_consts::PI6>, BE stream", "write/read/len + Static* impls vs pi(6); symbolic value (domain of the code), offset<=8") => const_code_be::<_, {cc::PI6}, {PI}, 6>;
+    c10_const_rice0_le (thorough, "ConstCode<code_consts::RICE0>, LE stream", "write/read/len vs rice(0); symbolic value (domain of the code), offset<=8") => const_code_le::<_, {cc::RICE0}, {RICE}, 0>;
     #[kani::unwind(12)]
-    c10_const_pi6_le (thorough, "ConstCode<code_consts::PI6>, LE stream", "write/read/len + Static* impls vs pi(6); symbolic value (domain of the code), offset<=8") => const_code_le::<_, {cc::PI6}, {PI}, 6>;
+    c10_conststatic_rice0_le (thorough, "ConstCode<code_consts::RICE0>, LE stream (StaticCodeRead/StaticCodeWrite impls)", "Static* trait impls vs the code own method; symbolic value") => const_static_le::<_, {cc::RICE0}, {RICE}, 0>;
     #[kani::unwind(12)]
-    c10_const_pi7_be (thorough, "ConstCode<code_consts::PI7>, BE stream", "write/read/len + Static* impls vs pi(7); symbolic value (domain of the code), offset<=8") => const_code_be::<_, {cc::PI7}, {PI}, 7>;
+    c10_const_rice1_be (thorough, "ConstCode<code_consts::RICE1>, BE stream", "write/read/len vs rice(1); symbolic value (domain of the code), offset<=8") => const_code_be::<_, {cc::RICE1}, {RICE}, 1>;
     #[kani::unwind(12)]
-    c10_const_pi7_le (thorough, "ConstCode<code_consts::PI7>, LE stream", "write/read/len + Static* impls vs pi(7); symbolic value (domain of the code), offset<=8") => const_code_le::<_, {cc::PI7}, {PI}, 7>;
+    c10_conststatic_rice1_be (thorough, "ConstCode<code_consts::RICE1>, BE stream (StaticCodeRead/StaticCodeWrite impls)", "Static* trait impls vs the code own method; symbolic value") => const_static_be::<_, {cc::RICE1}, {RICE}, 1>;
     #[kani::unwind(12)]
-    c10_const_pi8_be (thorough, "ConstCode<code_consts::PI8>, BE stream", "write/read/len + Static* impls vs pi(8); symbolic value (domain of the code), offset<=8") => const_code_be::<_, {cc::PI8}, {PI}, 8>;
+    c10_const_rice1_le (thorough, "ConstCode<code_consts::RICE1>, LE stream", "write/read/len vs rice(1); symbolic value (domain of the code), offset<=8") => const_code_le::<_, {cc::RICE1}, {RICE}, 1>;
     #[kani::unwind(12)]
-    c10_const_pi8_le (thorough, "ConstCode<code_consts::PI8>, LE stream", "write/read/len + Static* impls vs pi(8); symbolic value (domain of the code), offset<=8") => const_code_le::<_, {cc::PI8}, {PI}, 8>;
+    c10_conststatic_rice1_le (thorough, "ConstCode<code_consts::RICE1>, LE stream (StaticCodeRead/StaticCodeWrite impls)", "Static* trait impls vs the code own method; symbolic value") => const_static_le::<_, {cc::RICE1}, {RICE}, 1>;
     #[kani::unwind(12)]
-    c10_const_pi9_be (thorough, "ConstCode<code_consts::PI9>, BE stream", "write/read/len + Static* impls vs pi(9); symbolic value (domain of the code), offset<=8") => const_code_be::<_, {cc::PI9}, {PI}, 9>;
+    c10_const_rice2_be (thorough, "ConstCode<code_consts::RICE2>, BE stream", "write/read/len vs rice(2); symbolic value (domain of the code), offset<=8") => const_code_be::<_, {cc::RICE2}, {RICE}, 2>;
     #[kani::unwind(12)]
-    c10_const_pi9_le (thorough, "ConstCode<code_consts::PI9>, LE stream", "write/read/len + Static* impls vs pi(9); symbolic value (domain of the code), offset<=8") => const_code_le::<_, {cc::PI9}, {PI}, 9>;
+    c10_conststatic_rice2_be (thorough, "ConstCode<code_consts::RICE2>, BE stream (StaticCodeRead/StaticCodeWrite impls)", "Static* trait impls vs the code own method; symbolic value") => const_static_be::<_, {cc::RICE2}, {RICE}, 2>;
     #[kani::unwind(12)]
-    c10_const_pi10_be (quick, "ConstCode<code_consts::PI10>, BE stream", "write/read/len + Static* impls vs pi(10); symbolic value (domain of the code), offset<=8") => const_code_be::<_, {cc::PI10}, {PI}, 10>;
+    c10_const_rice2_le (thorough, "ConstCode<code_consts::RICE2>, LE stream", "write/read/len vs rice(2); symbolic value (domain of the code), offset<=8") => const_code_le::<_, {cc::RICE2}, {RICE}, 2>;
     #[kani::unwind(12)]
-    c10_const_pi10_le (thorough, "ConstCode<code_consts::PI10>, LE stream", "write/read/len + Static* impls vs pi(10); symbolic value (domain of the code), offset<=8") => const_code_le::<_, {cc::PI10}, {PI}, 10>;
+    c10_conststatic_rice2_le (thorough, "ConstCode<code_consts::RICE2>, LE stream (StaticCodeRead/StaticCodeWrite impls)", "Static* trait impls vs the code own method; symbolic value") => const_static_le::<_, {cc::RICE2}, {RICE}, 2>;
     #[kani::unwind(12)]
-    c10_const_golomb1_be (quick, "ConstCode<code_consts::GOLOMB1>, BE stream", "write/read/len + Static* impls vs golomb(1); symbolic value (domain of the code), offset<=8") => const_code_be::<_, {cc::GOLOMB1}, {GOLOMB}, 1>;
+    c10_const_rice3_be (thorough, "ConstCode<code_consts::RICE3>, BE stream", "write/read/len vs rice(3); symbolic value (domain of the code), offset<=8") => const_code_be::<_, {cc::RICE3}, {RICE}, 3>;
     #[kani::unwind(12)]
-    c10_const_golomb1_le (thorough, "ConstCode<code_consts::GOLOMB1>, LE stream", "write/read/len + Static* impls vs golomb(1); symbolic value (domain of the code), offset<=8") => const_code_le::<_, {cc::GOLOMB1}, {GOLOMB}, 1>;
+    c10_conststatic_rice3_be (thorough, "ConstCode<code_consts::RICE3>, BE stream (StaticCodeRead/StaticCodeWrite impls)", "Static* trait impls vs the code own method; symbolic value") => const_static_be::<_, {cc::RICE3}, {RICE}, 3>;
     #[kani::unwind(12)]
-    c10_const_golomb2_be (quick, "ConstCode<code_consts::GOLOMB2>, BE stream", "write/read/len + Static* impls vs golomb(2); symbolic value (domain of the code), offset<=8") => const_code_be::<_, {cc::GOLOMB2}, {GOLOMB}, 2>;
+    c10_const_rice3_le (thorough, "ConstCode<code_consts::RICE3>, LE stream", "write/read/len vs rice(3); symbolic value (domain of the code), offset<=8") => const_code_le::<_, {cc::RICE3}, {RICE}, 3>;
     #[kani::unwind(12)]
-    c10_const_golomb2_le (quick, "ConstCode<code_consts::GOLOMB2>, LE stream", "write/read/len + Static* impls vs golomb(2); symbolic value (domain of the code), offset<=8") => const_code_le::<_, {cc::GOLOMB2}, {GOLOMB}, 2>;
+    c10_conststatic_rice3_le (thorough, "ConstCode<code_consts::RICE3>, LE stream (StaticCodeRead/StaticCodeWrite impls)", "Static* trait impls vs the code own method; symbolic value") => const_static_le::<_, {cc::RICE3}, {RICE}, 3>;
     #[kani::unwind(12)]
-    c10_const_golomb3_be (quick, "ConstCode<code_consts::GOLOMB3>, BE stream", "write/read/len + Static* impls vs golomb(3); symbolic value (domain of the code), offset<=8") => const_code_be::<_, {cc::GOLOMB3}, {GOLOMB}, 3>;
+    c10_const_rice4_be (thorough, "ConstCode<code_consts::RICE4>, BE stream", "write/read/len vs rice(4); symbolic value (domain of the code), offset<=8") => const_code_be::<_, {cc::RICE4}, {RICE}, 4>;
     #[kani::unwind(12)]
-    c10_const_golomb3_le (thorough, "ConstCode<code_consts::GOLOMB3>, LE stream", "write/read/len + Static* impls vs golomb(3); symbolic value (domain of the code), offset<=8") => const_code_le::<_, {cc::GOLOMB3}, {GOLOMB}, 3>;
+    c10_conststatic_rice4_be (thorough, "ConstCode<code_consts::RICE4>, BE stream (StaticCodeRead/StaticCodeWrite impls)", "Static* trait impls vs the code own method; symbolic value") => const_static_be::<_, {cc::RICE4}, {RICE}, 4>;
     #[kani::unwind(12)]
-    c10_const_golomb4_be (quick, "ConstCode<code_consts::GOLOMB4>, BE stream", "write/read/len + Static* impls vs golomb(4); symbolic value (domain of the code), offset<=8") => const_code_be::<_, {cc::GOLOMB4}, {GOLOMB}, 4>;
+    c10_const_rice4_le (thorough, "ConstCode<code_consts::RICE4>, LE stream", "write/read/len vs rice(4); symbolic value (domain of the code), offset<=8") => const_code_le::<_, {cc::RICE4}, {RICE}, 4>;
     #[kani::unwind(12)]
-    c10_const_golomb4_le (thorough, "ConstCode<code_consts::GOLOMB4>, LE stream", "write/read/len + Static* impls vs golomb(4); symbolic value (domain of the code), offset<=8") => const_code_le::<_, {cc::GOLOMB4}, {GOLOMB}, 4>;
+    c10_conststatic_rice4_le (thorough, "ConstCode<code_consts::RICE4>, LE stream (StaticCodeRead/StaticCodeWrite impls)", "Static* trait impls vs the code own method; symbolic value") => const_static_le::<_, {cc::RICE4}, {RICE}, 4>;
     #[kani::unwind(12)]
-    c10_const_golomb5_be (thorough, "ConstCode<code_consts::GOLOMB5>, BE stream", "write/read/len + Static* impls vs golomb(5); symbolic value (domain of the code), offset<=8") => const_code_be::<_, {cc::GOLOMB5}, {GOLOMB}, 5>;
+    c10_const_rice5_be (quick, "ConstCode<code_consts::RICE5>, BE stream", "write/read/len vs rice(5); symbolic value (domain of the code), offset<=8") => const_code_be::<_, {cc::RICE5}, {RICE}, 5>;
     #[kani::unwind(12)]
-    c10_const_golomb5_le (thorough, "ConstCode<code_consts::GOLOMB5>, LE stream", "write/read/len + Static* impls vs golomb(5); symbolic value (domain of the code), offset<=8") => const_code_le::<_, {cc::GOLOMB5}, {GOLOMB}, 5>;
+    c10_conststatic_rice5_be (quick, "ConstCode<code_consts::RICE5>, BE stream (StaticCodeRead/StaticCodeWrite impls)", "Static* trait impls vs the code own method; symbolic value") => const_static_be::<_, {cc::RICE5}, {RICE}, 5>;
     #[kani::unwind(12)]
-    c10_const_golomb6_be (thorough, "ConstCode<code_consts::GOLOMB6>, BE stream", "write/read/len + Static* impls vs golomb(6); symbolic value (domain of the code), offset<=8") => const_code_be::<_, {cc::GOLOMB6}, {GOLOMB}, 6>;
+    c10_const_rice5_le (thorough, "ConstCode<code_consts::RICE5>, LE stream", "write/read/len vs rice(5); symbolic value (domain of the code), offset<=8") => const_code_le::<_, {cc::RICE5}, {RICE}, 5>;
     #[kani::unwind(12)]
-    c10_const_golomb6_le (thorough, "ConstCode<code_consts::GOLOMB6>, LE stream", "write/read/len + Static* impls vs golomb(6); symbolic value (domain of the code), offset<=8") => const_code_le::<_, {cc::GOLOMB6}, {GOLOMB}, 6>;
+    c10_conststatic_rice5_le (thorough, "ConstCode<code_consts::RICE5>, LE stream (StaticCodeRead/StaticCodeWrite impls)", "Static* trait impls vs the code own method; symbolic value") => const_static_le::<_, {cc::RICE5}, {RICE}, 5>;
     #[kani::unwind(12)]
-    c10_const_golomb7_be (thorough, "ConstCode<code_consts::GOLOMB7>, BE stream", "write/read/len + Static* impls vs golomb(7); symbolic value (domain of the code), offset<=8") => const_code_be::<_, {cc::GOLOMB7}, {GOLOMB}, 7>;
+    c10_const_rice6_be (thorough, "ConstCode<code_consts::RICE6>, BE stream", "write/read/len vs rice(6); symbolic value (domain of the code), offset<=8") => const_code_be::<_, {cc::RICE6}, {RICE}, 6>;
     #[kani::unwind(12)]
-    c10_const_golomb7_le (thorough, "ConstCode<code_consts::GOLOMB7>, LE stream", "write/read/len + Static* impls vs golomb(7); symbolic value (domain of the code), offset<=8") => const_code_le::<_, {cc::GOLOMB7}, {GOLOMB}, 7>;
+    c10_conststatic_rice6_be (thorough, "ConstCode<code_consts::RICE6>, BE stream (StaticCodeRead/StaticCodeWrite impls)", "Static* trait impls vs the code own method; symbolic value") => const_static_be::<_, {cc::RICE6}, {RICE}, 6>;
     #[kani::unwind(12)]
-    c10_const_golomb8_be (quick, "ConstCode<code_consts::GOLOMB8>, BE stream", "write/read/len + Static* impls vs golomb(8); symbolic value (domain of the code), offset<=8") => const_code_be::<_, {cc::GOLOMB8}, {GOLOMB}, 8>;
+    c10_const_rice6_le (thorough, "ConstCode<code_consts::RICE6>, LE stream", "write/read/len vs rice(6); symbolic value (domain of the code), offset<=8") => const_code_le::<_, {cc::RICE6}, {RICE}, 6>;
     #[kani::unwind(12)]
-    c10_const_golomb8_le (thorough, "ConstCode<code_consts::GOLOMB8>, LE stream", "write/read/len + Static* impls vs golomb(8); symbolic value (domain of the code), offset<=8") => const_code_le::<_, {cc::GOLOMB8}, {GOLOMB}, 8>;
+    c10_conststatic_rice6_le (thorough, "ConstCode<code_consts::RICE6>, LE stream (StaticCodeRead/StaticCodeWrite impls)", "Static* trait impls vs the code own method; symbolic value") => const_static_le::<_, {cc::RICE6}, {RICE}, 6>;
     #[kani::unwind(12)]
-    c10_const_golomb9_be (thorough, "ConstCode<code_consts::GOLOMB9>, BE stream", "write/read/len + Static* impls vs golomb(9); symbolic value (domain of the code), offset<=8") => const_code_be::<_, {cc::GOLOMB9}, {GOLOMB}, 9>;
+    c10_const_rice7_be (thorough, "ConstCode<code_consts::RICE7>, BE stream", "write/read/len vs rice(7); symbolic value (domain of the code), offset<=8") => const_code_be::<_, {cc::RICE7}, {RICE}, 7>;
     #[kani::unwind(12)]
-    c10_const_golomb9_le (thorough, "ConstCode<code_consts::GOLOMB9>, LE stream", "write/read/len + Static* impls vs golomb(9); symbolic value (domain of the code), offset<=8") => const_code_le::<_, {cc::GOLOMB9}, {GOLOMB}, 9>;
+    c10_conststatic_rice7_be (thorough, "ConstCode<code_consts::RICE7>, BE stream (StaticCodeRead/StaticCodeWrite impls)", "Static* trait impls vs the code own method; symbolic value") => const_static_be::<_, {cc::RICE7}, {RICE}, 7>;
     #[kani::unwind(12)]
-    c10_const_golomb10_be (quick, "ConstCode<code_consts::GOLOMB10>, BE stream", "write/read/len + Static* impls vs golomb(10); symbolic value (domain of the code), offset<=8") => const_code_be::<_, {cc::GOLOMB10}, {GOLOMB}, 10>;
+    c10_const_rice7_le (thorough, "ConstCode<code_consts::RICE7>, LE stream", "write/read/len vs rice(7); symbolic value (domain of the code), offset<=8") => const_code_le::<_, {cc::RICE7}, {RICE}, 7>;
     #[kani::unwind(12)]
-    c10_const_golomb10_le (thorough, "ConstCode<code_consts::GOLOMB10>, LE stream", "write/read/len + Static* impls vs golomb(10); symbolic value (domain of the code), offset<=8") => const_code_le::<_, {cc::GOLOMB10}, {GOLOMB}, 10>;
+    c10_conststatic_rice7_le (thorough, "ConstCode<code_consts::RICE7>, LE stream (StaticCodeRead/StaticCodeWrite impls)", "Static* trait impls vs the code own method; symbolic value") => const_static_le::<_, {cc::RICE7}, {RICE}, 7>;
     #[kani::unwind(12)]
-    c10_const_exp_golomb0_be (quick, "ConstCode<code_consts::EXP_GOLOMB0>, BE stream", "write/read/len + Static* impls vs exp_golomb(0); symbolic value (domain of the code), offset<=8") => const_code_be::<_, {cc::EXP_GOLOMB0}, {EXP_GOLOMB}, 0>;
+    c10_const_rice8_be (thorough, "ConstCode<code_consts::RICE8>, BE stream", "write/read/len vs rice(8); symbolic value (domain of the code), offset<=8") => const_code_be::<_, {cc::RICE8}, {RICE}, 8>;
     #[kani::unwind(12)]
-    c10_const_exp_golomb0_le (thorough, "ConstCode<code_consts::EXP_GOLOMB0>, LE stream", "write/read/len + Static* impls vs exp_golomb(0); symbolic value (domain of the code), offset<=8") => const_code_le::<_, {cc::EXP_GOLOMB0}, {EXP_GOLOMB}, 0>;
+    c10_conststatic_rice8_be (thorough, "ConstCode<code_consts::RICE8>, BE stream (StaticCodeRead/StaticCodeWrite impls)", "Static* trait impls vs the code own method; symbolic value") => const_static_be::<_, {cc::RICE8}, {RICE}, 8>;
     #[kani::unwind(12)]
-    c10_const_exp_golomb1_be (quick, "ConstCode<code_consts::EXP_GOLOMB1>, BE stream", "write/read/len + Static* impls vs exp_golomb(1); symbolic value (domain of the code), offset<=8") => const_code_be::<_, {cc::EXP_GOLOMB1}, {EXP_GOLOMB}, 1>;
+    c10_const_rice8_le (thorough, "ConstCode<code_consts::RICE8>, LE stream", "write/read/len vs rice(8); symbolic value (domain of the code), offset<=8") => const_code_le::<_, {cc::RICE8}, {RICE}, 8>;
     #[kani::unwind(12)]
-    c10_const_exp_golomb1_le (thorough, "ConstCode<code_consts::EXP_GOLOMB1>, LE stream", "write/read/len + Static* impls vs exp_golomb(1); symbolic value (domain of the code), offset<=8") => const_code_le::<_, {cc::EXP_GOLOMB1}, {EXP_GOLOMB}, 1>;
+    c10_conststatic_rice8_le (thorough, "ConstCode<code_consts::RICE8>, LE stream (StaticCodeRead/StaticCodeWrite impls)", "Static* trait impls vs the code own method; symbolic value") => const_static_le::<_, {cc::RICE8}, {RICE}, 8>;
     #[kani::unwind(12)]
-    c10_const_exp_golomb2_be (thorough, "ConstCode<code_consts::EXP_GOLOMB2>, BE stream", "write/read/len + Static* impls vs exp_golomb(2); symbolic value (domain of the code), offset<=8") => const_code_be::<_, {cc::EXP_GOLOMB2}, {EXP_GOLOMB}, 2>;
+    c10_const_rice9_be (thorough, "ConstCode<code_consts::RICE9>, BE stream", "write/read/len vs rice(9); symbolic value (domain of the code), offset<=8") => const_code_be::<_, {cc::RICE9}, {RICE}, 9>;
     #[kani::unwind(12)]
-    c10_const_exp_golomb2_le (thorough, "ConstCode<code_consts::EXP_GOLOMB2>, LE stream", "write/read/len + Static* impls vs exp_golomb(2); symbolic value (domain of the code), offset<=8") => const_code_le::<_, {cc::EXP_GOLOMB2}, {EXP_GOLOMB}, 2>;
+    c10_conststatic_rice9_be (thorough, "ConstCode<code_consts::RICE9>, BE stream (StaticCodeRead/StaticCodeWrite impls)", "Static* trait impls vs the code own method; symbolic value") => const_static_be::<_, {cc::RICE9}, {RICE}, 9>;
     #[kani::unwind(12)]
-    c10_const_exp_golomb3_be (thorough, "ConstCode<code_consts::EXP_GOLOMB3>, BE stream", "write/read/len + Static* impls vs exp_golomb(3); symbolic value (domain of the code), offset<=8") => const_code_be::<_, {cc::EXP_GOLOMB3}, {EXP_GOLOMB}, 3>;
+    c10_const_rice9_le (thorough, "ConstCode<code_consts::RICE9>, LE stream", "write/read/len vs rice(9); symbolic value (domain of the code), offset<=8") => const_code_le::<_, {cc::RICE9}, {RICE}, 9>;
     #[kani::unwind(12)]
-    c10_const_exp_golomb3_le (thorough, "ConstCode<code_consts::EXP_GOLOMB3>, LE stream", "write/read/len + Static* impls vs exp_golomb(3); symbolic value (domain of the code), offset<=8") => const_code_le::<_, {cc::EXP_GOLOMB3}, {EXP_GOLOMB}, 3>;
+    c10_conststatic_rice9_le (thorough, "ConstCode<code_consts::RICE9>, LE stream (StaticCodeRead/StaticCodeWrite impls)", "Static* trait impls vs the code own method; symbolic value") => const_static_le::<_, {cc::RICE9}, {RICE}, 9>;
     #[kani::unwind(12)]
-    c10_const_exp_golomb4_be (quick, "ConstCode<code_consts::EXP_GOLOMB4>, BE stream", "write/read/len + Static* impls vs exp_golomb(4); symbolic value (domain of the code), offset<=8") => const_code_be::<_, {cc::EXP_GOLOMB4}, {EXP_GOLOMB}, 4>;
+    c10_const_rice10_be (thorough, "ConstCode<code_consts::RICE10>, BE stream", "write/read/len vs rice(10); symbolic value (domain of the code), offset<=8") => const_code_be::<_, {cc::RICE10}, {RICE}, 10>;
     #[kani::unwind(12)]
-    c10_const_exp_golomb4_le (thorough, "ConstCode<code_consts::EXP_GOLOMB4>, LE stream", "write/read/len + Static* impls vs exp_golomb(4); symbolic value (domain of the code), offset<=8") => const_code_le::<_, {cc::EXP_GOLOMB4}, {EXP_GOLOMB}, 4>;
+    c10_conststatic_rice10_be (thorough, "ConstCode<code_consts::RICE10>, BE stream (StaticCodeRead/StaticCodeWrite impls)", "Static* trait impls vs the code own method; symbolic value") => const_static_be::<_, {cc::RICE10}, {RICE}, 10>;
     #[kani::unwind(12)]
-    c10_const_exp_golomb5_be (thorough, "ConstCode<code_consts::EXP_GOLOMB5>, BE stream", "write/read/len + Static* impls vs exp_golomb(5); symbolic value (domain of the code), offset<=8") => const_code_be::<_, {cc::EXP_GOLOMB5}, {EXP_GOLOMB}, 5>;
+    c10_const_rice10_le (thorough, "ConstCode<code_consts::RICE10>, LE stream", "write/read/len vs rice(10); symbolic value (domain of the code), offset<=8") => const_code_le::<_, {cc::RICE10}, {RICE}, 10>;
     #[kani::unwind(12)]
-    c10_const_exp_golomb5_le (thorough, "ConstCode<code_consts::EXP_GOLOMB5>, LE stream", "write/read/len + Static* impls vs exp_golomb(5); symbolic value (domain of the code), offset<=8") => const_code_le::<_, {cc::EXP_GOLOMB5}, {EXP_GOLOMB}, 5>;
+    c10_conststatic_rice10_le (thorough, "ConstCode<code_consts::RICE10>, LE stream (StaticCodeRead/StaticCodeWrite impls)", "Static* trait impls vs the code own method; symbolic value") => const_static_le::<_, {cc::RICE10}, {RICE}, 10>;
     #[kani::unwind(12)]
-    c10_const_exp_golomb6_be (thorough, "ConstCode<code_consts::EXP_GOLOMB6>, BE stream", "write/read/len + Static* impls vs exp_golomb(6); symbolic value (domain of the code), offset<=8") => const_code_be::<_, {cc::EXP_GOLOMB6}, {EXP_GOLOMB}, 6>;
+    c10_const_pi0_be (quick, "ConstCode<code_consts::PI0>, BE stream", "write/read/len vs pi(0); symbolic value (domain of the code), offset<=8") => const_code_be::<_, {cc::PI0}, {PI}, 0>;
     #[kani::unwind(12)]
-    c10_const_exp_golomb6_le (thorough, "ConstCode<code_consts::EXP_GOLOMB6>, LE stream", "write/read/len + Static* impls vs exp_golomb(6); symbolic value (domain of the code), offset<=8") => const_code_le::<_, {cc::EXP_GOLOMB6}, {EXP_GOLOMB}, 6>;
+    c10_conststatic_pi0_be (thorough, "ConstCode<code_consts::PI0>, BE stream (StaticCodeRead/StaticCodeWrite impls)", "Static* trait impls vs the code own method; symbolic value") => const_static_be::<_, {cc::PI0}, {PI}, 0>;
     #[kani::unwind(12)]
-    c10_const_exp_golomb7_be (thorough, "ConstCode<code_consts::EXP_GOLOMB7>, BE stream", "write/read/len + Static* impls vs exp_golomb(7); symbolic value (domain of the code), offset<=8") => const_code_be::<_, {cc::EXP_GOLOMB7}, {EXP_GOLOMB}, 7>;
+    c10_const_pi0_le (thorough, "ConstCode<code_consts::PI0>, LE stream", "write/read/len vs pi(0); symbolic value (domain of the code), offset<=8") => const_code_le::<_, {cc::PI0}, {PI}, 0>;
     #[kani::unwind(12)]
-    c10_const_exp_golomb7_le (thorough, "ConstCode<code_consts::EXP_GOLOMB7>, LE stream", "write/read/len + Static* impls vs exp_golomb(7); symbolic value (domain of the code), offset<=8") => const_code_le::<_, {cc::EXP_GOLOMB7}, {EXP_GOLOMB}, 7>;
+    c10_conststatic_pi0_le (thorough, "ConstCode<code_consts::PI0>, LE stream (StaticCodeRead/StaticCodeWrite impls)", "Static* trait impls vs the code own method; symbolic value") => const_static_le::<_, {cc::PI0}, {PI}, 0>;
     #[kani::unwind(12)]
-    c10_const_exp_golomb8_be (thorough, "ConstCode<code_consts::EXP_GOLOMB8>, BE stream", "write/read/len + Static* impls vs exp_golomb(8); symbolic value (domain of the code), offset<=8") => const_code_be::<_, {cc::EXP_GOLOMB8}, {EXP_GOLOMB}, 8>;
+    c10_const_pi1_be (quick, "ConstCode<code_consts::PI1>, BE stream", "write/read/len vs pi(1); symbolic value (domain of the code), offset<=8") => const_code_be::<_, {cc::PI1}, {PI}, 1>;
     #[kani::unwind(12)]
-    c10_const_exp_golomb8_le (thorough, "ConstCode<code_consts::EXP_GOLOMB8>, LE stream", "write/read/len + Static* impls vs exp_golomb(8); symbolic value (domain of the code), offset<=8") => const_code_le::<_, {cc::EXP_GOLOMB8}, {EXP_GOLOMB}, 8>;
+    c10_conststatic_pi1_be (quick, "ConstCode<code_consts::PI1>, BE stream (StaticCodeRead/StaticCodeWrite impls)", "Static* trait impls vs the code own method; symbolic value") => const_static_be::<_, {cc::PI1}, {PI}, 1>;
     #[kani::unwind(12)]
-    c10_const_exp_golomb9_be (thorough, "ConstCode<code_consts::EXP_GOLOMB9>, BE stream", "write/read/len + Static* impls vs exp_golomb(9); symbolic value (domain of the code), offset<=8") => const_code_be::<_, {cc::EXP_GOLOMB9}, {EXP_GOLOMB}, 9>;
+    c10_const_pi1_le (quick, "ConstCode<code_consts::PI1>, LE stream", "write/read/len vs pi(1); symbolic value (domain of the code), offset<=8") => const_code_le::<_, {cc::PI1}, {PI}, 1>;
     #[kani::unwind(12)]
-    c10_const_exp_golomb9_le (thorough, "ConstCode<code_consts::EXP_GOLOMB9>, LE stream", "write/read/len + Static* impls vs exp_golomb(9); symbolic value (domain of the code), offset<=8") => const_code_le::<_, {cc::EXP_GOLOMB9}, {EXP_GOLOMB}, 9>;
+    c10_conststatic_pi1_le (thorough, "ConstCode<code_consts::PI1>, LE stream (StaticCodeRead/StaticCodeWrite impls)", "Static* trait impls vs the code own method; symbolic value") => const_static_le::<_, {cc::PI1}, {PI}, 1>;
     #[kani::unwind(12)]
-    c10_const_exp_golomb10_be (quick, "ConstCode<code_consts::EXP_GOLOMB10>, BE stream", "write/read/len + Static* impls vs exp_golomb(10); symbolic value (domain of the code), offset<=8") => const_code_be::<_, {cc::EXP_GOLOMB10}, {EXP_GOLOMB}, 10>;
+    c10_const_pi2_be (quick, "ConstCode<code_consts::PI2>, BE stream", "write/read/len vs pi(2); symbolic value (domain of the code), offset<=8") => const_code_be::<_, {cc::PI2}, {PI}, 2>;
     #[kani::unwind(12)]
-    c10_const_exp_golomb10_le (thorough, "ConstCode<code_consts::EXP_GOLOMB10>, LE stream", "write/read/len + Static* impls vs exp_golomb(10); symbolic value (domain of the code), offset<=8") => const_code_le::<_, {cc::EXP_GOLOMB10}, {EXP_GOLOMB}, 10>;
+    c10_conststatic_pi2_be (thorough, "ConstCode<code_consts::PI2>, BE stream (StaticCodeRead/StaticCodeWrite impls)", "Static* trait impls vs the code own method; symbolic value") => const_static_be::<_, {cc::PI2}, {PI}, 2>;
     #[kani::unwind(12)]
-    c10_codes_unary0_be (quick, "Codes::Unary param 0, BE stream", "Codes::write/read/len + Static* impls vs the code own method; symbolic value") => codes_be::<_, {UNARY}, 0>;
+    c10_const_pi2_le (thorough, "ConstCode<code_consts::PI2>, LE stream", "write/read/len vs pi(2); symbolic value (domain of the code), offset<=8") => const_code_le::<_, {cc::PI2}, {PI}, 2>;
     #[kani::unwind(12)]
-    c10_codes_unary0_le (thorough, "Codes::Unary param 0, LE stream", "Codes::write/read/len + Static* impls vs the code own method; symbolic value") => codes_le::<_, {UNARY}, 0>;
+    c10_conststatic_pi2_le (thorough, "ConstCode<code_consts::PI2>, LE stream (StaticCodeRead/StaticCodeWrite impls)", "Static* trait impls vs the code own method; symbolic value") => const_static_le::<_, {cc::PI2}, {PI}, 2>;
     #[kani::unwind(12)]
-    c10_codes_gamma0_be (quick, "Codes::Gamma param 0, BE stream", "Codes::write/read/len + Static* impls vs the code own method; symbolic value") => codes_be::<_, {GAMMA}, 0>;
+    c10_const_pi3_be (thorough, "ConstCode<code_consts::PI3>, BE stream", "write/read/len vs pi(3); symbolic value (domain of the code), offset<=8") => const_code_be::<_, {cc::PI3}, {PI}, 3>;
     #[kani::unwind(12)]
-    c10_codes_gamma0_le (thorough, "Codes::Gamma param 0, LE stream", "Codes::write/read/len + Static* impls vs the code own method; symbolic value") => codes_le::<_, {GAMMA}, 0>;
+    c10_conststatic_pi3_be (thorough, "ConstCode<code_consts::PI3>, BE stream (StaticCodeRead/StaticCodeWrite impls)", "Static* trait impls vs the code own method; symbolic value") => const_static_be::<_, {cc::PI3}, {PI}, 3>;
     #[kani::unwind(12)]
-    c10_codes_delta0_be (quick, "Codes::Delta param 0, BE stream", "Codes::write/read/len + Static* impls vs the code own method; symbolic value") => codes_be::<_, {DELTA}, 0>;
+    c10_const_pi3_le (thorough, "ConstCode<code_consts::PI3>, LE stream", "write/read/len vs pi(3); symbolic value (domain of the code), offset<=8") => const_code_le::<_, {cc::PI3}, {PI}, 3>;
     #[kani::unwind(12)]
-    c10_codes_delta0_le (thorough, "Codes::Delta param 0, LE stream", "Codes::write/read/len + Static* impls vs the code own method; symbolic value") => codes_le::<_, {DELTA}, 0>;
+    c10_conststatic_pi3_le (thorough, "ConstCode<code_consts::PI3>, LE stream (StaticCodeRead/StaticCodeWrite impls)", "Static* trait impls vs the code own method; symbolic value") => const_static_le::<_, {cc::PI3}, {PI}, 3>;
     #[kani::unwind(12)]
-    c10_codes_omega0_be (quick, "Codes::Omega param 0, BE stream", "Codes::write/read/len + Static* impls vs the code own method; symbolic value") => codes_be::<_, {OMEGA}, 0>;
+    c10_const_pi4_be (thorough, "ConstCode<code_consts::PI4>, BE stream", "write/read/len vs pi(4); symbolic value (domain of the code), offset<=8") => const_code_be::<_, {cc::PI4}, {PI}, 4>;
     #[kani::unwind(12)]
-    c10_codes_omega0_le (thorough, "Codes::Omega param 0, LE stream", "Codes::write/read/len + Static* impls vs the code own method; symbolic value") => codes_le::<_, {OMEGA}, 0>;
+    c10_conststatic_pi4_be (thorough, "ConstCode<code_consts::PI4>, BE stream (StaticCodeRead/StaticCodeWrite impls)", "Static* trait impls vs the code own method; symbolic value") => const_static_be::<_, {cc::PI4}, {PI}, 4>;
     #[kani::unwind(12)]
-    c10_codes_vbyte_be0_be (quick, "Codes::VbyteBe param 0, BE stream", "Codes::write/read/len + Static* impls vs the code own method; symbolic value") => codes_be::<_, {VBYTE_BE}, 0>;
+    c10_const_pi4_le (thorough, "ConstCode<code_consts::PI4>, LE stream", "write/read/len vs pi(4); symbolic value (domain of the code), offset<=8") => const_code_le::<_, {cc::PI4}, {PI}, 4>;
     #[kani::unwind(12)]
-    c10_codes_vbyte_be0_le (thorough, "Codes::VbyteBe param 0, LE stream", "Codes::write/read/len + Static* impls vs the code own method; symbolic value") => codes_le::<_, {VBYTE_BE}, 0>;
+    c10_conststatic_pi4_le (thorough, "ConstCode<code_consts::PI4>, LE stream (StaticCodeRead/StaticCodeWrite impls)", "Static* trait impls vs the code own method; symbolic value") => const_static_le::<_, {cc::PI4}, {PI}, 4>;
     #[kani::unwind(12)]
-    c10_codes_vbyte_le0_be (quick, "Codes::VbyteLe param 0, BE stream", "Codes::write/read/len + Static* impls vs the code own method; symbolic value") => codes_be::<_, {VBYTE_LE}, 0>;
+    c10_const_pi5_be (thorough, "ConstCode<code_consts::PI5>, BE stream", "write/read/len vs pi(5); symbolic value (domain of the code), offset<=8") => const_code_be::<_, {cc::PI5}, {PI}, 5>;
     #[kani::unwind(12)]
-    c10_codes_vbyte_le0_le (thorough, "Codes::VbyteLe param 0, LE stream", "Codes::write/read/len + Static* impls vs the code own method; symbolic value") => codes_le::<_, {VBYTE_LE}, 0>;
+    c10_conststatic_pi5_be (thorough, "ConstCode<code_consts::PI5>, BE stream (StaticCodeRead/StaticCodeWrite impls)", "Static* trait impls vs the code own method; symbolic value") => const_static_be::<_, {cc::PI5}, {PI}, 5>;
     #[kani::unwind(12)]
-    c10_codes_zeta1_be (quick, "Codes::Zeta param 1, BE stream", "Codes::write/read/len + Static* impls vs the code own method; symbolic value") => codes_be::<_, {ZETA}, 1>;
+    c10_const_pi5_le (thorough, "ConstCode<code_consts::PI5>, LE stream", "write/read/len vs pi(5); symbolic value (domain of the code), offset<=8") => const_code_le::<_, {cc::PI5}, {PI}, 5>;
     #[kani::unwind(12)]
-    c10_codes_zeta1_le (thorough, "Codes::Zeta param 1, LE stream", "Codes::write/read/len + Static* impls vs the code own method; symbolic value") => codes_le::<_, {ZETA}, 1>;
+    c10_conststatic_pi5_le (thorough, "ConstCode<code_consts::PI5>, LE stream (StaticCodeRead/StaticCodeWrite impls)", "Static* trait impls vs the code own method; symbolic value") => const_static_le::<_, {cc::PI5}, {PI}, 5>;
     #[kani::unwind(12)]
-    c10_codes_zeta2_be (thorough, "Codes::Zeta param 2, BE stream", "Codes::write/read/len + Static* impls vs the code own method; symbolic value") => codes_be::<_, {ZETA}, 2>;
+    c10_const_pi6_be (thorough, "ConstCode<code_consts::PI6>, BE stream", "write/read/len vs pi(6); symbolic value (domain of the code), offset<=8") => const_code_be::<_, {cc::PI6}, {PI}, 6>;
     #[kani::unwind(12)]
-    c10_codes_zeta2_le (thorough, "Codes::Zeta param 2, LE stream", "Codes::write/read/len + Static* impls vs the code own method; symbolic value") => codes_le::<_, {ZETA}, 2>;
+    c10_conststatic_pi6_be (thorough, "ConstCode<code_consts::PI6>, BE stream (StaticCodeRead/StaticCodeWrite impls)", "Static* trait impls vs the code own method; symbolic value") => const_static_be::<_, {cc::PI6}, {PI}, 6>;
     #[kani::unwind(12)]
-    c10_codes_zeta3_be (quick, "Codes::Zeta param 3, BE stream", "Codes::write/read/len + Static* impls vs the code own method; symbolic value") => codes_be::<_, {ZETA}, 3>;
+    c10_const_pi6_le (thorough, "ConstCode<code_consts::PI6>, LE stream", "write/read/len vs pi(6); symbolic value (domain of the code), offset<=8") => const_code_le::<_, {cc::PI6}, {PI}, 6>;
     #[kani::unwind(12)]
-    c10_codes_zeta3_le (thorough, "Codes::Zeta param 3, LE stream", "Codes::write/read/len + Static* impls vs the code own method; symbolic value") => codes_le::<_, {ZETA}, 3>;
+    c10_conststatic_pi6_le (thorough, "ConstCode<code_consts::PI6>, LE stream (StaticCodeRead/StaticCodeWrite impls)", "Static* trait impls vs the code own method; symbolic value") => const_static_le::<_, {cc::PI6}, {PI}, 6>;
     #[kani::unwind(12)]
-    c10_codes_zeta4_be (quick, "Codes::Zeta param 4, BE stream", "Codes::write/read/len + Static* impls vs the code own method; symbolic value") => codes_be::<_, {ZETA}, 4>;
+    c10_const_pi7_be (thorough, "ConstCode<code_consts::PI7>, BE stream", "write/read/len vs pi(7); symbolic value (domain of the code), offset<=8") => const_code_be::<_, {cc::PI7}, {PI}, 7>;
     #[kani::unwind(12)]
-    c10_codes_zeta4_le (thorough, "Codes::Zeta param 4, LE stream", "Codes::write/read/len + Static* impls vs the code own method; symbolic value") => codes_le::<_, {ZETA}, 4>;
+    c10_conststatic_pi7_be (thorough, "ConstCode<code_consts::PI7>, BE stream (StaticCodeRead/StaticCodeWrite impls)", "Static* trait impls vs the code own method; symbolic value") => const_static_be::<_, {cc::PI7}, {PI}, 7>;
     #[kani::unwind(12)]
-    c10_codes_zeta5_be (thorough, "Codes::Zeta param 5, BE stream", "Codes::write/read/len + Static* impls vs the code own method; symbolic value") => codes_be::<_, {ZETA}, 5>;
+    c10_const_pi7_le (thorough, "ConstCode<code_consts::PI7>, LE stream", "write/read/len vs pi(7); symbolic value (domain of the code), offset<=8") => const_code_le::<_, {cc::PI7}, {PI}, 7>;
     #[kani::unwind(12)]
-    c10_codes_zeta5_le (thorough, "Codes::Zeta param 5, LE stream", "Codes::write/read/len + Static* impls vs the code own method; symbolic value") => codes_le::<_, {ZETA}, 5>;
+    c10_conststatic_pi7_le (thorough, "ConstCode<code_consts::PI7>, LE stream (StaticCodeRead/StaticCodeWrite impls)", "Static* trait impls vs the code own method; symbolic value") => const_static_le::<_, {cc::PI7}, {PI}, 7>;
     #[kani::unwind(12)]
-    c10_codes_zeta6_be (thorough, "Codes::Zeta param 6, BE stream", "Codes::write/read/len + Static* impls vs the code own method; symbolic value") => codes_be::<_, {ZETA}, 6>;
+    c10_const_pi8_be (thorough, "ConstCode<code_consts::PI8>, BE stream", "write/read/len vs pi(8); symbolic value (domain of the code), offset<=8") => const_code_be::<_, {cc::PI8}, {PI}, 8>;
     #[kani::unwind(12)]
-    c10_codes_zeta6_le (thorough, "Codes::Zeta param 6, LE stream", "Codes::write/read/len + Static* impls vs the code own method; symbolic value") => codes_le::<_, {ZETA}, 6>;
+    c10_conststatic_pi8_be (thorough, "ConstCode<code_consts::PI8>, BE stream (StaticCodeRead/StaticCodeWrite impls)", "Static* trait impls vs the code own method; symbolic value") => const_static_be::<_, {cc::PI8}, {PI}, 8>;
     #[kani::unwind(12)]
-    c10_codes_zeta7_be (thorough, "Codes::Zeta param 7, BE stream", "Codes::write/read/len + Static* impls vs the code own method; symbolic value") => codes_be::<_, {ZETA}, 7>;
+    c10_const_pi8_le (thorough, "ConstCode<code_consts::PI8>, LE stream", "write/read/len vs pi(8); symbolic value (domain of the code), offset<=8") => const_code_le::<_, {cc::PI8}, {PI}, 8>;
     #[kani::unwind(12)]
-    c10_codes_zeta7_le (thorough, "Codes::Zeta param 7, LE stream", "Codes::write/read/len + Static* impls vs the code own method; symbolic value") => codes_le::<_, {ZETA}, 7>;
+    c10_conststatic_pi8_le (thorough, "ConstCode<code_consts::PI8>, LE stream (StaticCodeRead/StaticCodeWrite impls)", "Static* trait impls vs the code own method; symbolic value") => const_static_le::<_, {cc::PI8}, {PI}, 8>;
     #[kani::unwind(12)]
-    c10_codes_zeta8_be (thorough, "Codes::Zeta param 8, BE stream", "Codes::write/read/len + Static* impls vs the code own method; symbolic value") => codes_be::<_, {ZETA}, 8>;
+    c10_const_pi9_be (thorough, "ConstCode<code_consts::PI9>, BE stream", "write/read/len vs pi(9); symbolic value (domain of the code), offset<=8") => const_code_be::<_, {cc::PI9}, {PI}, 9>;
     #[kani::unwind(12)]
-    c10_codes_zeta8_le (thorough, "Codes::Zeta param 8, LE stream", "Codes::write/read/len + Static* impls vs the code own method; symbolic value") => codes_le::<_, {ZETA}, 8>;
+    c10_conststatic_pi9_be (thorough, "ConstCode<code_consts::PI9>, BE stream (StaticCodeRead/StaticCodeWrite impls)", "Static* trait impls vs the code own method; symbolic value") => const_static_be::<_, {cc::PI9}, {PI}, 9>;
     #[kani::unwind(12)]
-    c10_codes_zeta9_be (thorough, "Codes::Zeta param 9, BE stream", "Codes::write/read/len + Static* impls vs the code own method; symbolic value") => codes_be::<_, {ZETA}, 9>;
+    c10_const_pi9_le (thorough, "ConstCode<code_consts::PI9>, LE stream", "write/read/len vs pi(9); symbolic value (domain of the code), offset<=8") => const_code_le::<_, {cc::PI9}, {PI}, 9>;
     #[kani::unwind(12)]
-    c10_codes_zeta9_le (thorough, "Codes::Zeta param 9, LE stream", "Codes::write/read/len + Static* impls vs the code own method; symbolic value") => codes_le::<_, {ZETA}, 9>;
+    c10_conststatic_pi9_le (thorough, "ConstCode<code_consts::PI9>, LE stream (StaticCodeRead/StaticCodeWrite impls)", "Static* trait impls vs the code own method; symbolic value") => const_static_le::<_, {cc::PI9}, {PI}, 9>;
     #[kani::unwind(12)]
-    c10_codes_zeta10_be (thorough, "Codes::Zeta param 10, BE stream", "Codes::write/read/len + Static* impls vs the code own method; symbolic value") => codes_be::<_, {ZETA}, 10>;
+    c10_const_pi10_be (thorough, "ConstCode<code_consts::PI10>, BE stream", "write/read/len vs pi(10); symbolic value (domain of the code), offset<=8") => const_code_be::<_, {cc::PI10}, {PI}, 10>;
     #[kani::unwind(12)]
-    c10_codes_zeta10_le (thorough, "Codes::Zeta param 10, LE stream", "Codes::write/read/len + Static* impls vs the code own method; symbolic value") => codes_le::<_, {ZETA}, 10>;
+    c10_conststatic_pi10_be (thorough, "ConstCode<code_consts::PI10>, BE stream (StaticCodeRead/StaticCodeWrite impls)", "Static* trait impls vs the code own method; symbolic value") => const_static_be::<_, {cc::PI10}, {PI}, 10>;
     #[kani::unwind(12)]
-    c10_codes_zeta11_be (thorough, "Codes::Zeta param 11, BE stream", "Codes::write/read/len + Static* impls vs the code own method; symbolic value") => codes_be::<_, {ZETA}, 11>;
+    c10_const_pi10_le (thorough, "ConstCode<code_consts::PI10>, LE stream", "write/read/len vs pi(10); symbolic value (domain of the code), offset<=8") => const_code_le::<_, {cc::PI10}, {PI}, 10>;
     #[kani::unwind(12)]
-    c10_codes_zeta11_le (thorough, "Codes::Zeta param 11, LE stream", "Codes::write/read/len + Static* impls vs the code own method; symbolic value") => codes_le::<_, {ZETA}, 11>;
+    c10_conststatic_pi10_le (thorough, "ConstCode<code_consts::PI10>, LE stream (StaticCodeRead/StaticCodeWrite impls)", "Static* trait impls vs the code own method; symbolic value") => const_static_le::<_, {cc::PI10}, {PI}, 10>;
     #[kani::unwind(12)]
-    c10_codes_pi0_be (quick, "Codes::Pi param 0, BE stream", "Codes::write/read/len + Static* impls vs the code own method; symbolic value") => codes_be::<_, {PI}, 0>;
+    c10_const_golomb1_be (quick, "ConstCode<code_consts::GOLOMB1>, BE stream", "write/read/len vs golomb(1); symbolic value (domain of the code), offset<=8") => const_code_be::<_, {cc::GOLOMB1}, {GOLOMB}, 1>;
     #[kani::unwind(12)]
-    c10_codes_pi0_le (thorough, "Codes::Pi param 0, LE stream", "Codes::write/read/len + Static* impls vs the code own method; symbolic value") => codes_le::<_, {PI}, 0>;
+    c10_conststatic_golomb1_be (thorough, "ConstCode<code_consts::GOLOMB1>, BE stream (StaticCodeRead/StaticCodeWrite impls)", "Static* trait impls vs the code own method; symbolic value") => const_static_be::<_, {cc::GOLOMB1}, {GOLOMB}, 1>;
     #[kani::unwind(12)]
-    c10_codes_pi1_be (quick, "Codes::Pi param 1, BE stream", "Codes::write/read/len + Static* impls vs the code own method; symbolic value") => codes_be::<_, {PI}, 1>;
+    c10_const_golomb1_le (thorough, "ConstCode<code_consts::GOLOMB1>, LE stream", "write/read/len vs golomb(1); symbolic value (domain of the code), offset<=8") => const_code_le::<_, {cc::GOLOMB1}, {GOLOMB}, 1>;
     #[kani::unwind(12)]
-    c10_codes_pi1_le (thorough, "Codes::Pi param 1, LE stream", "Codes::write/read/len + Static* impls vs the code own method; symbolic value") => codes_le::<_, {PI}, 1>;
+    c10_conststatic_golomb1_le (thorough, "ConstCode<code_consts::GOLOMB1>, LE stream (StaticCodeRead/StaticCodeWrite impls)", "Static* trait impls vs the code own method; symbolic value") => const_static_le::<_, {cc::GOLOMB1}, {GOLOMB}, 1>;
     #[kani::unwind(12)]
-    c10_codes_pi2_be (thorough, "Codes::Pi param 2, BE stream", "Codes::write/read/len + Static* impls vs the code own method; symbolic value") => codes_be::<_, {PI}, 2>;
+    c10_const_golomb2_be (quick, "ConstCode<code_consts::GOLOMB2>, BE stream", "write/read/len vs golomb(2); symbolic value (domain of the code), offset<=8") => const_code_be::<_, {cc::GOLOMB2}, {GOLOMB}, 2>;
     #[kani::unwind(12)]
-    c10_codes_pi2_le (thorough, "Codes::Pi param 2, LE stream", "Codes::write/read/len + Static* impls vs the code own method; symbolic value") => codes_le::<_, {PI}, 2>;
+    c10_conststatic_golomb2_be (quick, "ConstCode<code_consts::GOLOMB2>, BE stream (StaticCodeRead/StaticCodeWrite impls)", "Static* trait impls vs the code own method; symbolic value") => const_static_be::<_, {cc::GOLOMB2}, {GOLOMB}, 2>;
     #[kani::unwind(12)]
-    c10_codes_pi3_be (thorough, "Codes::Pi param 3, BE stream", "Codes::write/read/len + Static* impls vs the code own method; symbolic value") => codes_be::<_, {PI}, 3>;
+    c10_const_golomb2_le (thorough, "ConstCode<code_consts::GOLOMB2>, LE stream", "write/read/len vs golomb(2); symbolic value (domain of the code), offset<=8") => const_code_le::<_, {cc::GOLOMB2}, {GOLOMB}, 2>;
     #[kani::unwind(12)]
-    c10_codes_pi3_le (thorough, "Codes::Pi param 3, LE stream", "Codes::write/read/len + Static* impls vs the code own method; symbolic value") => codes_le::<_, {PI}, 3>;
+    c10_conststatic_golomb2_le (thorough, "ConstCode<code_consts::GOLOMB2>, LE stream (StaticCodeRead/StaticCodeWrite impls)", "Static* trait impls vs the code own method; symbolic value") => const_static_le::<_, {cc::GOLOMB2}, {GOLOMB}, 2>;
     #[kani::unwind(12)]
-    c10_codes_pi4_be (thorough, "Codes::Pi param 4, BE stream", "Codes::write/read/len + Static* impls vs the code own method; symbolic value") => codes_be::<_, {PI}, 4>;
+    c10_const_golomb3_be (thorough, "ConstCode<code_consts::GOLOMB3>, BE stream", "write/read/len vs golomb(3); symbolic value (domain of the code), offset<=8") => const_code_be::<_, {cc::GOLOMB3}, {GOLOMB}, 3>;
     #[kani::unwind(12)]
-    c10_codes_pi4_le (thorough, "Codes::Pi param 4, LE stream", "Codes::write/read/len + Static* impls vs the code own method; symbolic value") => codes_le::<_, {PI}, 4>;
+    c10_conststatic_golomb3_be (thorough, "ConstCode<code_consts::GOLOMB3>, BE stream (StaticCodeRead/StaticCodeWrite impls)", "Static* trait impls vs the code own method; symbolic value") => const_static_be::<_, {cc::GOLOMB3}, {GOLOMB}, 3>;
     #[kani::unwind(12)]
-    c10_codes_pi5_be (thorough, "Codes::Pi param 5, BE stream", "Codes::write/read/len + Static* impls vs the code own method; symbolic value") => codes_be::<_, {PI}, 5>;
+    c10_const_golomb3_le (thorough, "ConstCode<code_consts::GOLOMB3>, LE stream", "write/read/len vs golomb(3); symbolic value (domain of the code), offset<=8") => const_code_le::<_, {cc::GOLOMB3}, {GOLOMB}, 3>;
     #[kani::unwind(12)]
-    c10_codes_pi5_le (thorough, "Codes::Pi param 5, LE stream", "Codes::write/read/len + Static* impls vs the code own method; symbolic value") => codes_le::<_, {PI}, 5>;
+    c10_conststatic_golomb3_le (thorough, "ConstCode<code_consts::GOLOMB3>, LE stream (StaticCodeRead/StaticCodeWrite impls)", "Static* trait impls vs the code own method; symbolic value") => const_static_le::<_, {cc::GOLOMB3}, {GOLOMB}, 3>;
     #[kani::unwind(12)]
-    c10_codes_pi6_be (thorough, "Codes::Pi param 6, BE stream", "Codes::write/read/len + Static* impls vs the code own method; symbolic value") => codes_be::<_, {PI}, 6>;
+    c10_const_golomb4_be (thorough, "ConstCode<code_consts::GOLOMB4>, BE stream", "write/read/len vs golomb(4); symbolic value (domain of the code), offset<=8") => const_code_be::<_, {cc::GOLOMB4}, {GOLOMB}, 4>;
     #[kani::unwind(12)]
-    c10_codes_pi6_le (thorough, "Codes::Pi param 6, LE stream", "Codes::write/read/len + Static* impls vs the code own method; symbolic value") => codes_le::<_, {PI}, 6>;
+    c10_conststatic_golomb4_be (thorough, "ConstCode<code_consts::GOLOMB4>, BE stream (StaticCodeRead/StaticCodeWrite impls)", "Static* trait impls vs the code own method; symbolic value") => const_static_be::<_, {cc::GOLOMB4}, {GOLOMB}, 4>;
     #[kani::unwind(12)]
-    c10_codes_pi7_be (thorough, "Codes::Pi param 7, BE stream", "Codes::write/read/len + Static* impls vs the code own method; symbolic value") => codes_be::<_, {PI}, 7>;
+    c10_const_golomb4_le (thorough, "ConstCode<code_consts::GOLOMB4>, LE stream", "write/read/len vs golomb(4); symbolic value (domain of the code), offset<=8") => const_code_le::<_, {cc::GOLOMB4}, {GOLOMB}, 4>;
     #[kani::unwind(12)]
-    c10_codes_pi7_le (thorough, "Codes::Pi param 7, LE stream", "Codes::write/read/len + Static* impls vs the code own method; symbolic value") => codes_le::<_, {PI}, 7>;
+    c10_conststatic_golomb4_le (thorough, "ConstCode<code_consts::GOLOMB4>, LE stream (StaticCodeRead/StaticCodeWrite impls)", "Static* trait impls vs the code own method; symbolic value") => const_static_le::<_, {cc::GOLOMB4}, {GOLOMB}, 4>;
     #[kani::unwind(12)]
-    c10_codes_pi8_be (thorough, "Codes::Pi param 8, BE stream", "Codes::write/read/len + Static* impls vs the code own method; symbolic value") => codes_be::<_, {PI}, 8>;
+    c10_const_golomb5_be (thorough, "ConstCode<code_consts::GOLOMB5>, BE stream", "write/read/len vs golomb(5); symbolic value (domain of the code), offset<=8") => const_code_be::<_, {cc::GOLOMB5}, {GOLOMB}, 5>;
     #[kani::unwind(12)]
-    c10_codes_pi8_le (thorough, "Codes::Pi param 8, LE stream", "Codes::write/read/len + Static* impls vs the code own method; symbolic value") => codes_le::<_, {PI}, 8>;
+    c10_conststatic_golomb5_be (thorough, "ConstCode<code_consts::GOLOMB5>, BE stream (StaticCodeRead/StaticCodeWrite impls)", "Static* trait impls vs the code own method; symbolic value") => const_static_be::<_, {cc::GOLOMB5}, {GOLOMB}, 5>;
     #[kani::unwind(12)]
-    c10_codes_pi9_be (thorough, "Codes::Pi param 9, BE stream", "Codes::write/read/len + Static* impls vs the code own method; symbolic value") => codes_be::<_, {PI}, 9>;
+    c10_const_golomb5_le (thorough, "ConstCode<code_consts::GOLOMB5>, LE stream", "write/read/len vs golomb(5); symbolic value (domain of the code), offset<=8") => const_code_le::<_, {cc::GOLOMB5}, {GOLOMB}, 5>;
     #[kani::unwind(12)]
-    c10_codes_pi9_le (thorough, "Codes::Pi param 9, LE stream", "Codes::write/read/len + Static* impls vs the code own method; symbolic value") => codes_le::<_, {PI}, 9>;
+    c10_conststatic_golomb5_le (thorough, "ConstCode<code_consts::GOLOMB5>, LE stream (StaticCodeRead/StaticCodeWrite impls)", "Static* trait impls vs the code own method; symbolic value") => const_static_le::<_, {cc::GOLOMB5}, {GOLOMB}, 5>;
     #[kani::unwind(12)]
-    c10_codes_pi10_be (thorough, "Codes::Pi param 10, BE stream", "Codes::write/read/len + Static* impls vs the code own method; symbolic value") => codes_be::<_, {PI}, 10>;
+    c10_const_golomb6_be (thorough, "ConstCode<code_consts::GOLOMB6>, BE stream", "write/read/len vs golomb(6); symbolic value (domain of the code), offset<=8") => const_code_be::<_, {cc::GOLOMB6}, {GOLOMB}, 6>;
     #[kani::unwind(12)]
-    c10_codes_pi10_le (thorough, "Codes::Pi param 10, LE stream", "Codes::write/read/len + Static* impls vs the code own method; symbolic value") => codes_le::<_, {PI}, 10>;
+    c10_conststatic_golomb6_be (thorough, "ConstCode<code_consts::GOLOMB6>, BE stream (StaticCodeRead/StaticCodeWrite impls)", "Static* trait impls vs the code own method; symbolic value") => const_static_be::<_, {cc::GOLOMB6}, {GOLOMB}, 6>;
     #[kani::unwind(12)]
-    c10_codes_pi11_be (thorough, "Codes::Pi param 11, BE stream", "Codes::write/read/len + Static* impls vs the code own method; symbolic value") => codes_be::<_, {PI}, 11>;
+    c10_const_golomb6_le (thorough, "ConstCode<code_consts::GOLOMB6>, LE stream", "write/read/len vs golomb(6); symbolic value (domain of the code), offset<=8") => const_code_le::<_, {cc::GOLOMB6}, {GOLOMB}, 6>;
     #[kani::unwind(12)]
-    c10_codes_pi11_le (thorough, "Codes::Pi param 11, LE stream", "Codes::write/read/len + Static* impls vs the code own method; symbolic value") => codes_le::<_, {PI}, 11>;
+    c10_conststatic_golomb6_le (thorough, "ConstCode<code_consts::GOLOMB6>, LE stream (StaticCodeRead/StaticCodeWrite impls)", "Static* trait impls vs the code own method; symbolic value") => const_static_le::<_, {cc::GOLOMB6}, {GOLOMB}, 6>;
     #[kani::unwind(12)]
-    c10_codes_golomb1_be (quick, "Codes::Golomb param 1, BE stream", "Codes::write/read/len + Static* impls vs the code own method; symbolic value") => codes_be::<_, {GOLOMB}, 1>;
+    c10_const_golomb7_be (thorough, "ConstCode<code_consts::GOLOMB7>, BE stream", "write/read/len vs golomb(7); symbolic value (domain of the code), offset<=8") => const_code_be::<_, {cc::GOLOMB7}, {GOLOMB}, 7>;
     #[kani::unwind(12)]
-    c10_codes_golomb1_le (thorough, "Codes::Golomb param 1, LE stream", "Codes::write/read/len + Static* impls vs the code own method; symbolic value") => codes_le::<_, {GOLOMB}, 1>;
+    c10_conststatic_golomb7_be (thorough, "ConstCode<code_consts::GOLOMB7>, BE stream (StaticCodeRead/StaticCodeWrite impls)", "Static* trait impls vs the code own method; symbolic value") => const_static_be::<_, {cc::GOLOMB7}, {GOLOMB}, 7>;
     #[kani::unwind(12)]
-    c10_codes_golomb2_be (quick, "Codes::Golomb param 2, BE stream", "Codes::write/read/len + Static* impls vs the code own method; symbolic value") => codes_be::<_, {GOLOMB}, 2>;
+    c10_const_golomb7_le (thorough, "ConstCode<code_consts::GOLOMB7>, LE stream", "write/read/len vs golomb(7); symbolic value (domain of the code), offset<=8") => const_code_le::<_, {cc::GOLOMB7}, {GOLOMB}, 7>;
     #[kani::unwind(12)]
-    c10_codes_golomb2_le (thorough, "Codes::Golomb param 2, LE stream", "Codes::write/read/len + Static* impls vs the code own method; symbolic value") => codes_le::<_, {GOLOMB}, 2>;
+    c10_conststatic_golomb7_le (thorough, "ConstCode<code_consts::GOLOMB7>, LE stream (StaticCodeRead/StaticCodeWrite impls)", "Static* trait impls vs the code own method; symbolic value") => const_static_le::<_, {cc::GOLOMB7}, {GOLOMB}, 7>;
     #[kani::unwind(12)]
-    c10_codes_golomb3_be (thorough, "Codes::Golomb param 3, BE stream", "Codes::write/read/len + Static* impls vs the code own method; symbolic value") => codes_be::<_, {GOLOMB}, 3>;
+    c10_const_golomb8_be (quick, "ConstCode<code_consts::GOLOMB8>, BE stream", "write/read/len vs golomb(8); symbolic value (domain of the code), offset<=8") => const_code_be::<_, {cc::GOLOMB8}, {GOLOMB}, 8>;
     #[kani::unwind(12)]
-    c10_codes_golomb3_le (thorough, "Codes::Golomb param 3, LE stream", "Codes::write/read/len + Static* impls vs the code own method; symbolic value") => codes_le::<_, {GOLOMB}, 3>;
+    c10_conststatic_golomb8_be (thorough, "ConstCode<code_consts::GOLOMB8>, BE stream (StaticCodeRead/StaticCodeWrite impls)", "Static* trait impls vs the code own method; symbolic value") => const_static_be::<_, {cc::GOLOMB8}, {GOLOMB}, 8>;
     #[kani::unwind(12)]
-    c10_codes_golomb4_be (thorough, "Codes::Golomb param 4, BE stream", "Codes::write/read/len + Static* impls vs the code own method; symbolic value") => codes_be::<_, {GOLOMB}, 4>;
+    c10_const_golomb8_le (thorough, "ConstCode<code_consts::GOLOMB8>, LE stream", "write/read/len vs golomb(8); symbolic value (domain of the code), offset<=8") => const_code_le::<_, {cc::GOLOMB8}, {GOLOMB}, 8>;
     #[kani::unwind(12)]
-    c10_codes_golomb4_le (thorough, "Codes::Golomb param 4, LE stream", "Codes::write/read/len + Static* impls vs the code own method; symbolic value") => codes_le::<_, {GOLOMB}, 4>;
+    c10_conststatic_golomb8_le (thorough, "ConstCode<code_consts::GOLOMB8>, LE stream (StaticCodeRead/StaticCodeWrite impls)", "Static* trait impls vs the code own method; symbolic value") => const_static_le::<_, {cc::GOLOMB8}, {GOLOMB}, 8>;
     #[kani::unwind(12)]
-    c10_codes_golomb5_be (thorough, "Codes::Golomb param 5, BE stream", "Codes::write/read/len + Static* impls vs the code own method; symbolic value") => codes_be::<_, {GOLOMB}, 5>;
+    c10_const_golomb9_be (thorough, "ConstCode<code_consts::GOLOMB9>, BE stream", "write/read/len vs golomb(9); symbolic value (domain of the code), offset<=8") => const_code_be::<_, {cc::GOLOMB9}, {GOLOMB}, 9>;
     #[kani::unwind(12)]
-    c10_codes_golomb5_le (thorough, "Codes::Golomb param 5, LE stream", "Codes::write/read/len + Static* impls vs the code own method; symbolic value") => codes_le::<_, {GOLOMB}, 5>;
+    c10_conststatic_golomb9_be (thorough, "ConstCode<code_consts::GOLOMB9>, BE stream (StaticCodeRead/StaticCodeWrite impls)", "Static* trait impls vs the code own method; symbolic value") => const_static_be::<_, {cc::GOLOMB9}, {GOLOMB}, 9>;
     #[kani::unwind(12)]
-    c10_codes_golomb6_be (thorough, "Codes::Golomb param 6, BE stream", "Codes::write/read/len + Static* impls vs the code own method; symbolic value") => codes_be::<_, {GOLOMB}, 6>;
+    c10_const_golomb9_le (thorough, "ConstCode<code_consts::GOLOMB9>, LE stream", "write/read/len vs golomb(9); symbolic value (domain of the code), offset<=8") => const_code_le::<_, {cc::GOLOMB9}, {GOLOMB}, 9>;
     #[kani::unwind(12)]
-    c10_codes_golomb6_le (thorough, "Codes::Golomb param 6, LE stream", "Codes::write/read/len + Static* impls vs the code own method; symbolic value") => codes_le::<_, {GOLOMB}, 6>;
+    c10_conststatic_golomb9_le (thorough, "ConstCode<code_consts::GOLOMB9>, LE stream (StaticCodeRead/StaticCodeWrite impls)", "Static* trait impls vs the code own method; symbolic value") => const_static_le::<_, {cc::GOLOMB9}, {GOLOMB}, 9>;
     #[kani::unwind(12)]
-    c10_codes_golomb7_be (quick, "Codes::Golomb param 7, BE stream", "Codes::write/read/len + Static* impls vs the code own method; symbolic value") => codes_be::<_, {GOLOMB}, 7>;
+    c10_const_golomb10_be (quick, "ConstCode<code_consts::GOLOMB10>, BE stream", "write/read/len vs golomb(10); symbolic value (domain of the code), offset<=8") => const_code_be::<_, {cc::GOLOMB10}, {GOLOMB}, 10>;
     #[kani::unwind(12)]
-    c10_codes_golomb7_le (thorough, "Codes::Golomb param 7, LE stream", "Codes::write/read/len + Static* impls vs the code own method; symbolic value") => codes_le::<_, {GOLOMB}, 7>;
+    c10_conststatic_golomb10_be (thorough, "ConstCode<code_consts::GOLOMB10>, BE stream (StaticCodeRead/StaticCodeWrite impls)", "Static* trait impls vs the code own method; symbolic value") => const_static_be::<_, {cc::GOLOMB10}, {GOLOMB}, 10>;
     #[kani::unwind(12)]
-    c10_codes_golomb8_be (thorough, "Codes::Golomb param 8, BE stream", "Codes::write/read/len + Static* impls vs the code own method; symbolic value") => codes_be::<_, {GOLOMB}, 8>;
+    c10_const_golomb10_le (thorough, "ConstCode<code_consts::GOLOMB10>, LE stream", "write/read/len vs golomb(10); symbolic value (domain of the code), offset<=8") => const_code_le::<_, {cc::GOLOMB10}, {GOLOMB}, 10>;
     #[kani::unwind(12)]
-    c10_codes_golomb8_le (thorough, "Codes::Golomb param 8, LE stream", "Codes::write/read/len + Static* impls vs the code own method; symbolic value") => codes_le::<_, {GOLOMB}, 8>;
+    c10_conststatic_golomb10_le (thorough, "ConstCode<code_consts::GOLOMB10>, LE stream (StaticCodeRead/StaticCodeWrite impls)", "Static* trait impls vs the code own method; symbolic value") => const_static_le::<_, {cc::GOLOMB10}, {GOLOMB}, 10>;
     #[kani::unwind(12)]
-    c10_codes_golomb9_be (thorough, "Codes::Golomb param 9, BE stream", "Codes::write/read/len + Static* impls vs the code own method; symbolic value") => codes_be::<_, {GOLOMB}, 9>;
+    c10_const_exp_golomb0_be (quick, "ConstCode<code_consts::EXP_GOLOMB0>, BE stream", "write/read/len vs exp_golomb(0); symbolic value (domain of the code), offset<=8") => const_code_be::<_, {cc::EXP_GOLOMB0}, {EXP_GOLOMB}, 0>;
     #[kani::unwind(12)]
-    c10_codes_golomb9_le (thorough, "Codes::Golomb param 9, LE stream", "Codes::write/read/len + Static* impls vs the code own method; symbolic value") => codes_le::<_, {GOLOMB}, 9>;
+    c10_conststatic_exp_golomb0_be (thorough, "ConstCode<code_consts::EXP_GOLOMB0>, BE stream (StaticCodeRead/StaticCodeWrite impls)", "Static* trait impls vs the code own method; symbolic value") => const_static_be::<_, {cc::EXP_GOLOMB0}, {EXP_GOLOMB}, 0>;
     #[kani::unwind(12)]
-    c10_codes_golomb10_be (thorough, "Codes::Golomb param 10, BE stream", "Codes::write/read/len + Static* impls vs the code own method; symbolic value") => codes_be::<_, {GOLOMB}, 10>;
+    c10_const_exp_golomb0_le (thorough, "ConstCode<code_consts::EXP_GOLOMB0>, LE stream", "write/read/len vs exp_golomb(0); symbolic value (domain of the code), offset<=8") => const_code_le::<_, {cc::EXP_GOLOMB0}, {EXP_GOLOMB}, 0>;
     #[kani::unwind(12)]
-    c10_codes_golomb10_le (thorough, "Codes::Golomb param 10, LE stream", "Codes::write/read/len + Static* impls vs the code own method; symbolic value") => codes_le::<_, {GOLOMB}, 10>;
+    c10_conststatic_exp_golomb0_le (thorough, "ConstCode<code_consts::EXP_GOLOMB0>, LE stream (StaticCodeRead/StaticCodeWrite impls)", "Static* trait impls vs the code own method; symbolic value") => const_static_le::<_, {cc::EXP_GOLOMB0}, {EXP_GOLOMB}, 0>;
     #[kani::unwind(12)]
-    c10_codes_golomb11_be (thorough, "Codes::Golomb param 11, BE stream", "Codes::write/read/len + Static* impls vs the code own method; symbolic value") => codes_be::<_, {GOLOMB}, 11>;
+    c10_const_exp_golomb1_be (thorough, "ConstCode<code_consts::EXP_GOLOMB1>, BE stream", "write/read/len vs exp_golomb(1); symbolic value (domain of the code), offset<=8") => const_code_be::<_, {cc::EXP_GOLOMB1}, {EXP_GOLOMB}, 1>;
     #[kani::unwind(12)]
-    c10_codes_golomb11_le (thorough, "Codes::Golomb param 11, LE stream", "Codes::write/read/len + Static* impls vs the code own method; symbolic value") => codes_le::<_, {GOLOMB}, 11>;
+    c10_conststatic_exp_golomb1_be (thorough, "ConstCode<code_consts::EXP_GOLOMB1>, BE stream (StaticCodeRead/StaticCodeWrite impls)", "Static* trait impls vs the code own method; symbolic value") => const_static_be::<_, {cc::EXP_GOLOMB1}, {EXP_GOLOMB}, 1>;
     #[kani::unwind(12)]
-    c10_codes_exp_golomb0_be (quick, "Codes::ExpGolomb param 0, BE stream", "Codes::write/read/len + Static* impls vs the code own method; symbolic value") => codes_be::<_, {EXP_GOLOMB}, 0>;
+    c10_const_exp_golomb1_le (thorough, "ConstCode<code_consts::EXP_GOLOMB1>, LE stream", "write/read/len vs exp_golomb(1); symbolic value (domain of the code), offset<=8") => const_code_le::<_, {cc::EXP_GOLOMB1}, {EXP_GOLOMB}, 1>;
     #[kani::unwind(12)]
-    c10_codes_exp_golomb0_le (thorough, "Codes::ExpGolomb param 0, LE stream", "Codes::write/read/len + Static* impls vs the code own method; symbolic value") => codes_le::<_, {EXP_GOLOMB}, 0>;
+    c10_conststatic_exp_golomb1_le (thorough, "ConstCode<code_consts::EXP_GOLOMB1>, LE stream (StaticCodeRead/StaticCodeWrite impls)", "Static* trait impls vs the code own method; symbolic value") => const_static_le::<_, {cc::EXP_GOLOMB1}, {EXP_GOLOMB}, 1>;
     #[kani::unwind(12)]
-    c10_codes_exp_golomb1_be (thorough, "Codes::ExpGolomb param 1, BE stream", "Codes::write/read/len + Static* impls vs the code own method; symbolic value") => codes_be::<_, {EXP_GOLOMB}, 1>;
+    c10_const_exp_golomb2_be (thorough, "ConstCode<code_consts::EXP_GOLOMB2>, BE stream", "write/read/len vs exp_golomb(2); symbolic value (domain of the code), offset<=8") => const_code_be::<_, {cc::EXP_GOLOMB2}, {EXP_GOLOMB}, 2>;
     #[kani::unwind(12)]
-    c10_codes_exp_golomb1_le (thorough, "Codes::ExpGolomb param 1, LE stream", "Codes::write/read/len + Static* impls vs the code own method; symbolic value") => codes_le::<_, {EXP_GOLOMB}, 1>;
+    c10_conststatic_exp_golomb2_be (thorough, "ConstCode<code_consts::EXP_GOLOMB2>, BE stream (StaticCodeRead/StaticCodeWrite impls)", "Static* trait impls vs the code own method; symbolic value") => const_static_be::<_, {cc::EXP_GOLOMB2}, {EXP_GOLOMB}, 2>;
     #[kani::unwind(12)]
-    c10_codes_exp_golomb2_be (thorough, "Codes::ExpGolomb param 2, BE stream", "Codes::write/read/len + Static* impls vs the code own method; symbolic value") => codes_be::<_, {EXP_GOLOMB}, 2>;
+    c10_const_exp_golomb2_le (thorough, "ConstCode<code_consts::EXP_GOLOMB2>, LE stream", "write/read/len vs exp_golomb(2); symbolic value (domain of the code), offset<=8") => const_code_le::<_, {cc::EXP_GOLOMB2}, {EXP_GOLOMB}, 2>;
     #[kani::unwind(12)]
-    c10_codes_exp_golomb2_le (thorough, "Codes::ExpGolomb param 2, LE stream", "Codes::write/read/len + Static* impls vs the code own method; symbolic value") => codes_le::<_, {EXP_GOLOMB}, 2>;
+    c10_conststatic_exp_golomb2_le (thorough, "ConstCode<code_consts::EXP_GOLOMB2>, LE stream (StaticCodeRead/StaticCodeWrite impls)", "Static* trait impls vs the code own method; symbolic value") => const_static_le::<_, {cc::EXP_GOLOMB2}, {EXP_GOLOMB}, 2>;
     #[kani::unwind(12)]
-    c10_codes_exp_golomb3_be (quick, "Codes::ExpGolomb param 3, BE stream", "Codes::write/read/len + Static* impls vs the code own method; symbolic value") => codes_be::<_, {EXP_GOLOMB}, 3>;
+    c10_const_exp_golomb3_be (thorough, "ConstCode<code_consts::EXP_GOLOMB3>, BE stream", "write/read/len vs exp_golomb(3); symbolic value (domain of the code), offset<=8") => const_code_be::<_, {cc::EXP_GOLOMB3}, {EXP_GOLOMB}, 3>;
     #[kani::unwind(12)]
-    c10_codes_exp_golomb3_le (thorough, "Codes::ExpGolomb param 3, LE stream", "Codes::write/read/len + Static* impls vs the code own method; symbolic value") => codes_le::<_, {EXP_GOLOMB}, 3>;
+    c10_conststatic_exp_golomb3_be (thorough, "ConstCode<code_consts::EXP_GOLOMB3>, BE stream (StaticCodeRead/StaticCodeWrite impls)", "Static* trait impls vs the code own method; symbolic value") => const_static_be::<_, {cc::EXP_GOLOMB3}, {EXP_GOLOMB}, 3>;
     #[kani::unwind(12)]
-    c10_codes_exp_golomb4_be (thorough, "Codes::ExpGolomb param 4, BE stream", "Codes::write/read/len + Static* impls vs the code own method; symbolic value") => codes_be::<_, {EXP_GOLOMB}, 4>;
+    c10_const_exp_golomb3_le (thorough, "ConstCode<code_consts::EXP_GOLOMB3>, LE stream", "write/read/len vs exp_golomb(3); symbolic value (domain of the code), offset<=8") => const_code_le::<_, {cc::EXP_GOLOMB3}, {EXP_GOLOMB}, 3>;
     #[kani::unwind(12)]
-    c10_codes_exp_golomb4_le (thorough, "Codes::ExpGolomb param 4, LE stream", "Codes::write/read/len + Static* impls vs the code own method; symbolic value") => codes_le::<_, {EXP_GOLOMB}, 4>;
+    c10_conststatic_exp_golomb3_le (thorough, "ConstCode<code_consts::EXP_GOLOMB3>, LE stream (StaticCodeRead/StaticCodeWrite impls)", "Static* trait impls vs the code own method; symbolic value") => const_static_le::<_, {cc::EXP_GOLOMB3}, {EXP_GOLOMB}, 3>;
     #[kani::unwind(12)]
-    c10_codes_exp_golomb5_be (thorough, "Codes::ExpGolomb param 5, BE stream", "Codes::write/read/len + Static* impls vs the code own method; symbolic value") => codes_be::<_, {EXP_GOLOMB}, 5>;
+    c10_const_exp_golomb4_be (quick, "ConstCode<code_consts::EXP_GOLOMB4>, BE stream", "write/read/len vs exp_golomb(4); symbolic value (domain of the code), offset<=8") => const_code_be::<_, {cc::EXP_GOLOMB4}, {EXP_GOLOMB}, 4>;
     #[kani::unwind(12)]
-    c10_codes_exp_golomb5_le (thorough, "Codes::ExpGolomb param 5, LE stream", "Codes::write/read/len + Static* impls vs the code own method; symbolic value") => codes_le::<_, {EXP_GOLOMB}, 5>;
+    c10_conststatic_exp_golomb4_be (thorough, "ConstCode<code_consts::EXP_GOLOMB4>, BE stream (StaticCodeRead/StaticCodeWrite impls)", "Static* trait impls vs the code own method; symbolic value") => const_static_be::<_, {cc::EXP_GOLOMB4}, {EXP_GOLOMB}, 4>;
     #[kani::unwind(12)]
-    c10_codes_exp_golomb6_be (thorough, "Codes::ExpGolomb param 6, BE stream", "Codes::write/read/len + Static* impls vs the code own method; symbolic value") => codes_be::<_, {EXP_GOLOMB}, 6>;
+    c10_const_exp_golomb4_le (thorough, "ConstCode<code_consts::EXP_GOLOMB4>, LE stream", "write/read/len vs exp_golomb(4); symbolic value (domain of the code), offset<=8") => const_code_le::<_, {cc::EXP_GOLOMB4}, {EXP_GOLOMB}, 4>;
     #[kani::unwind(12)]
-    c10_codes_exp_golomb6_le (thorough, "Codes::ExpGolomb param 6, LE stream", "Codes::write/read/len + Static* impls vs the code own method; symbolic value") => codes_le::<_, {EXP_GOLOMB}, 6>;
+    c10_conststatic_exp_golomb4_le (thorough, "ConstCode<code_consts::EXP_GOLOMB4>, LE stream (StaticCodeRead/StaticCodeWrite impls)", "Static* trait impls vs the code own method; symbolic value") => const_static_le::<_, {cc::EXP_GOLOMB4}, {EXP_GOLOMB}, 4>;
     #[kani::unwind(12)]
-    c10_codes_exp_golomb7_be (thorough, "Codes::ExpGolomb param 7, BE stream", "Codes::write/read/len + Static* impls vs the code own method; symbolic value") => codes_be::<_, {EXP_GOLOMB}, 7>;
+    c10_const_exp_golomb5_be (thorough, "ConstCode<code_consts::EXP_GOLOMB5>, BE stream", "write/read/len vs exp_golomb(5); symbolic value (domain of the code), offset<=8") => const_code_be::<_, {cc::EXP_GOLOMB5}, {EXP_GOLOMB}, 5>;
     #[kani::unwind(12)]
-    c10_codes_exp_golomb7_le (thorough, "Codes::ExpGolomb param 7, LE stream", "Codes::write/read/len + Static* impls vs the code own method; symbolic value") => codes_le::<_, {EXP_GOLOMB}, 7>;
+    c10_conststatic_exp_golomb5_be (thorough, "ConstCode<code_consts::EXP_GOLOMB5>, BE stream (StaticCodeRead/StaticCodeWrite impls)", "Static* trait impls vs the code own method; symbolic value") => const_static_be::<_, {cc::EXP_GOLOMB5}, {EXP_GOLOMB}, 5>;
     #[kani::unwind(12)]
-    c10_codes_exp_golomb8_be (thorough, "Codes::ExpGolomb param 8, BE stream", "Codes::write/read/len + Static* impls vs the code own method; symbolic value") => codes_be::<_, {EXP_GOLOMB}, 8>;
+    c10_const_exp_golomb5_le (thorough, "ConstCode<code_consts::EXP_GOLOMB5>, LE stream", "write/read/len vs exp_golomb(5); symbolic value (domain of the code), offset<=8") => const_code_le::<_, {cc::EXP_GOLOMB5}, {EXP_GOLOMB}, 5>;
     #[kani::unwind(12)]
-    c10_codes_exp_golomb8_le (thorough, "Codes::ExpGolomb param 8, LE stream", "Codes::write/read/len + Static* impls vs the code own method; symbolic value") => codes_le::<_, {EXP_GOLOMB}, 8>;
+    c10_conststatic_exp_golomb5_le (thorough, "ConstCode<code_consts::EXP_GOLOMB5>, LE stream (StaticCodeRead/StaticCodeWrite impls)", "Static* trait impls vs the code own method; symbolic value") => const_static_le::<_, {cc::EXP_GOLOMB5}, {EXP_GOLOMB}, 5>;
     #[kani::unwind(12)]
-    c10_codes_exp_golomb9_be (thorough, "Codes::ExpGolomb param 9, BE stream", "Codes::write/read/len + Static* impls vs the code own method; symbolic value") => codes_be::<_, {EXP_GOLOMB}, 9>;
+    c10_const_exp_golomb6_be (thorough, "ConstCode<code_consts::EXP_GOLOMB6>, BE stream", "write/read/len vs exp_golomb(6); symbolic value (domain of the code), offset<=8") => const_code_be::<_, {cc::EXP_GOLOMB6}, {EXP_GOLOMB}, 6>;
     #[kani::unwind(12)]
-    c10_codes_exp_golomb9_le (thorough, "Codes::ExpGolomb param 9, LE stream", "Codes::write/read/len + Static* impls vs the code own method; symbolic value") => codes_le::<_, {EXP_GOLOMB}, 9>;
+    c10_conststatic_exp_golomb6_be (thorough, "ConstCode<code_consts::EXP_GOLOMB6>, BE stream (StaticCodeRead/StaticCodeWrite impls)", "Static* trait impls vs the code own method; symbolic value") => const_static_be::<_, {cc::EXP_GOLOMB6}, {EXP_GOLOMB}, 6>;
     #[kani::unwind(12)]
-    c10_codes_exp_golomb10_be (thorough, "Codes::ExpGolomb param 10, BE stream", "Codes::write/read/len + Static* impls vs the code own method; symbolic value") => codes_be::<_, {EXP_GOLOMB}, 10>;
+    c10_const_exp_golomb6_le (thorough, "ConstCode<code_consts::EXP_GOLOMB6>, LE stream", "write/read/len vs exp_golomb(6); symbolic value (domain of the code), offset<=8") => const_code_le::<_, {cc::EXP_GOLOMB6}, {EXP_GOLOMB}, 6>;
     #[kani::unwind(12)]
-    c10_codes_exp_golomb10_le (thorough, "Codes::ExpGolomb param 10, LE stream", "Codes::write/read/len + Static* impls vs the code own method; symbolic value") => codes_le::<_, {EXP_GOLOMB}, 10>;
+    c10_conststatic_exp_golomb6_le (thorough, "ConstCode<code_consts::EXP_GOLOMB6>, LE stream (StaticCodeRead/StaticCodeWrite impls)", "Static* trait impls vs the code own method; symbolic value") => const_static_le::<_, {cc::EXP_GOLOMB6}, {EXP_GOLOMB}, 6>;
     #[kani::unwind(12)]
-    c10_codes_exp_golomb11_be (thorough, "Codes::ExpGolomb param 11, BE stream", "Codes::write/read/len + Static* impls vs the code own method; symbolic value") => codes_be::<_, {EXP_GOLOMB}, 11>;
+    c10_const_exp_golomb7_be (thorough, "ConstCode<code_consts::EXP_GOLOMB7>, BE stream", "write/read/len vs exp_golomb(7); symbolic value (domain of the code), offset<=8") => const_code_be::<_, {cc::EXP_GOLOMB7}, {EXP_GOLOMB}, 7>;
     #[kani::unwind(12)]
-    c10_codes_exp_golomb11_le (thorough, "Codes::ExpGolomb param 11, LE stream", "Codes::write/read/len + Static* impls vs the code own method; symbolic value") => codes_le::<_, {EXP_GOLOMB}, 11>;
+    c10_conststatic_exp_golomb7_be (thorough, "ConstCode<code_consts::EXP_GOLOMB7>, BE stream (StaticCodeRead/StaticCodeWrite impls)", "Static* trait impls vs the code own method; symbolic value") => const_static_be::<_, {cc::EXP_GOLOMB7}, {EXP_GOLOMB}, 7>;
     #[kani::unwind(12)]
-    c10_codes_rice0_be (quick, "Codes::Rice param 0, BE stream", "Codes::write/read/len + Static* impls vs the code own method; symbolic value") => codes_be::<_, {RICE}, 0>;
+    c10_const_exp_golomb7_le (thorough, "ConstCode<code_consts::EXP_GOLOMB7>, LE stream", "write/read/len vs exp_golomb(7); symbolic value (domain of the code), offset<=8") => const_code_le::<_, {cc::EXP_GOLOMB7}, {EXP_GOLOMB}, 7>;
     #[kani::unwind(12)]
-    c10_codes_rice0_le (thorough, "Codes::Rice param 0, LE stream", "Codes::write/read/len + Static* impls vs the code own method; symbolic value") => codes_le::<_, {RICE}, 0>;
+    c10_conststatic_exp_golomb7_le (thorough, "ConstCode<code_consts::EXP_GOLOMB7>, LE stream (StaticCodeRead/StaticCodeWrite impls)", "Static* trait impls vs the code own method; symbolic value") => const_static_le::<_, {cc::EXP_GOLOMB7}, {EXP_GOLOMB}, 7>;
     #[kani::unwind(12)]
-    c10_codes_rice1_be (thorough, "Codes::Rice param 1, BE stream", "Codes::write/read/len + Static* impls vs the code own method; symbolic value") => codes_be::<_, {RICE}, 1>;
+    c10_const_exp_golomb8_be (thorough, "ConstCode<code_consts::EXP_GOLOMB8>, BE stream", "write/read/len vs exp_golomb(8); symbolic value (domain of the code), offset<=8") => const_code_be::<_, {cc::EXP_GOLOMB8}, {EXP_GOLOMB}, 8>;
     #[kani::unwind(12)]
-    c10_codes_rice1_le (thorough, "Codes::Rice param 1, LE stream", "Codes::write/read/len + Static* impls vs the code own method; symbolic value") => codes_le::<_, {RICE}, 1>;
+    c10_conststatic_exp_golomb8_be (thorough, "ConstCode<code_consts::EXP_GOLOMB8>, BE stream (StaticCodeRead/StaticCodeWrite impls)", "Static* trait impls vs the code own method; symbolic value") => const_static_be::<_, {cc::EXP_GOLOMB8}, {EXP_GOLOMB}, 8>;
     #[kani::unwind(12)]
-    c10_codes_rice2_be (thorough, "Codes::Rice param 2, BE stream", "Codes::write/read/len + Static* impls vs the code own method; symbolic value") => codes_be::<_, {RICE}, 2>;
+    c10_const_exp_golomb8_le (thorough, "ConstCode<code_consts::EXP_GOLOMB8>, LE stream", "write/read/len vs exp_golomb(8); symbolic value (domain of the code), offset<=8") => const_code_le::<_, {cc::EXP_GOLOMB8}, {EXP_GOLOMB}, 8>;
     #[kani::unwind(12)]
-    c10_codes_rice2_le (thorough, "Codes::Rice param 2, LE stream", "Codes::write/read/len + Static* impls vs the code own method; symbolic value") => codes_le::<_, {RICE}, 2>;
+    c10_conststatic_exp_golomb8_le (thorough, "ConstCode<code_consts::EXP_GOLOMB8>, LE stream (StaticCodeRead/StaticCodeWrite impls)", "Static* trait impls vs the code own method; symbolic value") => const_static_le::<_, {cc::EXP_GOLOMB8}, {EXP_GOLOMB}, 8>;
     #[kani::unwind(12)]
-    c10_codes_rice3_be (thorough, "Codes::Rice param 3, BE stream", "Codes::write/read/len + Static* impls vs the code own method; symbolic value") => codes_be::<_, {RICE}, 3>;
+    c10_const_exp_golomb9_be (thorough, "ConstCode<code_consts::EXP_GOLOMB9>, BE stream", "write/read/len vs exp_golomb(9); symbolic value (domain of the code), offset<=8") => const_code_be::<_, {cc::EXP_GOLOMB9}, {EXP_GOLOMB}, 9>;
     #[kani::unwind(12)]
-    c10_codes_rice3_le (thorough, "Codes::Rice param 3, LE stream", "Codes::write/read/len + Static* impls vs the code own method; symbolic value") => codes_le::<_, {RICE}, 3>;
+    c10_conststatic_exp_golomb9_be (thorough, "ConstCode<code_consts::EXP_GOLOMB9>, BE stream (StaticCodeRead/StaticCodeWrite impls)", "Static* trait impls vs the code own method; symbolic value") => const_static_be::<_, {cc::EXP_GOLOMB9}, {EXP_GOLOMB}, 9>;
     #[kani::unwind(12)]
-    c10_codes_rice4_be (quick, "Codes::Rice param 4, BE stream", "Codes::write/read/len + Static* impls vs the code own method; symbolic value") => codes_be::<_, {RICE}, 4>;
+    c10_const_exp_golomb9_le (thorough, "ConstCode<code_consts::EXP_GOLOMB9>, LE stream", "write/read/len vs exp_golomb(9); symbolic value (domain of the code), offset<=8") => const_code_le::<_, {cc::EXP_GOLOMB9}, {EXP_GOLOMB}, 9>;
     #[kani::unwind(12)]
-    c10_codes_rice4_le (thorough, "Codes::Rice param 4, LE stream", "Codes::write/read/len + Static* impls vs the code own method; symbolic value") => codes_le::<_, {RICE}, 4>;
+    c10_conststatic_exp_golomb9_le (thorough, "ConstCode<code_consts::EXP_GOLOMB9>, LE stream (StaticCodeRead/StaticCodeWrite impls)", "Static* trait impls vs the code own method; symbolic value") => const_static_le::<_, {cc::EXP_GOLOMB9}, {EXP_GOLOMB}, 9>;
     #[kani::unwind(12)]
-    c10_codes_rice5_be (thorough, "Codes::Rice param 5, BE stream", "Codes::write/read/len + Static* impls vs the code own method; symbolic value") => codes_be::<_, {RICE}, 5>;
+    c10_const_exp_golomb10_be (thorough, "ConstCode<code_consts::EXP_GOLOMB10>, BE stream", "write/read/len vs exp_golomb(10); symbolic value (domain of the code), offset<=8") => const_code_be::<_, {cc::EXP_GOLOMB10}, {EXP_GOLOMB}, 10>;
     #[kani::unwind(12)]
-    c10_codes_rice5_le (thorough, "Codes::Rice param 5, LE stream", "Codes::write/read/len + Static* impls vs the code own method; symbolic value") => codes_le::<_, {RICE}, 5>;
+    c10_conststatic_exp_golomb10_be (thorough, "ConstCode<code_consts::EXP_GOLOMB10>, BE stream (StaticCodeRead/StaticCodeWrite impls)", "Static* trait impls vs the code own method; symbolic value") => const_static_be::<_, {cc::EXP_GOLOMB10}, {EXP_GOLOMB}, 10>;
     #[kani::unwind(12)]
-    c10_codes_rice6_be (thorough, "Codes::Rice param 6, BE stream", "Codes::write/read/len + Static* impls vs the code own method; symbolic value") => codes_be::<_, {RICE}, 6>;
+    c10_const_exp_golomb10_le (thorough, "ConstCode<code_consts::EXP_GOLOMB10>, LE stream", "write/read/len vs exp_golomb(10); symbolic value (domain of the code), offset<=8") => const_code_le::<_, {cc::EXP_GOLOMB10}, {EXP_GOLOMB}, 10>;
     #[kani::unwind(12)]
-    c10_codes_rice6_le (thorough, "Codes::Rice param 6, LE stream", "Codes::write/read/len + Static* impls vs the code own method; symbolic value") => codes_le::<_, {RICE}, 6>;
+    c10_conststatic_exp_golomb10_le (thorough, "ConstCode<code_consts::EXP_GOLOMB10>, LE stream (StaticCodeRead/StaticCodeWrite impls)", "Static* trait impls vs the code own method; symbolic value") => const_static_le::<_, {cc::EXP_GOLOMB10}, {EXP_GOLOMB}, 10>;
     #[kani::unwind(12)]
-    c10_codes_rice7_be (thorough, "Codes::Rice param 7, BE stream", "Codes::write/read/len + Static* impls vs the code own method; symbolic value") => codes_be::<_, {RICE}, 7>;
+    c10_codes_unary0_be (quick, "Codes::Unary param 0, BE stream", "Codes::write/read/len vs the code own method; symbolic value") => codes_be::<_, {UNARY}, 0>;
     #[kani::unwind(12)]
-    c10_codes_rice7_le (thorough, "Codes::Rice param 7, LE stream", "Codes::write/read/len + Static* impls vs the code own method; symbolic value") => codes_le::<_, {RICE}, 7>;
+    c10_codesstatic_unary0_be (thorough, "Codes::Unary param 0, BE stream (StaticCodeRead/StaticCodeWrite impls)", "Static* trait impls vs the code own method; symbolic value") => codes_static_be::<_, {UNARY}, 0>;
     #[kani::unwind(12)]
-    c10_codes_rice8_be (thorough, "Codes::Rice param 8, BE stream", "Codes::write/read/len + Static* impls vs the code own method; symbolic value") => codes_be::<_, {RICE}, 8>;
+    c10_codes_unary0_le (thorough, "Codes::Unary param 0, LE stream", "Codes::write/read/len vs the code own method; symbolic value") => codes_le::<_, {UNARY}, 0>;
     #[kani::unwind(12)]
-    c10_codes_rice8_le (thorough, "Codes::Rice param 8, LE stream", "Codes::write/read/len + Static* impls vs the code own method; symbolic value") => codes_le::<_, {RICE}, 8>;
+    c10_codesstatic_unary0_le (thorough, "Codes::Unary param 0, LE stream (StaticCodeRead/StaticCodeWrite impls)", "Static* trait impls vs the code own method; symbolic value") => codes_static_le::<_, {UNARY}, 0>;
     #[kani::unwind(12)]
-    c10_codes_rice9_be (thorough, "Codes::Rice param 9, BE stream", "Codes::write/read/len + Static* impls vs the code own method; symbolic value") => codes_be::<_, {RICE}, 9>;
+    c10_codes_gamma0_be (thorough, "Codes::Gamma param 0, BE stream", "Codes::write/read/len vs the code own method; symbolic value") => codes_be::<_, {GAMMA}, 0>;
     #[kani::unwind(12)]
-    c10_codes_rice9_le (thorough, "Codes::Rice param 9, LE stream", "Codes::write/read/len + Static* impls vs the code own method; symbolic value") => codes_le::<_, {RICE}, 9>;
+    c10_codesstatic_gamma0_be (thorough, "Codes::Gamma param 0, BE stream (StaticCodeRead/StaticCodeWrite impls)", "Static* trait impls vs the code own method; symbolic value") => codes_static_be::<_, {GAMMA}, 0>;
     #[kani::unwind(12)]
-    c10_codes_rice10_be (thorough, "Codes::Rice param 10, BE stream", "Codes::write/read/len + Static* impls vs the code own method; symbolic value") => codes_be::<_, {RICE}, 10>;
+    c10_codes_gamma0_le (thorough, "Codes::Gamma param 0, LE stream", "Codes::write/read/len vs the code own method; symbolic value") => codes_le::<_, {GAMMA}, 0>;
     #[kani::unwind(12)]
-    c10_codes_rice10_le (thorough, "Codes::Rice param 10, LE stream", "Codes::write/read/len + Static* impls vs the code own method; symbolic value") => codes_le::<_, {RICE}, 10>;
+    c10_codesstatic_gamma0_le (thorough, "Codes::Gamma param 0, LE stream (StaticCodeRead/StaticCodeWrite impls)", "Static* trait impls vs the code own method; symbolic value") => codes_static_le::<_, {GAMMA}, 0>;
     #[kani::unwind(12)]
-    c10_codes_rice11_be (thorough, "Codes::Rice param 11, BE stream", "Codes::write/read/len + Static* impls vs the code own method; symbolic value") => codes_be::<_, {RICE}, 11>;
+    c10_codes_delta0_be (quick, "Codes::Delta param 0, BE stream", "Codes::write/read/len vs the code own method; symbolic value") => codes_be::<_, {DELTA}, 0>;
     #[kani::unwind(12)]
-    c10_codes_rice11_le (thorough, "Codes::Rice param 11, LE stream", "Codes::write/read/len + Static* impls vs the code own method; symbolic value") => codes_le::<_, {RICE}, 11>;
+    c10_codesstatic_delta0_be (quick, "Codes::Delta param 0, BE stream (StaticCodeRead/StaticCodeWrite impls)", "Static* trait impls vs the code own method; symbolic value") => codes_static_be::<_, {DELTA}, 0>;
+    #[kani::unwind(12)]
+    c10_codes_delta0_le (thorough, "Codes::Delta param 0, LE stream", "Codes::write/read/len vs the code own method; symbolic value") => codes_le::<_, {DELTA}, 0>;
+    #[kani::unwind(12)]
+    c10_codesstatic_delta0_le (thorough, "Codes::Delta param 0, LE stream (StaticCodeRead/StaticCodeWrite impls)", "Static* trait impls vs the code own method; symbolic value") => codes_static_le::<_, {DELTA}, 0>;
+    #[kani::unwind(12)]
+    c10_codes_omega0_be (thorough, "Codes::Omega param 0, BE stream", "Codes::write/read/len vs the code own method; symbolic value") => codes_be::<_, {OMEGA}, 0>;
+    #[kani::unwind(12)]
+    c10_codesstatic_omega0_be (thorough, "Codes::Omega param 0, BE stream (StaticCodeRead/StaticCodeWrite impls)", "Static* trait impls vs the code own method; symbolic value") => codes_static_be::<_, {OMEGA}, 0>;
+    #[kani::unwind(12)]
+    c10_codes_omega0_le (thorough, "Codes::Omega param 0, LE stream", "Codes::write/read/len vs the code own method; symbolic value") => codes_le::<_, {OMEGA}, 0>;
+    #[kani::unwind(12)]
+    c10_codesstatic_omega0_le (thorough, "Codes::Omega param 0, LE stream (StaticCodeRead/StaticCodeWrite impls)", "Static* trait impls vs the code own method; symbolic value") => codes_static_le::<_, {OMEGA}, 0>;
+    #[kani::unwind(12)]
+    c10_codes_vbyte_be0_be (quick, "Codes::VbyteBe param 0, BE stream", "Codes::write/read/len vs the code own method; symbolic value") => codes_be::<_, {VBYTE_BE}, 0>;
+    #[kani::unwind(12)]
+    c10_codesstatic_vbyte_be0_be (thorough, "Codes::VbyteBe param 0, BE stream (StaticCodeRead/StaticCodeWrite impls)", "Static* trait impls vs the code own method; symbolic value") => codes_static_be::<_, {VBYTE_BE}, 0>;
+    #[kani::unwind(12)]
+    c10_codes_vbyte_be0_le (thorough, "Codes::VbyteBe param 0, LE stream", "Codes::write/read/len vs the code own method; symbolic value") => codes_le::<_, {VBYTE_BE}, 0>;
+    #[kani::unwind(12)]
+    c10_codesstatic_vbyte_be0_le (thorough, "Codes::VbyteBe param 0, LE stream (StaticCodeRead/StaticCodeWrite impls)", "Static* trait impls vs the code own method; symbolic value") => codes_static_le::<_, {VBYTE_BE}, 0>;
+    #[kani::unwind(12)]
+    c10_codes_vbyte_le0_be (thorough, "Codes::VbyteLe param 0, BE stream", "Codes::write/read/len vs the code own method; symbolic value") => codes_be::<_, {VBYTE_LE}, 0>;
+    #[kani::unwind(12)]
+    c10_codesstatic_vbyte_le0_be (thorough, "Codes::VbyteLe param 0, BE stream (StaticCodeRead/StaticCodeWrite impls)", "Static* trait impls vs the code own method; symbolic value") => codes_static_be::<_, {VBYTE_LE}, 0>;
+    #[kani::unwind(12)]
+    c10_codes_vbyte_le0_le (thorough, "Codes::VbyteLe param 0, LE stream", "Codes::write/read/len vs the code own method; symbolic value") => codes_le::<_, {VBYTE_LE}, 0>;
+    #[kani::unwind(12)]
+    c10_codesstatic_vbyte_le0_le (thorough, "Codes::VbyteLe param 0, LE stream (StaticCodeRead/StaticCodeWrite impls)", "Static* trait impls vs the code own method; symbolic value") => codes_static_le::<_, {VBYTE_LE}, 0>;
+    #[kani::unwind(12)]
+    c10_codes_zeta1_be (quick, "Codes::Zeta param 1, BE stream", "Codes::write/read/len vs the code own method; symbolic value") => codes_be::<_, {ZETA}, 1>;
+    #[kani::unwind(12)]
+    c10_codesstatic_zeta1_be (thorough, "Codes::Zeta param 1, BE stream (StaticCodeRead/StaticCodeWrite impls)", "Static* trait impls vs the code own method; symbolic value") => codes_static_be::<_, {ZETA}, 1>;
+    #[kani::unwind(12)]
+    c10_codes_zeta1_le (thorough, "Codes::Zeta param 1, LE stream", "Codes::write/read/len vs the code own method; symbolic value") => codes_le::<_, {ZETA}, 1>;
+    #[kani::unwind(12)]
+    c10_codesstatic_zeta1_le (thorough, "Codes::Zeta param 1, LE stream (StaticCodeRead/StaticCodeWrite impls)", "Static* trait impls vs the code own method; symbolic value") => codes_static_le::<_, {ZETA}, 1>;
+    #[kani::unwind(12)]
+    c10_codes_zeta2_be (thorough, "Codes::Zeta param 2, BE stream", "Codes::write/read/len vs the code own method; symbolic value") => codes_be::<_, {ZETA}, 2>;
+    #[kani::unwind(12)]
+    c10_codesstatic_zeta2_be (thorough, "Codes::Zeta param 2, BE stream (StaticCodeRead/StaticCodeWrite impls)", "Static* trait impls vs the code own method; symbolic value") => codes_static_be::<_, {ZETA}, 2>;
+    #[kani::unwind(12)]
+    c10_codes_zeta2_le (thorough, "Codes::Zeta param 2, LE stream", "Codes::write/read/len vs the code own method; symbolic value") => codes_le::<_, {ZETA}, 2>;
+    #[kani::unwind(12)]
+    c10_codesstatic_zeta2_le (thorough, "Codes::Zeta param 2, LE stream (StaticCodeRead/StaticCodeWrite impls)", "Static* trait impls vs the code own method; symbolic value") => codes_static_le::<_, {ZETA}, 2>;
+    #[kani::unwind(12)]
+    c10_codes_zeta3_be (quick, "Codes::Zeta param 3, BE stream", "Codes::write/read/len vs the code own method; symbolic value") => codes_be::<_, {ZETA}, 3>;
+    #[kani::unwind(12)]
+    c10_codesstatic_zeta3_be (thorough, "Codes::Zeta param 3, BE stream (StaticCodeRead/StaticCodeWrite impls)", "Static* trait impls vs the code own method; symbolic value") => codes_static_be::<_, {ZETA}, 3>;
+    #[kani::unwind(12)]
+    c10_codes_zeta3_le (thorough, "Codes::Zeta param 3, LE stream", "Codes::write/read/len vs the code own method; symbolic value") => codes_le::<_, {ZETA}, 3>;
+    #[kani::unwind(12)]
+    c10_codesstatic_zeta3_le (thorough, "Codes::Zeta param 3, LE stream (StaticCodeRead/StaticCodeWrite impls)", "Static* trait impls vs the code own method; symbolic value") => codes_static_le::<_, {ZETA}, 3>;
+    #[kani::unwind(12)]
+    c10_codes_zeta4_be (quick, "Codes::Zeta param 4, BE stream", "Codes::write/read/len vs the code own method; symbolic value") => codes_be::<_, {ZETA}, 4>;
+    #[kani::unwind(12)]
+    c10_codesstatic_zeta4_be (quick, "Codes::Zeta param 4, BE stream (StaticCodeRead/StaticCodeWrite impls)", "Static* trait impls vs the code own method; symbolic value") => codes_static_be::<_, {ZETA}, 4>;
+    #[kani::unwind(12)]
+    c10_codes_zeta4_le (thorough, "Codes::Zeta param 4, LE stream", "Codes::write/read/len vs the code own method; symbolic value") => codes_le::<_, {ZETA}, 4>;
+    #[kani::unwind(12)]
+    c10_codesstatic_zeta4_le (thorough, "Codes::Zeta param 4, LE stream (StaticCodeRead/StaticCodeWrite impls)", "Static* trait impls vs the code own method; symbolic value") => codes_static_le::<_, {ZETA}, 4>;
+    #[kani::unwind(12)]
+    c10_codes_zeta5_be (thorough, "Codes::Zeta param 5, BE stream", "Codes::write/read/len vs the code own method; symbolic value") => codes_be::<_, {ZETA}, 5>;
+    #[kani::unwind(12)]
+    c10_codesstatic_zeta5_be (thorough, "Codes::Zeta param 5, BE stream (StaticCodeRead/StaticCodeWrite impls)", "Static* trait impls vs the code own method; symbolic value") => codes_static_be::<_, {ZETA}, 5>;
+    #[kani::unwind(12)]
+    c10_codes_zeta5_le (thorough, "Codes::Zeta param 5, LE stream", "Codes::write/read/len vs the code own method; symbolic value") => codes_le::<_, {ZETA}, 5>;
+    #[kani::unwind(12)]
+    c10_codesstatic_zeta5_le (thorough, "Codes::Zeta param 5, LE stream (StaticCodeRead/StaticCodeWrite impls)", "Static* trait impls vs the code own method; symbolic value") => codes_static_le::<_, {ZETA}, 5>;
+    #[kani::unwind(12)]
+    c10_codes_zeta6_be (thorough, "Codes::Zeta param 6, BE stream", "Codes::write/read/len vs the code own method; symbolic value") => codes_be::<_, {ZETA}, 6>;
+    #[kani::unwind(12)]
+    c10_codesstatic_zeta6_be (thorough, "Codes::Zeta param 6, BE stream (StaticCodeRead/StaticCodeWrite impls)", "Static* trait impls vs the code own method; symbolic value") => codes_static_be::<_, {ZETA}, 6>;
+    #[kani::unwind(12)]
+    c10_codes_zeta6_le (thorough, "Codes::Zeta param 6, LE stream", "Codes::write/read/len vs the code own method; symbolic value") => codes_le::<_, {ZETA}, 6>;
+    #[kani::unwind(12)]
+    c10_codesstatic_zeta6_le (thorough, "Codes::Zeta param 6, LE stream (StaticCodeRead/StaticCodeWrite impls)", "Static* trait impls vs the code own method; symbolic value") => codes_static_le::<_, {ZETA}, 6>;
+    #[kani::unwind(12)]
+    c10_codes_zeta7_be (thorough, "Codes::Zeta param 7, BE stream", "Codes::write/read/len vs the code own method; symbolic value") => codes_be::<_, {ZETA}, 7>;
+    #[kani::unwind(12)]
+    c10_codesstatic_zeta7_be (thorough, "Codes::Zeta param 7, BE stream (StaticCodeRead/StaticCodeWrite impls)", "Static* trait impls vs the code own method; symbolic value") => codes_static_be::<_, {ZETA}, 7>;
+    #[kani::unwind(12)]
+    c10_codes_zeta7_le (thorough, "Codes::Zeta param 7, LE stream", "Codes::write/read/len vs the code own method; symbolic value") => codes_le::<_, {ZETA}, 7>;
+    #[kani::unwind(12)]
+    c10_codesstatic_zeta7_le (thorough, "Codes::Zeta param 7, LE stream (StaticCodeRead/StaticCodeWrite impls)", "Static* trait impls vs the code own method; symbolic value") => codes_static_le::<_, {ZETA}, 7>;
+    #[kani::unwind(12)]
+    c10_codes_zeta8_be (thorough, "Codes::Zeta param 8, BE stream", "Codes::write/read/len vs the code own method; symbolic value") => codes_be::<_, {ZETA}, 8>;
+    #[kani::unwind(12)]
+    c10_codesstatic_zeta8_be (thorough, "Codes::Zeta param 8, BE stream (StaticCodeRead/StaticCodeWrite impls)", "Static* trait impls vs the code own method; symbolic value") => codes_static_be::<_, {ZETA}, 8>;
+    #[kani::unwind(12)]
+    c10_codes_zeta8_le (thorough, "Codes::Zeta param 8, LE stream", "Codes::write/read/len vs the code own method; symbolic value") => codes_le::<_, {ZETA}, 8>;
+    #[kani::unwind(12)]
+    c10_codesstatic_zeta8_le (thorough, "Codes::Zeta param 8, LE stream (StaticCodeRead/StaticCodeWrite impls)", "Static* trait impls vs the code own method; symbolic value") => codes_static_le::<_, {ZETA}, 8>;
+    #[kani::unwind(12)]
+    c10_codes_zeta9_be (thorough, "Codes::Zeta param 9, BE stream", "Codes::write/read/len vs the code own method; symbolic value") => codes_be::<_, {ZETA}, 9>;
+    #[kani::unwind(12)]
+    c10_codesstatic_zeta9_be (thorough, "Codes::Zeta param 9, BE stream (StaticCodeRead/StaticCodeWrite impls)", "Static* trait impls vs the code own method; symbolic value") => codes_static_be::<_, {ZETA}, 9>;
+    #[kani::unwind(12)]
+    c10_codes_zeta9_le (thorough, "Codes::Zeta param 9, LE stream", "Codes::write/read/len vs the code own method; symbolic value") => codes_le::<_, {ZETA}, 9>;
+    #[kani::unwind(12)]
+    c10_codesstatic_zeta9_le (thorough, "Codes::Zeta param 9, LE stream (StaticCodeRead/StaticCodeWrite impls)", "Static* trait impls vs the code own method; symbolic value") => codes_static_le::<_, {ZETA}, 9>;
+    #[kani::unwind(12)]
+    c10_codes_zeta10_be (thorough, "Codes::Zeta param 10, BE stream", "Codes::write/read/len vs the code own method; symbolic value") => codes_be::<_, {ZETA}, 10>;
+    #[kani::unwind(12)]
+    c10_codesstatic_zeta10_be (thorough, "Codes::Zeta param 10, BE stream (StaticCodeRead/StaticCodeWrite impls)", "Static* trait impls vs the code own method; symbolic value") => codes_static_be::<_, {ZETA}, 10>;
+    #[kani::unwind(12)]
+    c10_codes_zeta10_le (thorough, "Codes::Zeta param 10, LE stream", "Codes::write/read/len vs the code own method; symbolic value") => codes_le::<_, {ZETA}, 10>;
+    #[kani::unwind(12)]
+    c10_codesstatic_zeta10_le (thorough, "Codes::Zeta param 10, LE stream (StaticCodeRead/StaticCodeWrite impls)", "Static* trait impls vs the code own method; symbolic value") => codes_static_le::<_, {ZETA}, 10>;
+    #[kani::unwind(12)]
+    c10_codes_zeta11_be (thorough, "Codes::Zeta param 11, BE stream", "Codes::write/read/len vs the code own method; symbolic value") => codes_be::<_, {ZETA}, 11>;
+    #[kani::unwind(12)]
+    c10_codesstatic_zeta11_be (thorough, "Codes::Zeta param 11, BE stream (StaticCodeRead/StaticCodeWrite impls)", "Static* trait impls vs the code own method; symbolic value") => codes_static_be::<_, {ZETA}, 11>;
+    #[kani::unwind(12)]
+    c10_codes_zeta11_le (thorough, "Codes::Zeta param 11, LE stream", "Codes::write/read/len vs the code own method; symbolic value") => codes_le::<_, {ZETA}, 11>;
+    #[kani::unwind(12)]
+    c10_codesstatic_zeta11_le (thorough, "Codes::Zeta param 11, LE stream (StaticCodeRead/StaticCodeWrite impls)", "Static* trait impls vs the code own method; symbolic value") => codes_static_le::<_, {ZETA}, 11>;
+    #[kani::unwind(12)]
+    c10_codes_pi0_be (quick, "Codes::Pi param 0, BE stream", "Codes::write/read/len vs the code own method; symbolic value") => codes_be::<_, {PI}, 0>;
+    #[kani::unwind(12)]
+    c10_codesstatic_pi0_be (quick, "Codes::Pi param 0, BE stream (StaticCodeRead/StaticCodeWrite impls)", "Static* trait impls vs the code own method; symbolic value") => codes_static_be::<_, {PI}, 0>;
+    #[kani::unwind(12)]
+    c10_codes_pi0_le (thorough, "Codes::Pi param 0, LE stream", "Codes::write/read/len vs the code own method; symbolic value") => codes_le::<_, {PI}, 0>;
+    #[kani::unwind(12)]
+    c10_codesstatic_pi0_le (thorough, "Codes::Pi param 0, LE stream (StaticCodeRead/StaticCodeWrite impls)", "Static* trait impls vs the code own method; symbolic value") => codes_static_le::<_, {PI}, 0>;
+    #[kani::unwind(12)]
+    c10_codes_pi1_be (quick, "Codes::Pi param 1, BE stream", "Codes::write/read/len vs the code own method; symbolic value") => codes_be::<_, {PI}, 1>;
+    #[kani::unwind(12)]
+    c10_codesstatic_pi1_be (thorough, "Codes::Pi param 1, BE stream (StaticCodeRead/StaticCodeWrite impls)", "Static* trait impls vs the code own method; symbolic value") => codes_static_be::<_, {PI}, 1>;
+    #[kani::unwind(12)]
+    c10_codes_pi1_le (thorough, "Codes::Pi param 1, LE stream", "Codes::write/read/len vs the code own method; symbolic value") => codes_le::<_, {PI}, 1>;
+    #[kani::unwind(12)]
+    c10_codesstatic_pi1_le (thorough, "Codes::Pi param 1, LE stream (StaticCodeRead/StaticCodeWrite impls)", "Static* trait impls vs the code own method; symbolic value") => codes_static_le::<_, {PI}, 1>;
+    #[kani::unwind(12)]
+    c10_codes_pi2_be (thorough, "Codes::Pi param 2, BE stream", "Codes::write/read/len vs the code own method; symbolic value") => codes_be::<_, {PI}, 2>;
+    #[kani::unwind(12)]
+    c10_codesstatic_pi2_be (thorough, "Codes::Pi param 2, BE stream (StaticCodeRead/StaticCodeWrite impls)", "Static* trait impls vs the code own method; symbolic value") => codes_static_be::<_, {PI}, 2>;
+    #[kani::unwind(12)]
+    c10_codes_pi2_le (thorough, "Codes::Pi param 2, LE stream", "Codes::write/read/len vs the code own method; symbolic value") => codes_le::<_, {PI}, 2>;
+    #[kani::unwind(12)]
+    c10_codesstatic_pi2_le (thorough, "Codes::Pi param 2, LE stream (StaticCodeRead/StaticCodeWrite impls)", "Static* trait impls vs the code own method; symbolic value") => codes_static_le::<_, {PI}, 2>;
+    #[kani::unwind(12)]
+    c10_codes_pi3_be (thorough, "Codes::Pi param 3, BE stream", "Codes::write/read/len vs the code own method; symbolic value") => codes_be::<_, {PI}, 3>;
+    #[kani::unwind(12)]
+    c10_codesstatic_pi3_be (thorough, "Codes::Pi param 3, BE stream (StaticCodeRead/StaticCodeWrite impls)", "Static* trait impls vs the code own method; symbolic value") => codes_static_be::<_, {PI}, 3>;
+    #[kani::unwind(12)]
+    c10_codes_pi3_le (thorough, "Codes::Pi param 3, LE stream", "Codes::write/read/len vs the code own method; symbolic value") => codes_le::<_, {PI}, 3>;
+    #[kani::unwind(12)]
+    c10_codesstatic_pi3_le (thorough, "Codes::Pi param 3, LE stream (StaticCodeRead/StaticCodeWrite impls)", "Static* trait impls vs the code own method; symbolic value") => codes_static_le::<_, {PI}, 3>;
+    #[kani::unwind(12)]
+    c10_codes_pi4_be (thorough, "Codes::Pi param 4, BE stream", "Codes::write/read/len vs the code own method; symbolic value") => codes_be::<_, {PI}, 4>;
+    #[kani::unwind(12)]
+    c10_codesstatic_pi4_be (thorough, "Codes::Pi param 4, BE stream (StaticCodeRead/StaticCodeWrite impls)", "Static* trait impls vs the code own method; symbolic value") => codes_static_be::<_, {PI}, 4>;
+    #[kani::unwind(12)]
+    c10_codes_pi4_le (thorough, "Codes::Pi param 4, LE stream", "Codes::write/read/len vs the code own method; symbolic value") => codes_le::<_, {PI}, 4>;
+    #[kani::unwind(12)]
+    c10_codesstatic_pi4_le (thorough, "Codes::Pi param 4, LE stream (StaticCodeRead/StaticCodeWrite impls)", "Static* trait impls vs the code own method; symbolic value") => codes_static_le::<_, {PI}, 4>;
+    #[kani::unwind(12)]
+    c10_codes_pi5_be (thorough, "Codes::Pi param 5, BE stream", "Codes::write/read/len vs the code own method; symbolic value") => codes_be::<_, {PI}, 5>;
+    #[kani::unwind(12)]
+    c10_codesstatic_pi5_be (thorough, "Codes::Pi param 5, BE stream (StaticCodeRead/StaticCodeWrite impls)", "Static* trait impls vs the code own method; symbolic value") => codes_static_be::<_, {PI}, 5>;
+    #[kani::unwind(12)]
+    c10_codes_pi5_le (thorough, "Codes::Pi param 5, LE stream", "Codes::write/read/len vs the code own method; symbolic value") => codes_le::<_, {PI}, 5>;
+    #[kani::unwind(12)]
+    c10_codesstatic_pi5_le (thorough, "Codes::Pi param 5, LE stream (StaticCodeRead/StaticCodeWrite impls)", "Static* trait impls vs the code own method; symbolic value") => codes_static_le::<_, {PI}, 5>;
+    #[kani::unwind(12)]
+    c10_codes_pi6_be (thorough, "Codes::Pi param 6, BE stream", "Codes::write/read/len vs the code own method; symbolic value") => codes_be::<_, {PI}, 6>;
+    #[kani::unwind(12)]
+    c10_codesstatic_pi6_be (thorough, "Codes::Pi param 6, BE stream (StaticCodeRead/StaticCodeWrite impls)", "Static* trait impls vs the code own method; symbolic value") => codes_static_be::<_, {PI}, 6>;
+    #[kani::unwind(12)]
+    c10_codes_pi6_le (thorough, "Codes::Pi param 6, LE stream", "Codes::write/read/len vs the code own method; symbolic value") => codes_le::<_, {PI}, 6>;
+    #[kani::unwind(12)]
+    c10_codesstatic_pi6_le (thorough, "Codes::Pi param 6, LE stream (StaticCodeRead/StaticCodeWrite impls)", "Static* trait impls vs the code own method; symbolic value") => codes_static_le::<_, {PI}, 6>;
+    #[kani::unwind(12)]
+    c10_codes_pi7_be (thorough, "Codes::Pi param 7, BE stream", "Codes::write/read/len vs the code own method; symbolic value") => codes_be::<_, {PI}, 7>;
+    #[kani::unwind(12)]
+    c10_codesstatic_pi7_be (thorough, "Codes::Pi param 7, BE stream (StaticCodeRead/StaticCodeWrite impls)", "Static* trait impls vs the code own method; symbolic value") => codes_static_be::<_, {PI}, 7>;
+    #[kani::unwind(12)]
+    c10_codes_pi7_le (thorough, "Codes::Pi param 7, LE stream", "Codes::write/read/len vs the code own method; symbolic value") => codes_le::<_, {PI}, 7>;
+    #[kani::unwind(12)]
+    c10_codesstatic_pi7_le (thorough, "Codes::Pi param 7, LE stream (StaticCodeRead/StaticCodeWrite impls)", "Static* trait impls vs the code own method; symbolic value") => codes_static_le::<_, {PI}, 7>;
+    #[kani::unwind(12)]
+    c10_codes_pi8_be (thorough, "Codes::Pi param 8, BE stream", "Codes::write/read/len vs the code own method; symbolic value") => codes_be::<_, {PI}, 8>;
+    #[kani::unwind(12)]
+    c10_codesstatic_pi8_be (thorough, "Codes::Pi param 8, BE stream (StaticCodeRead/StaticCodeWrite impls)", "Static* trait impls vs the code own method; symbolic value") => codes_static_be::<_, {PI}, 8>;
+    #[kani::unwind(12)]
+    c10_codes_pi8_le (thorough, "Codes::Pi param 8, LE stream", "Codes::write/read/len vs the code own method; symbolic value") => codes_le::<_, {PI}, 8>;
+    #[kani::unwind(12)]
+    c10_codesstatic_pi8_le (thorough, "Codes::Pi param 8, LE stream (StaticCodeRead/StaticCodeWrite impls)", "Static* trait impls vs the code own method; symbolic value") => codes_static_le::<_, {PI}, 8>;
+    #[kani::unwind(12)]
+    c10_codes_pi9_be (thorough, "Codes::Pi param 9, BE stream", "Codes::write/read/len vs the code own method; symbolic value") => codes_be::<_, {PI}, 9>;
+    #[kani::unwind(12)]
+    c10_codesstatic_pi9_be (thorough, "Codes::Pi param 9, BE stream (StaticCodeRead/StaticCodeWrite impls)", "Static* trait impls vs the code own method; symbolic value") => codes_static_be::<_, {PI}, 9>;
+    #[kani::unwind(12)]
+    c10_codes_pi9_le (thorough, "Codes::Pi param 9, LE stream", "Codes::write/read/len vs the code own method; symbolic value") => codes_le::<_, {PI}, 9>;
+    #[kani::unwind(12)]
+    c10_codesstatic_pi9_le (thorough, "Codes::Pi param 9, LE stream (StaticCodeRead/StaticCodeWrite impls)", "Static* trait impls vs the code own method; symbolic value") => codes_static_le::<_, {PI}, 9>;
+    #[kani::unwind(12)]
+    c10_codes_pi10_be (thorough, "Codes::Pi param 10, BE stream", "Codes::write/read/len vs the code own method; symbolic value") => codes_be::<_, {PI}, 10>;
+    #[kani::unwind(12)]
+    c10_codesstatic_pi10_be (thorough, "Codes::Pi param 10, BE stream (StaticCodeRead/StaticCodeWrite impls)", "Static* trait impls vs the code own method; symbolic value") => codes_static_be::<_, {PI}, 10>;
+    #[kani::unwind(12)]
+    c10_codes_pi10_le (thorough, "Codes::Pi param 10, LE stream", "Codes::write/read/len vs the code own method; symbolic value") => codes_le::<_, {PI}, 10>;
+    #[kani::unwind(12)]
+    c10_codesstatic_pi10_le (thorough, "Codes::Pi param 10, LE stream (StaticCodeRead/StaticCodeWrite impls)", "Static* trait impls vs the code own method; symbolic value") => codes_static_le::<_, {PI}, 10>;
+    #[kani::unwind(12)]
+    c10_codes_pi11_be (thorough, "Codes::Pi param 11, BE stream", "Codes::write/read/len vs the code own method; symbolic value") => codes_be::<_, {PI}, 11>;
+    #[kani::unwind(12)]
+    c10_codesstatic_pi11_be (thorough, "Codes::Pi param 11, BE stream (StaticCodeRead/StaticCodeWrite impls)", "Static* trait impls vs the code own method; symbolic value") => codes_static_be::<_, {PI}, 11>;
+    #[kani::unwind(12)]
+    c10_codes_pi11_le (thorough, "Codes::Pi param 11, LE stream", "Codes::write/read/len vs the code own method; symbolic value") => codes_le::<_, {PI}, 11>;
+    #[kani::unwind(12)]
+    c10_codesstatic_pi11_le (thorough, "Codes::Pi param 11, LE stream (StaticCodeRead/StaticCodeWrite impls)", "Static* trait impls vs the code own method; symbolic value") => codes_static_le::<_, {PI}, 11>;
+    #[kani::unwind(12)]
+    c10_codes_golomb1_be (quick, "Codes::Golomb param 1, BE stream", "Codes::write/read/len vs the code own method; symbolic value") => codes_be::<_, {GOLOMB}, 1>;
+    #[kani::unwind(12)]
+    c10_codesstatic_golomb1_be (thorough, "Codes::Golomb param 1, BE stream (StaticCodeRead/StaticCodeWrite impls)", "Static* trait impls vs the code own method; symbolic value") => codes_static_be::<_, {GOLOMB}, 1>;
+    #[kani::unwind(12)]
+    c10_codes_golomb1_le (thorough, "Codes::Golomb param 1, LE stream", "Codes::write/read/len vs the code own method; symbolic value") => codes_le::<_, {GOLOMB}, 1>;
+    #[kani::unwind(12)]
+    c10_codesstatic_golomb1_le (thorough, "Codes::Golomb param 1, LE stream (StaticCodeRead/StaticCodeWrite impls)", "Static* trait impls vs the code own method; symbolic value") => codes_static_le::<_, {GOLOMB}, 1>;
+    #[kani::unwind(12)]
+    c10_codes_golomb2_be (quick, "Codes::Golomb param 2, BE stream", "Codes::write/read/len vs the code own method; symbolic value") => codes_be::<_, {GOLOMB}, 2>;
+    #[kani::unwind(12)]
+    c10_codesstatic_golomb2_be (thorough, "Codes::Golomb param 2, BE stream (StaticCodeRead/StaticCodeWrite impls)", "Static* trait impls vs the code own method; symbolic value") => codes_static_be::<_, {GOLOMB}, 2>;
+    #[kani::unwind(12)]
+    c10_codes_golomb2_le (thorough, "Codes::Golomb param 2, LE stream", "Codes::write/read/len vs the code own method; symbolic value") => codes_le::<_, {GOLOMB}, 2>;
+    #[kani::unwind(12)]
+    c10_codesstatic_golomb2_le (thorough, "Codes::Golomb param 2, LE stream (StaticCodeRead/StaticCodeWrite impls)", "Static* trait impls vs the code own method; symbolic value") => codes_static_le::<_, {GOLOMB}, 2>;
+    #[kani::unwind(12)]
+    c10_codes_golomb3_be (thorough, "Codes::Golomb param 3, BE stream", "Codes::write/read/len vs the code own method; symbolic value") => codes_be::<_, {GOLOMB}, 3>;
+    #[kani::unwind(12)]
+    c10_codesstatic_golomb3_be (thorough, "Codes::Golomb param 3, BE stream (StaticCodeRead/StaticCodeWrite impls)", "Static* trait impls vs the code own method; symbolic value") => codes_static_be::<_, {GOLOMB}, 3>;
+    #[kani::unwind(12)]
+    c10_codes_golomb3_le (thorough, "Codes::Golomb param 3, LE stream", "Codes::write/read/len vs the code own method; symbolic value") => codes_le::<_, {GOLOMB}, 3>;
+    #[kani::unwind(12)]
+    c10_codesstatic_golomb3_le (thorough, "Codes::Golomb param 3, LE stream (StaticCodeRead/StaticCodeWrite impls)", "Static* trait impls vs the code own method; symbolic value") => codes_static_le::<_, {GOLOMB}, 3>;
+    #[kani::unwind(12)]
+    c10_codes_golomb4_be (thorough, "Codes::Golomb param 4, BE stream", "Codes::write/read/len vs the code own method; symbolic value") => codes_be::<_, {GOLOMB}, 4>;
+    #[kani::unwind(12)]
+    c10_codesstatic_golomb4_be (thorough, "Codes::Golomb param 4, BE stream (StaticCodeRead/StaticCodeWrite impls)", "Static* trait impls vs the code own method; symbolic value") => codes_static_be::<_, {GOLOMB}, 4>;
+    #[kani::unwind(12)]
+    c10_codes_golomb4_le (thorough, "Codes::Golomb param 4, LE stream", "Codes::write/read/len vs the code own method; symbolic value") => codes_le::<_, {GOLOMB}, 4>;
+    #[kani::unwind(12)]
+    c10_codesstatic_golomb4_le (thorough, "Codes::Golomb param 4, LE stream (StaticCodeRead/StaticCodeWrite impls)", "Static* trait impls vs the code own method; symbolic value") => codes_static_le::<_, {GOLOMB}, 4>;
+    #[kani::unwind(12)]
+    c10_codes_golomb5_be (thorough, "Codes::Golomb param 5, BE stream", "Codes::write/read/len vs the code own method; symbolic value") => codes_be::<_, {GOLOMB}, 5>;
+    #[kani::unwind(12)]
+    c10_codesstatic_golomb5_be (thorough, "Codes::Golomb param 5, BE stream (StaticCodeRead/StaticCodeWrite impls)", "Static* trait impls vs the code own method; symbolic value") => codes_static_be::<_, {GOLOMB}, 5>;
+    #[kani::unwind(12)]
+    c10_codes_golomb5_le (thorough, "Codes::Golomb param 5, LE stream", "Codes::write/read/len vs the code own method; symbolic value") => codes_le::<_, {GOLOMB}, 5>;
+    #[kani::unwind(12)]
+    c10_codesstatic_golomb5_le (thorough, "Codes::Golomb param 5, LE stream (StaticCodeRead/StaticCodeWrite impls)", "Static* trait impls vs the code own method; symbolic value") => codes_static_le::<_, {GOLOMB}, 5>;
+    #[kani::unwind(12)]
+    c10_codes_golomb6_be (thorough, "Codes::Golomb param 6, BE stream", "Codes::write/read/len vs the code own method; symbolic value") => codes_be::<_, {GOLOMB}, 6>;
+    #[kani::unwind(12)]
+    c10_codesstatic_golomb6_be (thorough, "Codes::Golomb param 6, BE stream (StaticCodeRead/StaticCodeWrite impls)", "Static* trait impls vs the code own method; symbolic value") => codes_static_be::<_, {GOLOMB}, 6>;
+    #[kani::unwind(12)]
+    c10_codes_golomb6_le (thorough, "Codes::Golomb param 6, LE stream", "Codes::write/read/len vs the code own method; symbolic value") => codes_le::<_, {GOLOMB}, 6>;
+    #[kani::unwind(12)]
+    c10_codesstatic_golomb6_le (thorough, "Codes::Golomb param 6, LE stream (StaticCodeRead/StaticCodeWrite impls)", "Static* trait impls vs the code own method; symbolic value") => codes_static_le::<_, {GOLOMB}, 6>;
+    #[kani::unwind(12)]
+    c10_codes_golomb7_be (quick, "Codes::Golomb param 7, BE stream", "Codes::write/read/len vs the code own method; symbolic value") => codes_be::<_, {GOLOMB}, 7>;
+    #[kani::unwind(12)]
+    c10_codesstatic_golomb7_be (quick, "Codes::Golomb param 7, BE stream (StaticCodeRead/StaticCodeWrite impls)", "Static* trait impls vs the code own method; symbolic value") => codes_static_be::<_, {GOLOMB}, 7>;
+    #[kani::unwind(12)]
+    c10_codes_golomb7_le (thorough, "Codes::Golomb param 7, LE stream", "Codes::write/read/len vs the code own method; symbolic value") => codes_le::<_, {GOLOMB}, 7>;
+    #[kani::unwind(12)]
+    c10_codesstatic_golomb7_le (thorough, "Codes::Golomb param 7, LE stream (StaticCodeRead/StaticCodeWrite impls)", "Static* trait impls vs the code own method; symbolic value") => codes_static_le::<_, {GOLOMB}, 7>;
+    #[kani::unwind(12)]
+    c10_codes_golomb8_be (thorough, "Codes::Golomb param 8, BE stream", "Codes::write/read/len vs the code own method; symbolic value") => codes_be::<_, {GOLOMB}, 8>;
+    #[kani::unwind(12)]
+    c10_codesstatic_golomb8_be (thorough, "Codes::Golomb param 8, BE stream (StaticCodeRead/StaticCodeWrite impls)", "Static* trait impls vs the code own method; symbolic value") => codes_static_be::<_, {GOLOMB}, 8>;
+    #[kani::unwind(12)]
+    c10_codes_golomb8_le (thorough, "Codes::Golomb param 8, LE stream", "Codes::write/read/len vs the code own method; symbolic value") => codes_le::<_, {GOLOMB}, 8>;
+    #[kani::unwind(12)]
+    c10_codesstatic_golomb8_le (thorough, "Codes::Golomb param 8, LE stream (StaticCodeRead/StaticCodeWrite impls)", "Static* trait impls vs the code own method; symbolic value") => codes_static_le::<_, {GOLOMB}, 8>;
+    #[kani::unwind(12)]
+    c10_codes_golomb9_be (thorough, "Codes::Golomb param 9, BE stream", "Codes::write/read/len vs the code own method; symbolic value") => codes_be::<_, {GOLOMB}, 9>;
+    #[kani::unwind(12)]
+    c10_codesstatic_golomb9_be (thorough, "Codes::Golomb param 9, BE stream (StaticCodeRead/StaticCodeWrite impls)", "Static* trait impls vs the code own method; symbolic value") => codes_static_be::<_, {GOLOMB}, 9>;
+    #[kani::unwind(12)]
+    c10_codes_golomb9_le (thorough, "Codes::Golomb param 9, LE stream", "Codes::write/read/len vs the code own method; symbolic value") => codes_le::<_, {GOLOMB}, 9>;
+    #[kani::unwind(12)]
+    c10_codesstatic_golomb9_le (thorough, "Codes::Golomb param 9, LE stream (StaticCodeRead/StaticCodeWrite impls)", "Static* trait impls vs the code own method; symbolic value") => codes_static_le::<_, {GOLOMB}, 9>;
+    #[kani::unwind(12)]
+    c10_codes_golomb10_be (thorough, "Codes::Golomb param 10, BE stream", "Codes::write/read/len vs the code own method; symbolic value") => codes_be::<_, {GOLOMB}, 10>;
+    #[kani::unwind(12)]
+    c10_codesstatic_golomb10_be (thorough, "Codes::Golomb param 10, BE stream (StaticCodeRead/StaticCodeWrite impls)", "Static* trait impls vs the code own method; symbolic value") => codes_static_be::<_, {GOLOMB}, 10>;
+    #[kani::unwind(12)]
+    c10_codes_golomb10_le (thorough, "Codes::Golomb param 10, LE stream", "Codes::write/read/len vs the code own method; symbolic value") => codes_le::<_, {GOLOMB}, 10>;
+    #[kani::unwind(12)]
+    c10_codesstatic_golomb10_le (thorough, "Codes::Golomb param 10, LE stream (StaticCodeRead/StaticCodeWrite impls)", "Static* trait impls vs the code own method; symbolic value") => codes_static_le::<_, {GOLOMB}, 10>;
+    #[kani::unwind(12)]
+    c10_codes_golomb11_be (thorough, "Codes::Golomb param 11, BE stream", "Codes::write/read/len vs the code own method; symbolic value") => codes_be::<_, {GOLOMB}, 11>;
+    #[kani::unwind(12)]
+    c10_codesstatic_golomb11_be (thorough, "Codes::Golomb param 11, BE stream (StaticCodeRead/StaticCodeWrite impls)", "Static* trait impls vs the code own method; symbolic value") => codes_static_be::<_, {GOLOMB}, 11>;
+    #[kani::unwind(12)]
+    c10_codes_golomb11_le (thorough, "Codes::Golomb param 11, LE stream", "Codes::write/read/len vs the code own method; symbolic value") => codes_le::<_, {GOLOMB}, 11>;
+    #[kani::unwind(12)]
+    c10_codesstatic_golomb11_le (thorough, "Codes::Golomb param 11, LE stream (StaticCodeRead/StaticCodeWrite impls)", "Static* trait impls vs the code own method; symbolic value") => codes_static_le::<_, {GOLOMB}, 11>;
+    #[kani::unwind(12)]
+    c10_codes_exp_golomb0_be (quick, "Codes::ExpGolomb param 0, BE stream", "Codes::write/read/len vs the code own method; symbolic value") => codes_be::<_, {EXP_GOLOMB}, 0>;
+    #[kani::unwind(12)]
+    c10_codesstatic_exp_golomb0_be (quick, "Codes::ExpGolomb param 0, BE stream (StaticCodeRead/StaticCodeWrite impls)", "Static* trait impls vs the code own method; symbolic value") => codes_static_be::<_, {EXP_GOLOMB}, 0>;
+    #[kani::unwind(12)]
+    c10_codes_exp_golomb0_le (thorough, "Codes::ExpGolomb param 0, LE stream", "Codes::write/read/len vs the code own method; symbolic value") => codes_le::<_, {EXP_GOLOMB}, 0>;
+    #[kani::unwind(12)]
+    c10_codesstatic_exp_golomb0_le (thorough, "Codes::ExpGolomb param 0, LE stream (StaticCodeRead/StaticCodeWrite impls)", "Static* trait impls vs the code own method; symbolic value") => codes_static_le::<_, {EXP_GOLOMB}, 0>;
+    #[kani::unwind(12)]
+    c10_codes_exp_golomb1_be (thorough, "Codes::ExpGolomb param 1, BE stream", "Codes::write/read/len vs the code own method; symbolic value") => codes_be::<_, {EXP_GOLOMB}, 1>;
+    #[kani::unwind(12)]
+    c10_codesstatic_exp_golomb1_be (thorough, "Codes::ExpGolomb param 1, BE stream (StaticCodeRead/StaticCodeWrite impls)", "Static* trait impls vs the code own method; symbolic value") => codes_static_be::<_, {EXP_GOLOMB}, 1>;
+    #[kani::unwind(12)]
+    c10_codes_exp_golomb1_le (thorough, "Codes::ExpGolomb param 1, LE stream", "Codes::write/read/len vs the code own method; symbolic value") => codes_le::<_, {EXP_GOLOMB}, 1>;
+    #[kani::unwind(12)]
+    c10_codesstatic_exp_golomb1_le (thorough, "Codes::ExpGolomb param 1, LE stream (StaticCodeRead/StaticCodeWrite impls)", "Static* trait impls vs the code own method; symbolic value") => codes_static_le::<_, {EXP_GOLOMB}, 1>;
+    #[kani::unwind(12)]
+    c10_codes_exp_golomb2_be (thorough, "Codes::ExpGolomb param 2, BE stream", "Codes::write/read/len vs the code own method; symbolic value") => codes_be::<_, {EXP_GOLOMB}, 2>;
+    #[kani::unwind(12)]
+    c10_codesstatic_exp_golomb2_be (thorough, "Codes::ExpGolomb param 2, BE stream (StaticCodeRead/StaticCodeWrite impls)", "Static* trait impls vs the code own method; symbolic value") => codes_static_be::<_, {EXP_GOLOMB}, 2>;
+    #[kani::unwind(12)]
+    c10_codes_exp_golomb2_le (thorough, "Codes::ExpGolomb param 2, LE stream", "Codes::write/read/len vs the code own method; symbolic value") => codes_le::<_, {EXP_GOLOMB}, 2>;
+    #[kani::unwind(12)]
+    c10_codesstatic_exp_golomb2_le (thorough, "Codes::ExpGolomb param 2, LE stream (StaticCodeRead/StaticCodeWrite impls)", "Static* trait impls vs the code own method; symbolic value") => codes_static_le::<_, {EXP_GOLOMB}, 2>;
+    #[kani::unwind(12)]
+    c10_codes_exp_golomb3_be (thorough, "Codes::ExpGolomb param 3, BE stream", "Codes::write/read/len vs the code own method; symbolic value") => codes_be::<_, {EXP_GOLOMB}, 3>;
+    #[kani::unwind(12)]
+    c10_codesstatic_exp_golomb3_be (thorough, "Codes::ExpGolomb param 3, BE stream (StaticCodeRead/StaticCodeWrite impls)", "Static* trait impls vs the code own method; symbolic value") => codes_static_be::<_, {EXP_GOLOMB}, 3>;
+    #[kani::unwind(12)]
+    c10_codes_exp_golomb3_le (thorough, "Codes::ExpGolomb param 3, LE stream", "Codes::write/read/len vs the code own method; symbolic value") => codes_le::<_, {EXP_GOLOMB}, 3>;
+    #[kani::unwind(12)]
+    c10_codesstatic_exp_golomb3_le (thorough, "Codes::ExpGolomb param 3, LE stream (StaticCodeRead/StaticCodeWrite impls)", "Static* trait impls vs the code own method; symbolic value") => codes_static_le::<_, {EXP_GOLOMB}, 3>;
+    #[kani::unwind(12)]
+    c10_codes_exp_golomb4_be (thorough, "Codes::ExpGolomb param 4, BE stream", "Codes::write/read/len vs the code own method; symbolic value") => codes_be::<_, {EXP_GOLOMB}, 4>;
+    #[kani::unwind(12)]
+    c10_codesstatic_exp_golomb4_be (thorough, "Codes::ExpGolomb param 4, BE stream (StaticCodeRead/StaticCodeWrite impls)", "Static* trait impls vs the code own method; symbolic value") => codes_static_be::<_, {EXP_GOLOMB}, 4>;
+    #[kani::unwind(12)]
+    c10_codes_exp_golomb4_le (thorough, "Codes::ExpGolomb param 4, LE stream", "Codes::write/read/len vs the code own method; symbolic value") => codes_le::<_, {EXP_GOLOMB}, 4>;
+    #[kani::unwind(12)]
+    c10_codesstatic_exp_golomb4_le (thorough, "Codes::ExpGolomb param 4, LE stream (StaticCodeRead/StaticCodeWrite impls)", "Static* trait impls vs the code own method; symbolic value") => codes_static_le::<_, {EXP_GOLOMB}, 4>;
+    #[kani::unwind(12)]
+    c10_codes_exp_golomb5_be (thorough, "Codes::ExpGolomb param 5, BE stream", "Codes::write/read/len vs the code own method; symbolic value") => codes_be::<_, {EXP_GOLOMB}, 5>;
+    #[kani::unwind(12)]
+    c10_codesstatic_exp_golomb5_be (thorough, "Codes::ExpGolomb param 5, BE stream (StaticCodeRead/StaticCodeWrite impls)", "Static* trait impls vs the code own method; symbolic value") => codes_static_be::<_, {EXP_GOLOMB}, 5>;
+    #[kani::unwind(12)]
+    c10_codes_exp_golomb5_le (thorough, "Codes::ExpGolomb param 5, LE stream", "Codes::write/read/len vs the code own method; symbolic value") => codes_le::<_, {EXP_GOLOMB}, 5>;
+    #[kani::unwind(12)]
+    c10_codesstatic_exp_golomb5_le (thorough, "Codes::ExpGolomb param 5, LE stream (StaticCodeRead/StaticCodeWrite impls)", "Static* trait impls vs the code own method; symbolic value") => codes_static_le::<_, {EXP_GOLOMB}, 5>;
+    #[kani::unwind(12)]
+    c10_codes_exp_golomb6_be (thorough, "Codes::ExpGolomb param 6, BE stream", "Codes::write/read/len vs the code own method; symbolic value") => codes_be::<_, {EXP_GOLOMB}, 6>;
+    #[kani::unwind(12)]
+    c10_codesstatic_exp_golomb6_be (thorough, "Codes::ExpGolomb param 6, BE stream (StaticCodeRead/StaticCodeWrite impls)", "Static* trait impls vs the code own method; symbolic value") => codes_static_be::<_, {EXP_GOLOMB}, 6>;
+    #[kani::unwind(12)]
+    c10_codes_exp_golomb6_le (thorough, "Codes::ExpGolomb param 6, LE stream", "Codes::write/read/len vs the code own method; symbolic value") => codes_le::<_, {EXP_GOLOMB}, 6>;
+    #[kani::unwind(12)]
+    c10_codesstatic_exp_golomb6_le (thorough, "Codes::ExpGolomb param 6, LE stream (StaticCodeRead/StaticCodeWrite impls)", "Static* trait impls vs the code own method; symbolic value") => codes_static_le::<_, {EXP_GOLOMB}, 6>;
+    #[kani::unwind(12)]
+    c10_codes_exp_golomb7_be (thorough, "Codes::ExpGolomb param 7, BE stream", "Codes::write/read/len vs the code own method; symbolic value") => codes_be::<_, {EXP_GOLOMB}, 7>;
+    #[kani::unwind(12)]
+    c10_codesstatic_exp_golomb7_be (thorough, "Codes::ExpGolomb param 7, BE stream (StaticCodeRead/StaticCodeWrite impls)", "Static* trait impls vs the code own method; symbolic value") => codes_static_be::<_, {EXP_GOLOMB}, 7>;
+    #[kani::unwind(12)]
+    c10_codes_exp_golomb7_le (thorough, "Codes::ExpGolomb param 7, LE stream", "Codes::write/read/len vs the code own method; symbolic value") => codes_le::<_, {EXP_GOLOMB}, 7>;
+    #[kani::unwind(12)]
+    c10_codesstatic_exp_golomb7_le (thorough, "Codes::ExpGolomb param 7, LE stream (StaticCodeRead/StaticCodeWrite impls)", "Static* trait impls vs the code own method; symbolic value") => codes_static_le::<_, {EXP_GOLOMB}, 7>;
+    #[kani::unwind(12)]
+    c10_codes_exp_golomb8_be (thorough, "Codes::ExpGolomb param 8, BE stream", "Codes::write/read/len vs the code own method; symbolic value") => codes_be::<_, {EXP_GOLOMB}, 8>;
+    #[kani::unwind(12)]
+    c10_codesstatic_exp_golomb8_be (thorough, "Codes::ExpGolomb param 8, BE stream (StaticCodeRead/StaticCodeWrite impls)", "Static* trait impls vs the code own method; symbolic value") => codes_static_be::<_, {EXP_GOLOMB}, 8>;
+    #[kani::unwind(12)]
+    c10_codes_exp_golomb8_le (thorough, "Codes::ExpGolomb param 8, LE stream", "Codes::write/read/len vs the code own method; symbolic value") => codes_le::<_, {EXP_GOLOMB}, 8>;
+    #[kani::unwind(12)]
+    c10_codesstatic_exp_golomb8_le (thorough, "Codes::ExpGolomb param 8, LE stream (StaticCodeRead/StaticCodeWrite impls)", "Static* trait impls vs the code own method; symbolic value") => codes_static_le::<_, {EXP_GOLOMB}, 8>;
+    #[kani::unwind(12)]
+    c10_codes_exp_golomb9_be (thorough, "Codes::ExpGolomb param 9, BE stream", "Codes::write/read/len vs the code own method; symbolic value") => codes_be::<_, {EXP_GOLOMB}, 9>;
+    #[kani::unwind(12)]
+    c10_codesstatic_exp_golomb9_be (thorough, "Codes::ExpGolomb param 9, BE stream (StaticCodeRead/StaticCodeWrite impls)", "Static* trait impls vs the code own method; symbolic value") => codes_static_be::<_, {EXP_GOLOMB}, 9>;
+    #[kani::unwind(12)]
+    c10_codes_exp_golomb9_le (thorough, "Codes::ExpGolomb param 9, LE stream", "Codes::write/read/len vs the code own method; symbolic value") => codes_le::<_, {EXP_GOLOMB}, 9>;
+    #[kani::unwind(12)]
+    c10_codesstatic_exp_golomb9_le (thorough, "Codes::ExpGolomb param 9, LE stream (StaticCodeRead/StaticCodeWrite impls)", "Static* trait impls vs the code own method; symbolic value") => codes_static_le::<_, {EXP_GOLOMB}, 9>;
+    #[kani::unwind(12)]
+    c10_codes_exp_golomb10_be (thorough, "Codes::ExpGolomb param 10, BE stream", "Codes::write/read/len vs the code own method; symbolic value") => codes_be::<_, {EXP_GOLOMB}, 10>;
+    #[kani::unwind(12)]
+    c10_codesstatic_exp_golomb10_be (thorough, "Codes::ExpGolomb param 10, BE stream (StaticCodeRead/StaticCodeWrite impls)", "Static* trait impls vs the code own method; symbolic value") => codes_static_be::<_, {EXP_GOLOMB}, 10>;
+    #[kani::unwind(12)]
+    c10_codes_exp_golomb10_le (thorough, "Codes::ExpGolomb param 10, LE stream", "Codes::write/read/len vs the code own method; symbolic value") => codes_le::<_, {EXP_GOLOMB}, 10>;
+    #[kani::unwind(12)]
+    c10_codesstatic_exp_golomb10_le (thorough, "Codes::ExpGolomb param 10, LE stream (StaticCodeRead/StaticCodeWrite impls)", "Static* trait impls vs the code own method; symbolic value") => codes_static_le::<_, {EXP_GOLOMB}, 10>;
+    #[kani::unwind(12)]
+    c10_codes_exp_golomb11_be (thorough, "Codes::ExpGolomb param 11, BE stream", "Codes::write/read/len vs the code own method; symbolic value") => codes_be::<_, {EXP_GOLOMB}, 11>;
+    #[kani::unwind(12)]
+    c10_codesstatic_exp_golomb11_be (thorough, "Codes::ExpGolomb param 11, BE stream (StaticCodeRead/StaticCodeWrite impls)", "Static* trait impls vs the code own method; symbolic value") => codes_static_be::<_, {EXP_GOLOMB}, 11>;
+    #[kani::unwind(12)]
+    c10_codes_exp_golomb11_le (thorough, "Codes::ExpGolomb param 11, LE stream", "Codes::write/read/len vs the code own method; symbolic value") => codes_le::<_, {EXP_GOLOMB}, 11>;
+    #[kani::unwind(12)]
+    c10_codesstatic_exp_golomb11_le (thorough, "Codes::ExpGolomb param 11, LE stream (StaticCodeRead/StaticCodeWrite impls)", "Static* trait impls vs the code own method; symbolic value") => codes_static_le::<_, {EXP_GOLOMB}, 11>;
+    #[kani::unwind(12)]
+    c10_codes_rice0_be (quick, "Codes::Rice param 0, BE stream", "Codes::write/read/len vs the code own method; symbolic value") => codes_be::<_, {RICE}, 0>;
+    #[kani::unwind(12)]
+    c10_codesstatic_rice0_be (thorough, "Codes::Rice param 0, BE stream (StaticCodeRead/StaticCodeWrite impls)", "Static* trait impls vs the code own method; symbolic value") => codes_static_be::<_, {RICE}, 0>;
+    #[kani::unwind(12)]
+    c10_codes_rice0_le (thorough, "Codes::Rice param 0, LE stream", "Codes::write/read/len vs the code own method; symbolic value") => codes_le::<_, {RICE}, 0>;
+    #[kani::unwind(12)]
+    c10_codesstatic_rice0_le (thorough, "Codes::Rice param 0, LE stream (StaticCodeRead/StaticCodeWrite impls)", "Static* trait impls vs the code own method; symbolic value") => codes_static_le::<_, {RICE}, 0>;
+    #[kani::unwind(12)]
+    c10_codes_rice1_be (thorough, "Codes::Rice param 1, BE stream", "Codes::write/read/len vs the code own method; symbolic value") => codes_be::<_, {RICE}, 1>;
+    #[kani::unwind(12)]
+    c10_codesstatic_rice1_be (thorough, "Codes::Rice param 1, BE stream (StaticCodeRead/StaticCodeWrite impls)", "Static* trait impls vs the code own method; symbolic value") => codes_static_be::<_, {RICE}, 1>;
+    #[kani::unwind(12)]
+    c10_codes_rice1_le (thorough, "Codes::Rice param 1, LE stream", "Codes::write/read/len vs the code own method; symbolic value") => codes_le::<_, {RICE}, 1>;
+    #[kani::unwind(12)]
+    c10_codesstatic_rice1_le (thorough, "Codes::Rice param 1, LE stream (StaticCodeRead/StaticCodeWrite impls)", "Static* trait impls vs the code own method; symbolic value") => codes_static_le::<_, {RICE}, 1>;
+    #[kani::unwind(12)]
+    c10_codes_rice2_be (thorough, "Codes::Rice param 2, BE stream", "Codes::write/read/len vs the code own method; symbolic value") => codes_be::<_, {RICE}, 2>;
+    #[kani::unwind(12)]
+    c10_codesstatic_rice2_be (thorough, "Codes::Rice param 2, BE stream (StaticCodeRead/StaticCodeWrite impls)", "Static* trait impls vs the code own method; symbolic value") => codes_static_be::<_, {RICE}, 2>;
+    #[kani::unwind(12)]
+    c10_codes_rice2_le (thorough, "Codes::Rice param 2, LE stream", "Codes::write/read/len vs the code own method; symbolic value") => codes_le::<_, {RICE}, 2>;
+    #[kani::unwind(12)]
+    c10_codesstatic_rice2_le (thorough, "Codes::Rice param 2, LE stream (StaticCodeRead/StaticCodeWrite impls)", "Static* trait impls vs the code own method; symbolic value") => codes_static_le::<_, {RICE}, 2>;
+    #[kani::unwind(12)]
+    c10_codes_rice3_be (thorough, "Codes::Rice param 3, BE stream", "Codes::write/read/len vs the code own method; symbolic value") => codes_be::<_, {RICE}, 3>;
+    #[kani::unwind(12)]
+    c10_codesstatic_rice3_be (thorough, "Codes::Rice param 3, BE stream (StaticCodeRead/StaticCodeWrite impls)", "Static* trait impls vs the code own method; symbolic value") => codes_static_be::<_, {RICE}, 3>;
+    #[kani::unwind(12)]
+    c10_codes_rice3_le (thorough, "Codes::Rice param 3, LE stream", "Codes::write/read/len vs the code own method; symbolic value") => codes_le::<_, {RICE}, 3>;
+    #[kani::unwind(12)]
+    c10_codesstatic_rice3_le (thorough, "Codes::Rice param 3, LE stream (StaticCodeRead/StaticCodeWrite impls)", "Static* trait impls vs the code own method; symbolic value") => codes_static_le::<_, {RICE}, 3>;
+    #[kani::unwind(12)]
+    c10_codes_rice4_be (quick, "Codes::Rice param 4, BE stream", "Codes::write/read/len vs the code own method; symbolic value") => codes_be::<_, {RICE}, 4>;
+    #[kani::unwind(12)]
+    c10_codesstatic_rice4_be (thorough, "Codes::Rice param 4, BE stream (StaticCodeRead/StaticCodeWrite impls)", "Static* trait impls vs the code own method; symbolic value") => codes_static_be::<_, {RICE}, 4>;
+    #[kani::unwind(12)]
+    c10_codes_rice4_le (thorough, "Codes::Rice param 4, LE stream", "Codes::write/read/len vs the code own method; symbolic value") => codes_le::<_, {RICE}, 4>;
+    #[kani::unwind(12)]
+    c10_codesstatic_rice4_le (thorough, "Codes::Rice param 4, LE stream (StaticCodeRead/StaticCodeWrite impls)", "Static* trait impls vs the code own method; symbolic value") => codes_static_le::<_, {RICE}, 4>;
+    #[kani::unwind(12)]
+    c10_codes_rice5_be (thorough, "Codes::Rice param 5, BE stream", "Codes::write/read/len vs the code own method; symbolic value") => codes_be::<_, {RICE}, 5>;
+    #[kani::unwind(12)]
+    c10_codesstatic_rice5_be (thorough, "Codes::Rice param 5, BE stream (StaticCodeRead/StaticCodeWrite impls)", "Static* trait impls vs the code own method; symbolic value") => codes_static_be::<_, {RICE}, 5>;
+    #[kani::unwind(12)]
+    c10_codes_rice5_le (thorough, "Codes::Rice param 5, LE stream", "Codes::write/read/len vs the code own method; symbolic value") => codes_le::<_, {RICE}, 5>;
+    #[kani::unwind(12)]
+    c10_codesstatic_rice5_le (thorough, "Codes::Rice param 5, LE stream (StaticCodeRead/StaticCodeWrite impls)", "Static* trait impls vs the code own method; symbolic value") => codes_static_le::<_, {RICE}, 5>;
+    #[kani::unwind(12)]
+    c10_codes_rice6_be (thorough, "Codes::Rice param 6, BE stream", "Codes::write/read/len vs the code own method; symbolic value") => codes_be::<_, {RICE}, 6>;
+    #[kani::unwind(12)]
+    c10_codesstatic_rice6_be (thorough, "Codes::Rice param 6, BE stream (StaticCodeRead/StaticCodeWrite impls)", "Static* trait impls vs the code own method; symbolic value") => codes_static_be::<_, {RICE}, 6>;
+    #[kani::unwind(12)]
+    c10_codes_rice6_le (thorough, "Codes::Rice param 6, LE stream", "Codes::write/read/len vs the code own method; symbolic value") => codes_le::<_, {RICE}, 6>;
+    #[kani::unwind(12)]
+    c10_codesstatic_rice6_le (thorough, "Codes::Rice param 6, LE stream (StaticCodeRead/StaticCodeWrite impls)", "Static* trait impls vs the code own method; symbolic value") => codes_static_le::<_, {RICE}, 6>;
+    #[kani::unwind(12)]
+    c10_codes_rice7_be (thorough, "Codes::Rice param 7, BE stream", "Codes::write/read/len vs the code own method; symbolic value") => codes_be::<_, {RICE}, 7>;
+    #[kani::unwind(12)]
+    c10_codesstatic_rice7_be (thorough, "Codes::Rice param 7, BE stream (StaticCodeRead/StaticCodeWrite impls)", "Static* trait impls vs the code own method; symbolic value") => codes_static_be::<_, {RICE}, 7>;
+    #[kani::unwind(12)]
+    c10_codes_rice7_le (thorough, "Codes::Rice param 7, LE stream", "Codes::write/read/len vs the code own method; symbolic value") => codes_le::<_, {RICE}, 7>;
+    #[kani::unwind(12)]
+    c10_codesstatic_rice7_le (thorough, "Codes::Rice param 7, LE stream (StaticCodeRead/StaticCodeWrite impls)", "Static* trait impls vs the code own method; symbolic value") => codes_static_le::<_, {RICE}, 7>;
+    #[kani::unwind(12)]
+    c10_codes_rice8_be (thorough, "Codes::Rice param 8, BE stream", "Codes::write/read/len vs the code own method; symbolic value") => codes_be::<_, {RICE}, 8>;
+    #[kani::unwind(12)]
+    c10_codesstatic_rice8_be (thorough, "Codes::Rice param 8, BE stream (StaticCodeRead/StaticCodeWrite impls)", "Static* trait impls vs the code own method; symbolic value") => codes_static_be::<_, {RICE}, 8>;
+    #[kani::unwind(12)]
+    c10_codes_rice8_le (thorough, "Codes::Rice param 8, LE stream", "Codes::write/read/len vs the code own method; symbolic value") => codes_le::<_, {RICE}, 8>;
+    #[kani::unwind(12)]
+    c10_codesstatic_rice8_le (thorough, "Codes::Rice param 8, LE stream (StaticCodeRead/StaticCodeWrite impls)", "Static* trait impls vs the code own method; symbolic value") => codes_static_le::<_, {RICE}, 8>;
+    #[kani::unwind(12)]
+    c10_codes_rice9_be (thorough, "Codes::Rice param 9, BE stream", "Codes::write/read/len vs the code own method; symbolic value") => codes_be::<_, {RICE}, 9>;
+    #[kani::unwind(12)]
+    c10_codesstatic_rice9_be (thorough, "Codes::Rice param 9, BE stream (StaticCodeRead/StaticCodeWrite impls)", "Static* trait impls vs the code own method; symbolic value") => codes_static_be::<_, {RICE}, 9>;
+    #[kani::unwind(12)]
+    c10_codes_rice9_le (thorough, "Codes::Rice param 9, LE stream", "Codes::write/read/len vs the code own method; symbolic value") => codes_le::<_, {RICE}, 9>;
+    #[kani::unwind(12)]
+    c10_codesstatic_rice9_le (thorough, "Codes::Rice param 9, LE stream (StaticCodeRead/StaticCodeWrite impls)", "Static* trait impls vs the code own method; symbolic value") => codes_static_le::<_, {RICE}, 9>;
+    #[kani::unwind(12)]
+    c10_codes_rice10_be (thorough, "Codes::Rice param 10, BE stream", "Codes::write/read/len vs the code own method; symbolic value") => codes_be::<_, {RICE}, 10>;
+    #[kani::unwind(12)]
+    c10_codesstatic_rice10_be (thorough, "Codes::Rice param 10, BE stream (StaticCodeRead/StaticCodeWrite impls)", "Static* trait impls vs the code own method; symbolic value") => codes_static_be::<_, {RICE}, 10>;
+    #[kani::unwind(12)]
+    c10_codes_rice10_le (thorough, "Codes::Rice param 10, LE stream", "Codes::write/read/len vs the code own method; symbolic value") => codes_le::<_, {RICE}, 10>;
+    #[kani::unwind(12)]
+    c10_codesstatic_rice10_le (thorough, "Codes::Rice param 10, LE stream (StaticCodeRead/StaticCodeWrite impls)", "Static* trait impls vs the code own method; symbolic value") => codes_static_le::<_, {RICE}, 10>;
+    #[kani::unwind(12)]
+    c10_codes_rice11_be (thorough, "Codes::Rice param 11, BE stream", "Codes::write/read/len vs the code own method; symbolic value") => codes_be::<_, {RICE}, 11>;
+    #[kani::unwind(12)]
+    c10_codesstatic_rice11_be (thorough, "Codes::Rice param 11, BE stream (StaticCodeRead/StaticCodeWrite impls)", "Static* trait impls vs the code own method; symbolic value") => codes_static_be::<_, {RICE}, 11>;
+    #[kani::unwind(12)]
+    c10_codes_rice11_le (thorough, "Codes::Rice param 11, LE stream", "Codes::write/read/len vs the code own method; symbolic value") => codes_le::<_, {RICE}, 11>;
+    #[kani::unwind(12)]
+    c10_codesstatic_rice11_le (thorough, "Codes::Rice param 11, LE stream (StaticCodeRead/StaticCodeWrite impls)", "Static* trait impls vs the code own method; symbolic value") => codes_static_le::<_, {RICE}, 11>;
     #[kani::unwind(12)]
     c10_codes_sym_zeta_be (quick, "Codes::Zeta symbolic param 11..=63, BE stream", "catch-all arms; symbolic value") => codes_sym_be::<_, {ZETA}>;
     #[kani::unwind(12)]
@@ -780,7 +1283,7 @@ crate::harnesses! {
     #[kani::unwind(12)]
     c10_codes_sym_pi_le (thorough, "Codes::Pi symbolic param 11..=63, LE stream", "catch-all arms; symbolic value") => codes_sym_le::<_, {PI}>;
     #[kani::unwind(12)]
-    c10_codes_sym_golomb_be (quick, "Codes::Golomb symbolic param 11..=63, BE stream", "catch-all arms; symbolic value") => codes_sym_be::<_, {GOLOMB}>;
+    c10_codes_sym_golomb_be (thorough, "Codes::Golomb symbolic param 11..=63, BE stream", "catch-all arms; symbolic value") => codes_sym_be::<_, {GOLOMB}>;
     #[kani::unwind(12)]
     c10_codes_sym_golomb_le (thorough, "Codes::Golomb symbolic param 11..=63, LE stream", "catch-all arms; symbolic value") => codes_sym_le::<_, {GOLOMB}>;
     #[kani::unwind(12)]
@@ -788,11 +1291,11 @@ crate::harnesses! {
     #[kani::unwind(12)]
     c10_codes_sym_exp_golomb_le (thorough, "Codes::ExpGolomb symbolic param 11..=63, LE stream", "catch-all arms; symbolic value") => codes_sym_le::<_, {EXP_GOLOMB}>;
     #[kani::unwind(12)]
-    c10_codes_sym_rice_be (thorough, "Codes::Rice symbolic param 11..=63, BE stream", "catch-all arms; symbolic value") => codes_sym_be::<_, {RICE}>;
+    c10_codes_sym_rice_be (quick, "Codes::Rice symbolic param 11..=63, BE stream", "catch-all arms; symbolic value") => codes_sym_be::<_, {RICE}>;
     #[kani::unwind(12)]
     c10_codes_sym_rice_le (thorough, "Codes::Rice symbolic param 11..=63, LE stream", "catch-all arms; symbolic value") => codes_sym_le::<_, {RICE}>;
     #[kani::unwind(12)]
-    c10_func_unary0_be (quick, "FuncCodeWriter/Reader/Len::new(Codes::Unary param 0), BE stream", "function-pointer dispatch vs the code own method; symbolic value") => func_be::<_, {UNARY}, 0>;
+    c10_func_unary0_be (thorough, "FuncCodeWriter/Reader/Len::new(Codes::Unary param 0), BE stream", "function-pointer dispatch vs the code own method; symbolic value") => func_be::<_, {UNARY}, 0>;
     #[kani::unwind(12)]
     c10_func_unary0_le (thorough, "FuncCodeWriter/Reader/Len::new(Codes::Unary param 0), LE stream", "function-pointer dispatch vs the code own method; symbolic value") => func_le::<_, {UNARY}, 0>;
     #[kani::unwind(12)]
@@ -800,15 +1303,15 @@ crate::harnesses! {
     #[kani::unwind(12)]
     c10_func_gamma0_le (thorough, "FuncCodeWriter/Reader/Len::new(Codes::Gamma param 0), LE stream", "function-pointer dispatch vs the code own method; symbolic value") => func_le::<_, {GAMMA}, 0>;
     #[kani::unwind(12)]
-    c10_func_delta0_be (quick, "FuncCodeWriter/Reader/Len::new(Codes::Delta param 0), BE stream", "function-pointer dispatch vs the code own method; symbolic value") => func_be::<_, {DELTA}, 0>;
+    c10_func_delta0_be (thorough, "FuncCodeWriter/Reader/Len::new(Codes::Delta param 0), BE stream", "function-pointer dispatch vs the code own method; symbolic value") => func_be::<_, {DELTA}, 0>;
     #[kani::unwind(12)]
     c10_func_delta0_le (thorough, "FuncCodeWriter/Reader/Len::new(Codes::Delta param 0), LE stream", "function-pointer dispatch vs the code own method; symbolic value") => func_le::<_, {DELTA}, 0>;
     #[kani::unwind(12)]
-    c10_func_omega0_be (quick, "FuncCodeWriter/Reader/Len::new(Codes::Omega param 0), BE stream", "function-pointer dispatch vs the code own method; symbolic value") => func_be::<_, {OMEGA}, 0>;
+    c10_func_omega0_be (thorough, "FuncCodeWriter/Reader/Len::new(Codes::Omega param 0), BE stream", "function-pointer dispatch vs the code own method; symbolic value") => func_be::<_, {OMEGA}, 0>;
     #[kani::unwind(12)]
     c10_func_omega0_le (thorough, "FuncCodeWriter/Reader/Len::new(Codes::Omega param 0), LE stream", "function-pointer dispatch vs the code own method; symbolic value") => func_le::<_, {OMEGA}, 0>;
     #[kani::unwind(12)]
-    c10_func_vbyte_be0_be (quick, "FuncCodeWriter/Reader/Len::new(Codes::VbyteBe param 0), BE stream", "function-pointer dispatch vs the code own method; symbolic value") => func_be::<_, {VBYTE_BE}, 0>;
+    c10_func_vbyte_be0_be (thorough, "FuncCodeWriter/Reader/Len::new(Codes::VbyteBe param 0), BE stream", "function-pointer dispatch vs the code own method; symbolic value") => func_be::<_, {VBYTE_BE}, 0>;
     #[kani::unwind(12)]
     c10_func_vbyte_be0_le (thorough, "FuncCodeWriter/Reader/Len::new(Codes::VbyteBe param 0), LE stream", "function-pointer dispatch vs the code own method; symbolic value") => func_le::<_, {VBYTE_BE}, 0>;
     #[kani::unwind(12)]
@@ -828,7 +1331,7 @@ crate::harnesses! {
     #[kani::unwind(12)]
     c10_func_zeta3_le (thorough, "FuncCodeWriter/Reader/Len::new(Codes::Zeta param 3), LE stream", "function-pointer dispatch vs the code own method; symbolic value") => func_le::<_, {ZETA}, 3>;
     #[kani::unwind(12)]
-    c10_func_zeta4_be (quick, "FuncCodeWriter/Reader/Len::new(Codes::Zeta param 4), BE stream", "function-pointer dispatch vs the code own method; symbolic value") => func_be::<_, {ZETA}, 4>;
+    c10_func_zeta4_be (thorough, "FuncCodeWriter/Reader/Len::new(Codes::Zeta param 4), BE stream", "function-pointer dispatch vs the code own method; symbolic value") => func_be::<_, {ZETA}, 4>;
     #[kani::unwind(12)]
     c10_func_zeta4_le (thorough, "FuncCodeWriter/Reader/Len::new(Codes::Zeta param 4), LE stream", "function-pointer dispatch vs the code own method; symbolic value") => func_le::<_, {ZETA}, 4>;
     #[kani::unwind(12)]
@@ -860,7 +1363,7 @@ crate::harnesses! {
     #[kani::stub(std::backtrace::Backtrace::capture, stub_backtrace_capture)]
     c10_func_rej_zeta11_be (quick, "FuncCodeWriter/Reader/Len::new(Codes::Zeta param 11)", "unsupported parameter must be rejected") => func_rej_be::<_, {ZETA}, 11>;
     #[kani::unwind(12)]
-    c10_func_pi0_be (quick, "FuncCodeWriter/Reader/Len::new(Codes::Pi param 0), BE stream", "function-pointer dispatch vs the code own method; symbolic value") => func_be::<_, {PI}, 0>;
+    c10_func_pi0_be (thorough, "FuncCodeWriter/Reader/Len::new(Codes::Pi param 0), BE stream", "function-pointer dispatch vs the code own method; symbolic value") => func_be::<_, {PI}, 0>;
     #[kani::unwind(12)]
     c10_func_pi0_le (thorough, "FuncCodeWriter/Reader/Len::new(Codes::Pi param 0), LE stream", "function-pointer dispatch vs the code own method; symbolic value") => func_le::<_, {PI}, 0>;
     #[kani::unwind(12)]
@@ -908,7 +1411,7 @@ crate::harnesses! {
     #[kani::stub(std::backtrace::Backtrace::capture, stub_backtrace_capture)]
     c10_func_rej_pi11_be (quick, "FuncCodeWriter/Reader/Len::new(Codes::Pi param 11)", "unsupported parameter must be rejected") => func_rej_be::<_, {PI}, 11>;
     #[kani::unwind(12)]
-    c10_func_golomb1_be (quick, "FuncCodeWriter/Reader/Len::new(Codes::Golomb param 1), BE stream", "function-pointer dispatch vs the code own method; symbolic value") => func_be::<_, {GOLOMB}, 1>;
+    c10_func_golomb1_be (thorough, "FuncCodeWriter/Reader/Len::new(Codes::Golomb param 1), BE stream", "function-pointer dispatch vs the code own method; symbolic value") => func_be::<_, {GOLOMB}, 1>;
     #[kani::unwind(12)]
     c10_func_golomb1_le (thorough, "FuncCodeWriter/Reader/Len::new(Codes::Golomb param 1), LE stream", "function-pointer dispatch vs the code own method; symbolic value") => func_le::<_, {GOLOMB}, 1>;
     #[kani::unwind(12)]
@@ -932,11 +1435,11 @@ crate::harnesses! {
     #[kani::unwind(12)]
     c10_func_golomb6_le (thorough, "FuncCodeWriter/Reader/Len::new(Codes::Golomb param 6), LE stream", "function-pointer dispatch vs the code own method; symbolic value") => func_le::<_, {GOLOMB}, 6>;
     #[kani::unwind(12)]
-    c10_func_golomb7_be (quick, "FuncCodeWriter/Reader/Len::new(Codes::Golomb param 7), BE stream", "function-pointer dispatch vs the code own method; symbolic value") => func_be::<_, {GOLOMB}, 7>;
+    c10_func_golomb7_be (thorough, "FuncCodeWriter/Reader/Len::new(Codes::Golomb param 7), BE stream", "function-pointer dispatch vs the code own method; symbolic value") => func_be::<_, {GOLOMB}, 7>;
     #[kani::unwind(12)]
     c10_func_golomb7_le (thorough, "FuncCodeWriter/Reader/Len::new(Codes::Golomb param 7), LE stream", "function-pointer dispatch vs the code own method; symbolic value") => func_le::<_, {GOLOMB}, 7>;
     #[kani::unwind(12)]
-    c10_func_golomb8_be (thorough, "FuncCodeWriter/Reader/Len::new(Codes::Golomb param 8), BE stream", "function-pointer dispatch vs the code own method; symbolic value") => func_be::<_, {GOLOMB}, 8>;
+    c10_func_golomb8_be (quick, "FuncCodeWriter/Reader/Len::new(Codes::Golomb param 8), BE stream", "function-pointer dispatch vs the code own method; symbolic value") => func_be::<_, {GOLOMB}, 8>;
     #[kani::unwind(12)]
     c10_func_golomb8_le (thorough, "FuncCodeWriter/Reader/Len::new(Codes::Golomb param 8), LE stream", "function-pointer dispatch vs the code own method; symbolic value") => func_le::<_, {GOLOMB}, 8>;
     #[kani::unwind(12)]
@@ -952,7 +1455,7 @@ crate::harnesses! {
     #[kani::stub(std::backtrace::Backtrace::capture, stub_backtrace_capture)]
     c10_func_rej_golomb11_be (quick, "FuncCodeWriter/Reader/Len::new(Codes::Golomb param 11)", "unsupported parameter must be rejected") => func_rej_be::<_, {GOLOMB}, 11>;
     #[kani::unwind(12)]
-    c10_func_exp_golomb0_be (quick, "FuncCodeWriter/Reader/Len::new(Codes::ExpGolomb param 0), BE stream", "function-pointer dispatch vs the code own method; symbolic value") => func_be::<_, {EXP_GOLOMB}, 0>;
+    c10_func_exp_golomb0_be (thorough, "FuncCodeWriter/Reader/Len::new(Codes::ExpGolomb param 0), BE stream", "function-pointer dispatch vs the code own method; symbolic value") => func_be::<_, {EXP_GOLOMB}, 0>;
     #[kani::unwind(12)]
     c10_func_exp_golomb0_le (thorough, "FuncCodeWriter/Reader/Len::new(Codes::ExpGolomb param 0), LE stream", "function-pointer dispatch vs the code own method; symbolic value") => func_le::<_, {EXP_GOLOMB}, 0>;
     #[kani::unwind(12)]
@@ -1000,7 +1503,7 @@ crate::harnesses! {
     #[kani::stub(std::backtrace::Backtrace::capture, stub_backtrace_capture)]
     c10_func_rej_exp_golomb11_be (quick, "FuncCodeWriter/Reader/Len::new(Codes::ExpGolomb param 11)", "unsupported parameter must be rejected") => func_rej_be::<_, {EXP_GOLOMB}, 11>;
     #[kani::unwind(12)]
-    c10_func_rice0_be (quick, "FuncCodeWriter/Reader/Len::new(Codes::Rice param 0), BE stream", "function-pointer dispatch vs the code own method; symbolic value") => func_be::<_, {RICE}, 0>;
+    c10_func_rice0_be (thorough, "FuncCodeWriter/Reader/Len::new(Codes::Rice param 0), BE stream", "function-pointer dispatch vs the code own method; symbolic value") => func_be::<_, {RICE}, 0>;
     #[kani::unwind(12)]
     c10_func_rice0_le (thorough, "FuncCodeWriter/Reader/Len::new(Codes::Rice param 0), LE stream", "function-pointer dispatch vs the code own method; symbolic value") => func_le::<_, {RICE}, 0>;
     #[kani::unwind(12)]
@@ -1051,7 +1554,7 @@ crate::harnesses! {
     #[kani::stub(std::string::ToString::to_string, stub_to_string)]
     #[kani::stub(std::backtrace::Backtrace::capture, stub_backtrace_capture)]
     #[kani::unwind(12)]
-    c10_factory_unary0_be (quick, "FactoryFuncCodeReader::new(Codes::Unary param 0) over a reader factory, BE stream", "get() and inner() vs the code own method; symbolic value") => factory_be::<_, {UNARY}, 0>;
+    c10_factory_unary0_be (thorough, "FactoryFuncCodeReader::new(Codes::Unary param 0) over a reader factory, BE stream", "get() and inner() vs the code own method; symbolic value") => factory_be::<_, {UNARY}, 0>;
     #[kani::stub(alloc::fmt::format, stub_format)]
     #[kani::stub(std::string::ToString::to_string, stub_to_string)]
     #[kani::stub(std::backtrace::Backtrace::capture, stub_backtrace_capture)]
@@ -1101,7 +1604,7 @@ crate::harnesses! {
     #[kani::stub(std::string::ToString::to_string, stub_to_string)]
     #[kani::stub(std::backtrace::Backtrace::capture, stub_backtrace_capture)]
     #[kani::unwind(12)]
-    c10_factory_vbyte_le0_be (quick, "FactoryFuncCodeReader::new(Codes::VbyteLe param 0) over a reader factory, BE stream", "get() and inner() vs the code own method; symbolic value") => factory_be::<_, {VBYTE_LE}, 0>;
+    c10_factory_vbyte_le0_be (thorough, "FactoryFuncCodeReader::new(Codes::VbyteLe param 0) over a reader factory, BE stream", "get() and inner() vs the code own method; symbolic value") => factory_be::<_, {VBYTE_LE}, 0>;
     #[kani::stub(alloc::fmt::format, stub_format)]
     #[kani::stub(std::string::ToString::to_string, stub_to_string)]
     #[kani::stub(std::backtrace::Backtrace::capture, stub_backtrace_capture)]
@@ -1111,7 +1614,7 @@ crate::harnesses! {
     #[kani::stub(std::string::ToString::to_string, stub_to_string)]
     #[kani::stub(std::backtrace::Backtrace::capture, stub_backtrace_capture)]
     #[kani::unwind(12)]
-    c10_factory_zeta1_be (quick, "FactoryFuncCodeReader::new(Codes::Zeta param 1) over a reader factory, BE stream", "get() and inner() vs the code own method; symbolic value") => factory_be::<_, {ZETA}, 1>;
+    c10_factory_zeta1_be (thorough, "FactoryFuncCodeReader::new(Codes::Zeta param 1) over a reader factory, BE stream", "get() and inner() vs the code own method; symbolic value") => factory_be::<_, {ZETA}, 1>;
     #[kani::stub(alloc::fmt::format, stub_format)]
     #[kani::stub(std::string::ToString::to_string, stub_to_string)]
     #[kani::stub(std::backtrace::Backtrace::capture, stub_backtrace_capture)]
@@ -1211,7 +1714,7 @@ crate::harnesses! {
     #[kani::stub(std::string::ToString::to_string, stub_to_string)]
     #[kani::stub(std::backtrace::Backtrace::capture, stub_backtrace_capture)]
     #[kani::unwind(12)]
-    c10_factory_pi0_be (quick, "FactoryFuncCodeReader::new(Codes::Pi param 0) over a reader factory, BE stream", "get() and inner() vs the code own method; symbolic value") => factory_be::<_, {PI}, 0>;
+    c10_factory_pi0_be (thorough, "FactoryFuncCodeReader::new(Codes::Pi param 0) over a reader factory, BE stream", "get() and inner() vs the code own method; symbolic value") => factory_be::<_, {PI}, 0>;
     #[kani::stub(alloc::fmt::format, stub_format)]
     #[kani::stub(std::string::ToString::to_string, stub_to_string)]
     #[kani::stub(std::backtrace::Backtrace::capture, stub_backtrace_capture)]
@@ -1321,7 +1824,7 @@ crate::harnesses! {
     #[kani::stub(std::string::ToString::to_string, stub_to_string)]
     #[kani::stub(std::backtrace::Backtrace::capture, stub_backtrace_capture)]
     #[kani::unwind(12)]
-    c10_factory_golomb1_be (quick, "FactoryFuncCodeReader::new(Codes::Golomb param 1) over a reader factory, BE stream", "get() and inner() vs the code own method; symbolic value") => factory_be::<_, {GOLOMB}, 1>;
+    c10_factory_golomb1_be (thorough, "FactoryFuncCodeReader::new(Codes::Golomb param 1) over a reader factory, BE stream", "get() and inner() vs the code own method; symbolic value") => factory_be::<_, {GOLOMB}, 1>;
     #[kani::stub(alloc::fmt::format, stub_format)]
     #[kani::stub(std::string::ToString::to_string, stub_to_string)]
     #[kani::stub(std::backtrace::Backtrace::capture, stub_backtrace_capture)]
@@ -1331,7 +1834,7 @@ crate::harnesses! {
     #[kani::stub(std::string::ToString::to_string, stub_to_string)]
     #[kani::stub(std::backtrace::Backtrace::capture, stub_backtrace_capture)]
     #[kani::unwind(12)]
-    c10_factory_golomb2_be (quick, "FactoryFuncCodeReader::new(Codes::Golomb param 2) over a reader factory, BE stream", "get() and inner() vs the code own method; symbolic value") => factory_be::<_, {GOLOMB}, 2>;
+    c10_factory_golomb2_be (thorough, "FactoryFuncCodeReader::new(Codes::Golomb param 2) over a reader factory, BE stream", "get() and inner() vs the code own method; symbolic value") => factory_be::<_, {GOLOMB}, 2>;
     #[kani::stub(alloc::fmt::format, stub_format)]
     #[kani::stub(std::string::ToString::to_string, stub_to_string)]
     #[kani::stub(std::backtrace::Backtrace::capture, stub_backtrace_capture)]
@@ -1381,7 +1884,7 @@ crate::harnesses! {
     #[kani::stub(std::string::ToString::to_string, stub_to_string)]
     #[kani::stub(std::backtrace::Backtrace::capture, stub_backtrace_capture)]
     #[kani::unwind(12)]
-    c10_factory_golomb7_be (quick, "FactoryFuncCodeReader::new(Codes::Golomb param 7) over a reader factory, BE stream", "get() and inner() vs the code own method; symbolic value") => factory_be::<_, {GOLOMB}, 7>;
+    c10_factory_golomb7_be (thorough, "FactoryFuncCodeReader::new(Codes::Golomb param 7) over a reader factory, BE stream", "get() and inner() vs the code own method; symbolic value") => factory_be::<_, {GOLOMB}, 7>;
     #[kani::stub(alloc::fmt::format, stub_format)]
     #[kani::stub(std::string::ToString::to_string, stub_to_string)]
     #[kani::stub(std::backtrace::Backtrace::capture, stub_backtrace_capture)]
@@ -1451,7 +1954,7 @@ crate::harnesses! {
     #[kani::stub(std::string::ToString::to_string, stub_to_string)]
     #[kani::stub(std::backtrace::Backtrace::capture, stub_backtrace_capture)]
     #[kani::unwind(12)]
-    c10_factory_exp_golomb3_be (quick, "FactoryFuncCodeReader::new(Codes::ExpGolomb param 3) over a reader factory, BE stream", "get() and inner() vs the code own method; symbolic value") => factory_be::<_, {EXP_GOLOMB}, 3>;
+    c10_factory_exp_golomb3_be (thorough, "FactoryFuncCodeReader::new(Codes::ExpGolomb param 3) over a reader factory, BE stream", "get() and inner() vs the code own method; symbolic value") => factory_be::<_, {EXP_GOLOMB}, 3>;
     #[kani::stub(alloc::fmt::format, stub_format)]
     #[kani::stub(std::string::ToString::to_string, stub_to_string)]
     #[kani::stub(std::backtrace::Backtrace::capture, stub_backtrace_capture)]
@@ -1571,7 +2074,7 @@ crate::harnesses! {
     #[kani::stub(std::string::ToString::to_string, stub_to_string)]
     #[kani::stub(std::backtrace::Backtrace::capture, stub_backtrace_capture)]
     #[kani::unwind(12)]
-    c10_factory_rice4_be (quick, "FactoryFuncCodeReader::new(Codes::Rice param 4) over a reader factory, BE stream", "get() and inner() vs the code own method; symbolic value") => factory_be::<_, {RICE}, 4>;
+    c10_factory_rice4_be (thorough, "FactoryFuncCodeReader::new(Codes::Rice param 4) over a reader factory, BE stream", "get() and inner() vs the code own method; symbolic value") => factory_be::<_, {RICE}, 4>;
     #[kani::stub(alloc::fmt::format, stub_format)]
     #[kani::stub(std::string::ToString::to_string, stub_to_string)]
     #[kani::stub(std::backtrace::Backtrace::capture, stub_backtrace_capture)]
